@@ -64,6 +64,17 @@ let rec sub n0 m =
             | O -> n0
             | S l -> sub k l)
 
+(** val eqb : nat -> nat -> bool **)
+
+let rec eqb n0 m =
+  match n0 with
+  | O -> (match m with
+          | O -> true
+          | S _ -> false)
+  | S n' -> (match m with
+             | O -> false
+             | S m' -> eqb n' m')
+
 (** val leb : nat -> nat -> bool **)
 
 let rec leb n0 m =
@@ -73,9 +84,14 @@ let rec leb n0 m =
              | O -> false
              | S m' -> leb n' m')
 
-(** val eqb : bool -> bool -> bool **)
+(** val ltb : nat -> nat -> bool **)
 
-let eqb b1 b2 =
+let ltb n0 m =
+  leb (S n0) m
+
+(** val eqb0 : bool -> bool -> bool **)
+
+let eqb0 b1 b2 =
   if b1 then b2 else if b2 then false else true
 
 module Nat =
@@ -223,6 +239,12 @@ let rec skipn n0 l =
 let rec seq start = function
 | O -> []
 | S len0 -> start :: (seq (S start) len0)
+
+(** val repeat : 'a1 -> nat -> 'a1 list **)
+
+let rec repeat x = function
+| O -> []
+| S k -> x :: (repeat x k)
 
 type positive =
 | XI of positive
@@ -934,10 +956,10 @@ let effective cli tc doc fmt forced =
 
 (** val opt_eqb : ('a1 -> 'a1 -> bool) -> 'a1 option -> 'a1 option -> bool **)
 
-let opt_eqb eqb0 a b =
+let opt_eqb eqb1 a b =
   match a with
   | Some x -> (match b with
-               | Some y -> eqb0 x y
+               | Some y -> eqb1 x y
                | None -> false)
   | None -> (match b with
              | Some _ -> false
@@ -957,19 +979,19 @@ let precedence_b cli tc doc fmt forced keys r =
                 (opt_eqb N.eqb r.output_stream
                   (first_some
                     (cli.output_stream :: (tc.output_stream :: (doc.output_stream :: (fmt.output_stream :: []))))))
-                (opt_eqb eqb r.keep_crlf
+                (opt_eqb eqb0 r.keep_crlf
                   (first_some
                     (cli.keep_crlf :: (tc.keep_crlf :: (doc.keep_crlf :: (fmt.keep_crlf :: [])))))))
               (opt_eqb N.eqb r.timeout
                 (first_some
                   (cli.timeout :: (tc.timeout :: (doc.timeout :: (fmt.timeout :: [])))))))
-            (opt_eqb eqb r.detached
+            (opt_eqb eqb0 r.detached
               (first_some
                 (cli.detached :: (tc.detached :: (doc.detached :: (fmt.detached :: [])))))))
           (opt_eqb Z.eqb r.skip_code
             (first_some
               (cli.skip_code :: (tc.skip_code :: (doc.skip_code :: (fmt.skip_code :: [])))))))
-        (opt_eqb eqb r.strip_ansi
+        (opt_eqb eqb0 r.strip_ansi
           (first_some
             (cli.strip_ansi :: (tc.strip_ansi :: (doc.strip_ansi :: (fmt.strip_ansi :: [])))))))
       (opt_eqb N.eqb r.wait
@@ -1521,6 +1543,1716 @@ let whitespace_ranges =
     (XO (XO (XO (XO (XO (XO XH))))))))))))))) :: (((Npos (XO (XO (XO (XO (XO
     (XO (XO (XO (XO (XO (XO (XO (XI XH)))))))))))))), (Npos (XO (XO (XO (XO
     (XO (XO (XO (XO (XO (XO (XO (XO (XI XH))))))))))))))) :: [])))))))))
+
+(** val letter_ranges : (n * n) list **)
+
+let letter_ranges =
+  ((Npos (XI (XO (XO (XO (XO (XO XH))))))), (Npos (XO (XI (XO (XI (XI (XO
+    XH)))))))) :: (((Npos (XI (XO (XO (XO (XO (XI XH))))))), (Npos (XO (XI
+    (XO (XI (XI (XI XH)))))))) :: (((Npos (XO (XI (XO (XI (XO (XI (XO
+    XH)))))))), (Npos (XO (XI (XO (XI (XO (XI (XO XH))))))))) :: (((Npos (XI
+    (XO (XI (XO (XI (XI (XO XH)))))))), (Npos (XI (XO (XI (XO (XI (XI (XO
+    XH))))))))) :: (((Npos (XO (XI (XO (XI (XI (XI (XO XH)))))))), (Npos (XO
+    (XI (XO (XI (XI (XI (XO XH))))))))) :: (((Npos (XO (XO (XO (XO (XO (XO
+    (XI XH)))))))), (Npos (XO (XI (XI (XO (XI (XO (XI XH))))))))) :: (((Npos
+    (XO (XO (XO (XI (XI (XO (XI XH)))))))), (Npos (XO (XI (XI (XO (XI (XI (XI
+    XH))))))))) :: (((Npos (XO (XO (XO (XI (XI (XI (XI XH)))))))), (Npos (XI
+    (XO (XO (XO (XO (XO (XI (XI (XO XH))))))))))) :: (((Npos (XO (XI (XI (XO
+    (XO (XO (XI (XI (XO XH)))))))))), (Npos (XI (XO (XO (XO (XI (XO (XI (XI
+    (XO XH))))))))))) :: (((Npos (XO (XO (XO (XO (XO (XI (XI (XI (XO
+    XH)))))))))), (Npos (XO (XO (XI (XO (XO (XI (XI (XI (XO
+    XH))))))))))) :: (((Npos (XO (XO (XI (XI (XO (XI (XI (XI (XO
+    XH)))))))))), (Npos (XO (XO (XI (XI (XO (XI (XI (XI (XO
+    XH))))))))))) :: (((Npos (XO (XI (XI (XI (XO (XI (XI (XI (XO
+    XH)))))))))), (Npos (XO (XI (XI (XI (XO (XI (XI (XI (XO
+    XH))))))))))) :: (((Npos (XO (XO (XO (XO (XI (XI (XI (XO (XI
+    XH)))))))))), (Npos (XO (XO (XI (XO (XI (XI (XI (XO (XI
+    XH))))))))))) :: (((Npos (XO (XI (XI (XO (XI (XI (XI (XO (XI
+    XH)))))))))), (Npos (XI (XI (XI (XO (XI (XI (XI (XO (XI
+    XH))))))))))) :: (((Npos (XO (XI (XO (XI (XI (XI (XI (XO (XI
+    XH)))))))))), (Npos (XI (XO (XI (XI (XI (XI (XI (XO (XI
+    XH))))))))))) :: (((Npos (XI (XI (XI (XI (XI (XI (XI (XO (XI
+    XH)))))))))), (Npos (XI (XI (XI (XI (XI (XI (XI (XO (XI
+    XH))))))))))) :: (((Npos (XO (XI (XI (XO (XO (XO (XO (XI (XI
+    XH)))))))))), (Npos (XO (XI (XI (XO (XO (XO (XO (XI (XI
+    XH))))))))))) :: (((Npos (XO (XO (XO (XI (XO (XO (XO (XI (XI
+    XH)))))))))), (Npos (XO (XI (XO (XI (XO (XO (XO (XI (XI
+    XH))))))))))) :: (((Npos (XO (XO (XI (XI (XO (XO (XO (XI (XI
+    XH)))))))))), (Npos (XO (XO (XI (XI (XO (XO (XO (XI (XI
+    XH))))))))))) :: (((Npos (XO (XI (XI (XI (XO (XO (XO (XI (XI
+    XH)))))))))), (Npos (XI (XO (XO (XO (XO (XI (XO (XI (XI
+    XH))))))))))) :: (((Npos (XI (XI (XO (XO (XO (XI (XO (XI (XI
+    XH)))))))))), (Npos (XI (XO (XI (XO (XI (XI (XI (XI (XI
+    XH))))))))))) :: (((Npos (XI (XI (XI (XO (XI (XI (XI (XI (XI
+    XH)))))))))), (Npos (XI (XO (XO (XO (XO (XO (XO (XI (XO (XO
+    XH)))))))))))) :: (((Npos (XO (XI (XO (XI (XO (XO (XO (XI (XO (XO
+    XH))))))))))), (Npos (XI (XI (XI (XI (XO (XI (XO (XO (XI (XO
+    XH)))))))))))) :: (((Npos (XI (XO (XO (XO (XI (XI (XO (XO (XI (XO
+    XH))))))))))), (Npos (XO (XI (XI (XO (XI (XO (XI (XO (XI (XO
+    XH)))))))))))) :: (((Npos (XI (XO (XO (XI (XI (XO (XI (XO (XI (XO
+    XH))))))))))), (Npos (XI (XO (XO (XI (XI (XO (XI (XO (XI (XO
+    XH)))))))))))) :: (((Npos (XO (XO (XO (XO (XO (XI (XI (XO (XI (XO
+    XH))))))))))), (Npos (XO (XO (XO (XI (XO (XO (XO (XI (XI (XO
+    XH)))))))))))) :: (((Npos (XO (XO (XO (XO (XI (XO (XI (XI (XI (XO
+    XH))))))))))), (Npos (XO (XI (XO (XI (XO (XI (XI (XI (XI (XO
+    XH)))))))))))) :: (((Npos (XI (XI (XI (XI (XO (XI (XI (XI (XI (XO
+    XH))))))))))), (Npos (XO (XI (XO (XO (XI (XI (XI (XI (XI (XO
+    XH)))))))))))) :: (((Npos (XO (XO (XO (XO (XO (XI (XO (XO (XO (XI
+    XH))))))))))), (Npos (XO (XI (XO (XI (XO (XO (XI (XO (XO (XI
+    XH)))))))))))) :: (((Npos (XO (XI (XI (XI (XO (XI (XI (XO (XO (XI
+    XH))))))))))), (Npos (XI (XI (XI (XI (XO (XI (XI (XO (XO (XI
+    XH)))))))))))) :: (((Npos (XI (XO (XO (XO (XI (XI (XI (XO (XO (XI
+    XH))))))))))), (Npos (XI (XI (XO (XO (XI (XO (XI (XI (XO (XI
+    XH)))))))))))) :: (((Npos (XI (XO (XI (XO (XI (XO (XI (XI (XO (XI
+    XH))))))))))), (Npos (XI (XO (XI (XO (XI (XO (XI (XI (XO (XI
+    XH)))))))))))) :: (((Npos (XI (XO (XI (XO (XO (XI (XI (XI (XO (XI
+    XH))))))))))), (Npos (XO (XI (XI (XO (XO (XI (XI (XI (XO (XI
+    XH)))))))))))) :: (((Npos (XO (XI (XI (XI (XO (XI (XI (XI (XO (XI
+    XH))))))))))), (Npos (XI (XI (XI (XI (XO (XI (XI (XI (XO (XI
+    XH)))))))))))) :: (((Npos (XO (XI (XO (XI (XI (XI (XI (XI (XO (XI
+    XH))))))))))), (Npos (XO (XO (XI (XI (XI (XI (XI (XI (XO (XI
+    XH)))))))))))) :: (((Npos (XI (XI (XI (XI (XI (XI (XI (XI (XO (XI
+    XH))))))))))), (Npos (XI (XI (XI (XI (XI (XI (XI (XI (XO (XI
+    XH)))))))))))) :: (((Npos (XO (XO (XO (XO (XI (XO (XO (XO (XI (XI
+    XH))))))))))), (Npos (XO (XO (XO (XO (XI (XO (XO (XO (XI (XI
+    XH)))))))))))) :: (((Npos (XO (XI (XO (XO (XI (XO (XO (XO (XI (XI
+    XH))))))))))), (Npos (XI (XI (XI (XI (XO (XI (XO (XO (XI (XI
+    XH)))))))))))) :: (((Npos (XI (XO (XI (XI (XO (XO (XI (XO (XI (XI
+    XH))))))))))), (Npos (XI (XO (XI (XO (XO (XI (XO (XI (XI (XI
+    XH)))))))))))) :: (((Npos (XI (XO (XO (XO (XI (XI (XO (XI (XI (XI
+    XH))))))))))), (Npos (XI (XO (XO (XO (XI (XI (XO (XI (XI (XI
+    XH)))))))))))) :: (((Npos (XO (XI (XO (XI (XO (XO (XI (XI (XI (XI
+    XH))))))))))), (Npos (XO (XI (XO (XI (XO (XI (XI (XI (XI (XI
+    XH)))))))))))) :: (((Npos (XO (XO (XI (XO (XI (XI (XI (XI (XI (XI
+    XH))))))))))), (Npos (XI (XO (XI (XO (XI (XI (XI (XI (XI (XI
+    XH)))))))))))) :: (((Npos (XO (XI (XO (XI (XI (XI (XI (XI (XI (XI
+    XH))))))))))), (Npos (XO (XI (XO (XI (XI (XI (XI (XI (XI (XI
+    XH)))))))))))) :: (((Npos (XO (XO (XO (XO (XO (XO (XO (XO (XO (XO (XO
+    XH)))))))))))), (Npos (XI (XO (XI (XO (XI (XO (XO (XO (XO (XO (XO
+    XH))))))))))))) :: (((Npos (XO (XI (XO (XI (XI (XO (XO (XO (XO (XO (XO
+    XH)))))))))))), (Npos (XO (XI (XO (XI (XI (XO (XO (XO (XO (XO (XO
+    XH))))))))))))) :: (((Npos (XO (XO (XI (XO (XO (XI (XO (XO (XO (XO (XO
+    XH)))))))))))), (Npos (XO (XO (XI (XO (XO (XI (XO (XO (XO (XO (XO
+    XH))))))))))))) :: (((Npos (XO (XO (XO (XI (XO (XI (XO (XO (XO (XO (XO
+    XH)))))))))))), (Npos (XO (XO (XO (XI (XO (XI (XO (XO (XO (XO (XO
+    XH))))))))))))) :: (((Npos (XO (XO (XO (XO (XO (XO (XI (XO (XO (XO (XO
+    XH)))))))))))), (Npos (XO (XO (XO (XI (XI (XO (XI (XO (XO (XO (XO
+    XH))))))))))))) :: (((Npos (XO (XO (XO (XO (XO (XI (XI (XO (XO (XO (XO
+    XH)))))))))))), (Npos (XO (XI (XO (XI (XO (XI (XI (XO (XO (XO (XO
+    XH))))))))))))) :: (((Npos (XO (XO (XO (XO (XI (XI (XI (XO (XO (XO (XO
+    XH)))))))))))), (Npos (XI (XI (XI (XO (XO (XO (XO (XI (XO (XO (XO
+    XH))))))))))))) :: (((Npos (XI (XO (XO (XI (XO (XO (XO (XI (XO (XO (XO
+    XH)))))))))))), (Npos (XO (XI (XI (XI (XO (XO (XO (XI (XO (XO (XO
+    XH))))))))))))) :: (((Npos (XO (XO (XO (XO (XO (XI (XO (XI (XO (XO (XO
+    XH)))))))))))), (Npos (XI (XO (XO (XI (XO (XO (XI (XI (XO (XO (XO
+    XH))))))))))))) :: (((Npos (XO (XO (XI (XO (XO (XO (XO (XO (XI (XO (XO
+    XH)))))))))))), (Npos (XI (XO (XO (XI (XI (XI (XO (XO (XI (XO (XO
+    XH))))))))))))) :: (((Npos (XI (XO (XI (XI (XI (XI (XO (XO (XI (XO (XO
+    XH)))))))))))), (Npos (XI (XO (XI (XI (XI (XI (XO (XO (XI (XO (XO
+    XH))))))))))))) :: (((Npos (XO (XO (XO (XO (XI (XO (XI (XO (XI (XO (XO
+    XH)))))))))))), (Npos (XO (XO (XO (XO (XI (XO (XI (XO (XI (XO (XO
+    XH))))))))))))) :: (((Npos (XO (XO (XO (XI (XI (XO (XI (XO (XI (XO (XO
+    XH)))))))))))), (Npos (XI (XO (XO (XO (XO (XI (XI (XO (XI (XO (XO
+    XH))))))))))))) :: (((Npos (XI (XO (XO (XO (XI (XI (XI (XO (XI (XO (XO
+    XH)))))))))))), (Npos (XO (XO (XO (XO (XO (XO (XO (XI (XI (XO (XO
+    XH))))))))))))) :: (((Npos (XI (XO (XI (XO (XO (XO (XO (XI (XI (XO (XO
+    XH)))))))))))), (Npos (XO (XO (XI (XI (XO (XO (XO (XI (XI (XO (XO
+    XH))))))))))))) :: (((Npos (XI (XI (XI (XI (XO (XO (XO (XI (XI (XO (XO
+    XH)))))))))))), (Npos (XO (XO (XO (XO (XI (XO (XO (XI (XI (XO (XO
+    XH))))))))))))) :: (((Npos (XI (XI (XO (XO (XI (XO (XO (XI (XI (XO (XO
+    XH)))))))))))), (Npos (XO (XO (XO (XI (XO (XI (XO (XI (XI (XO (XO
+    XH))))))))))))) :: (((Npos (XO (XI (XO (XI (XO (XI (XO (XI (XI (XO (XO
+    XH)))))))))))), (Npos (XO (XO (XO (XO (XI (XI (XO (XI (XI (XO (XO
+    XH))))))))))))) :: (((Npos (XO (XI (XO (XO (XI (XI (XO (XI (XI (XO (XO
+    XH)))))))))))), (Npos (XO (XI (XO (XO (XI (XI (XO (XI (XI (XO (XO
+    XH))))))))))))) :: (((Npos (XO (XI (XI (XO (XI (XI (XO (XI (XI (XO (XO
+    XH)))))))))))), (Npos (XI (XO (XO (XI (XI (XI (XO (XI (XI (XO (XO
+    XH))))))))))))) :: (((Npos (XI (XO (XI (XI (XI (XI (XO (XI (XI (XO (XO
+    XH)))))))))))), (Npos (XI (XO (XI (XI (XI (XI (XO (XI (XI (XO (XO
+    XH))))))))))))) :: (((Npos (XO (XI (XI (XI (XO (XO (XI (XI (XI (XO (XO
+    XH)))))))))))), (Npos (XO (XI (XI (XI (XO (XO (XI (XI (XI (XO (XO
+    XH))))))))))))) :: (((Npos (XO (XO (XI (XI (XI (XO (XI (XI (XI (XO (XO
+    XH)))))))))))), (Npos (XI (XO (XI (XI (XI (XO (XI (XI (XI (XO (XO
+    XH))))))))))))) :: (((Npos (XI (XI (XI (XI (XI (XO (XI (XI (XI (XO (XO
+    XH)))))))))))), (Npos (XI (XO (XO (XO (XO (XI (XI (XI (XI (XO (XO
+    XH))))))))))))) :: (((Npos (XO (XO (XO (XO (XI (XI (XI (XI (XI (XO (XO
+    XH)))))))))))), (Npos (XI (XO (XO (XO (XI (XI (XI (XI (XI (XO (XO
+    XH))))))))))))) :: (((Npos (XO (XO (XI (XI (XI (XI (XI (XI (XI (XO (XO
+    XH)))))))))))), (Npos (XO (XO (XI (XI (XI (XI (XI (XI (XI (XO (XO
+    XH))))))))))))) :: (((Npos (XI (XO (XI (XO (XO (XO (XO (XO (XO (XI (XO
+    XH)))))))))))), (Npos (XO (XI (XO (XI (XO (XO (XO (XO (XO (XI (XO
+    XH))))))))))))) :: (((Npos (XI (XI (XI (XI (XO (XO (XO (XO (XO (XI (XO
+    XH)))))))))))), (Npos (XO (XO (XO (XO (XI (XO (XO (XO (XO (XI (XO
+    XH))))))))))))) :: (((Npos (XI (XI (XO (XO (XI (XO (XO (XO (XO (XI (XO
+    XH)))))))))))), (Npos (XO (XO (XO (XI (XO (XI (XO (XO (XO (XI (XO
+    XH))))))))))))) :: (((Npos (XO (XI (XO (XI (XO (XI (XO (XO (XO (XI (XO
+    XH)))))))))))), (Npos (XO (XO (XO (XO (XI (XI (XO (XO (XO (XI (XO
+    XH))))))))))))) :: (((Npos (XO (XI (XO (XO (XI (XI (XO (XO (XO (XI (XO
+    XH)))))))))))), (Npos (XI (XI (XO (XO (XI (XI (XO (XO (XO (XI (XO
+    XH))))))))))))) :: (((Npos (XI (XO (XI (XO (XI (XI (XO (XO (XO (XI (XO
+    XH)))))))))))), (Npos (XO (XI (XI (XO (XI (XI (XO (XO (XO (XI (XO
+    XH))))))))))))) :: (((Npos (XO (XO (XO (XI (XI (XI (XO (XO (XO (XI (XO
+    XH)))))))))))), (Npos (XI (XO (XO (XI (XI (XI (XO (XO (XO (XI (XO
+    XH))))))))))))) :: (((Npos (XI (XO (XO (XI (XI (XO (XI (XO (XO (XI (XO
+    XH)))))))))))), (Npos (XO (XO (XI (XI (XI (XO (XI (XO (XO (XI (XO
+    XH))))))))))))) :: (((Npos (XO (XI (XI (XI (XI (XO (XI (XO (XO (XI (XO
+    XH)))))))))))), (Npos (XO (XI (XI (XI (XI (XO (XI (XO (XO (XI (XO
+    XH))))))))))))) :: (((Npos (XO (XI (XO (XO (XI (XI (XI (XO (XO (XI (XO
+    XH)))))))))))), (Npos (XO (XO (XI (XO (XI (XI (XI (XO (XO (XI (XO
+    XH))))))))))))) :: (((Npos (XI (XO (XI (XO (XO (XO (XO (XI (XO (XI (XO
+    XH)))))))))))), (Npos (XI (XO (XI (XI (XO (XO (XO (XI (XO (XI (XO
+    XH))))))))))))) :: (((Npos (XI (XI (XI (XI (XO (XO (XO (XI (XO (XI (XO
+    XH)))))))))))), (Npos (XI (XO (XO (XO (XI (XO (XO (XI (XO (XI (XO
+    XH))))))))))))) :: (((Npos (XI (XI (XO (XO (XI (XO (XO (XI (XO (XI (XO
+    XH)))))))))))), (Npos (XO (XO (XO (XI (XO (XI (XO (XI (XO (XI (XO
+    XH))))))))))))) :: (((Npos (XO (XI (XO (XI (XO (XI (XO (XI (XO (XI (XO
+    XH)))))))))))), (Npos (XO (XO (XO (XO (XI (XI (XO (XI (XO (XI (XO
+    XH))))))))))))) :: (((Npos (XO (XI (XO (XO (XI (XI (XO (XI (XO (XI (XO
+    XH)))))))))))), (Npos (XI (XI (XO (XO (XI (XI (XO (XI (XO (XI (XO
+    XH))))))))))))) :: (((Npos (XI (XO (XI (XO (XI (XI (XO (XI (XO (XI (XO
+    XH)))))))))))), (Npos (XI (XO (XO (XI (XI (XI (XO (XI (XO (XI (XO
+    XH))))))))))))) :: (((Npos (XI (XO (XI (XI (XI (XI (XO (XI (XO (XI (XO
+    XH)))))))))))), (Npos (XI (XO (XI (XI (XI (XI (XO (XI (XO (XI (XO
+    XH))))))))))))) :: (((Npos (XO (XO (XO (XO (XI (XO (XI (XI (XO (XI (XO
+    XH)))))))))))), (Npos (XO (XO (XO (XO (XI (XO (XI (XI (XO (XI (XO
+    XH))))))))))))) :: (((Npos (XO (XO (XO (XO (XO (XI (XI (XI (XO (XI (XO
+    XH)))))))))))), (Npos (XI (XO (XO (XO (XO (XI (XI (XI (XO (XI (XO
+    XH))))))))))))) :: (((Npos (XI (XO (XO (XI (XI (XI (XI (XI (XO (XI (XO
+    XH)))))))))))), (Npos (XI (XO (XO (XI (XI (XI (XI (XI (XO (XI (XO
+    XH))))))))))))) :: (((Npos (XI (XO (XI (XO (XO (XO (XO (XO (XI (XI (XO
+    XH)))))))))))), (Npos (XO (XO (XI (XI (XO (XO (XO (XO (XI (XI (XO
+    XH))))))))))))) :: (((Npos (XI (XI (XI (XI (XO (XO (XO (XO (XI (XI (XO
+    XH)))))))))))), (Npos (XO (XO (XO (XO (XI (XO (XO (XO (XI (XI (XO
+    XH))))))))))))) :: (((Npos (XI (XI (XO (XO (XI (XO (XO (XO (XI (XI (XO
+    XH)))))))))))), (Npos (XO (XO (XO (XI (XO (XI (XO (XO (XI (XI (XO
+    XH))))))))))))) :: (((Npos (XO (XI (XO (XI (XO (XI (XO (XO (XI (XI (XO
+    XH)))))))))))), (Npos (XO (XO (XO (XO (XI (XI (XO (XO (XI (XI (XO
+    XH))))))))))))) :: (((Npos (XO (XI (XO (XO (XI (XI (XO (XO (XI (XI (XO
+    XH)))))))))))), (Npos (XI (XI (XO (XO (XI (XI (XO (XO (XI (XI (XO
+    XH))))))))))))) :: (((Npos (XI (XO (XI (XO (XI (XI (XO (XO (XI (XI (XO
+    XH)))))))))))), (Npos (XI (XO (XO (XI (XI (XI (XO (XO (XI (XI (XO
+    XH))))))))))))) :: (((Npos (XI (XO (XI (XI (XI (XI (XO (XO (XI (XI (XO
+    XH)))))))))))), (Npos (XI (XO (XI (XI (XI (XI (XO (XO (XI (XI (XO
+    XH))))))))))))) :: (((Npos (XO (XO (XI (XI (XI (XO (XI (XO (XI (XI (XO
+    XH)))))))))))), (Npos (XI (XO (XI (XI (XI (XO (XI (XO (XI (XI (XO
+    XH))))))))))))) :: (((Npos (XI (XI (XI (XI (XI (XO (XI (XO (XI (XI (XO
+    XH)))))))))))), (Npos (XI (XO (XO (XO (XO (XI (XI (XO (XI (XI (XO
+    XH))))))))))))) :: (((Npos (XI (XO (XO (XO (XI (XI (XI (XO (XI (XI (XO
+    XH)))))))))))), (Npos (XI (XO (XO (XO (XI (XI (XI (XO (XI (XI (XO
+    XH))))))))))))) :: (((Npos (XI (XI (XO (XO (XO (XO (XO (XI (XI (XI (XO
+    XH)))))))))))), (Npos (XI (XI (XO (XO (XO (XO (XO (XI (XI (XI (XO
+    XH))))))))))))) :: (((Npos (XI (XO (XI (XO (XO (XO (XO (XI (XI (XI (XO
+    XH)))))))))))), (Npos (XO (XI (XO (XI (XO (XO (XO (XI (XI (XI (XO
+    XH))))))))))))) :: (((Npos (XO (XI (XI (XI (XO (XO (XO (XI (XI (XI (XO
+    XH)))))))))))), (Npos (XO (XO (XO (XO (XI (XO (XO (XI (XI (XI (XO
+    XH))))))))))))) :: (((Npos (XO (XI (XO (XO (XI (XO (XO (XI (XI (XI (XO
+    XH)))))))))))), (Npos (XI (XO (XI (XO (XI (XO (XO (XI (XI (XI (XO
+    XH))))))))))))) :: (((Npos (XI (XO (XO (XI (XI (XO (XO (XI (XI (XI (XO
+    XH)))))))))))), (Npos (XO (XI (XO (XI (XI (XO (XO (XI (XI (XI (XO
+    XH))))))))))))) :: (((Npos (XO (XO (XI (XI (XI (XO (XO (XI (XI (XI (XO
+    XH)))))))))))), (Npos (XO (XO (XI (XI (XI (XO (XO (XI (XI (XI (XO
+    XH))))))))))))) :: (((Npos (XO (XI (XI (XI (XI (XO (XO (XI (XI (XI (XO
+    XH)))))))))))), (Npos (XI (XI (XI (XI (XI (XO (XO (XI (XI (XI (XO
+    XH))))))))))))) :: (((Npos (XI (XI (XO (XO (XO (XI (XO (XI (XI (XI (XO
+    XH)))))))))))), (Npos (XO (XO (XI (XO (XO (XI (XO (XI (XI (XI (XO
+    XH))))))))))))) :: (((Npos (XO (XO (XO (XI (XO (XI (XO (XI (XI (XI (XO
+    XH)))))))))))), (Npos (XO (XI (XO (XI (XO (XI (XO (XI (XI (XI (XO
+    XH))))))))))))) :: (((Npos (XO (XI (XI (XI (XO (XI (XO (XI (XI (XI (XO
+    XH)))))))))))), (Npos (XI (XO (XO (XI (XI (XI (XO (XI (XI (XI (XO
+    XH))))))))))))) :: (((Npos (XO (XO (XO (XO (XI (XO (XI (XI (XI (XI (XO
+    XH)))))))))))), (Npos (XO (XO (XO (XO (XI (XO (XI (XI (XI (XI (XO
+    XH))))))))))))) :: (((Npos (XI (XO (XI (XO (XO (XO (XO (XO (XO (XO (XI
+    XH)))))))))))), (Npos (XO (XO (XI (XI (XO (XO (XO (XO (XO (XO (XI
+    XH))))))))))))) :: (((Npos (XO (XI (XI (XI (XO (XO (XO (XO (XO (XO (XI
+    XH)))))))))))), (Npos (XO (XO (XO (XO (XI (XO (XO (XO (XO (XO (XI
+    XH))))))))))))) :: (((Npos (XO (XI (XO (XO (XI (XO (XO (XO (XO (XO (XI
+    XH)))))))))))), (Npos (XO (XO (XO (XI (XO (XI (XO (XO (XO (XO (XI
+    XH))))))))))))) :: (((Npos (XO (XI (XO (XI (XO (XI (XO (XO (XO (XO (XI
+    XH)))))))))))), (Npos (XI (XO (XO (XI (XI (XI (XO (XO (XO (XO (XI
+    XH))))))))))))) :: (((Npos (XI (XO (XI (XI (XI (XI (XO (XO (XO (XO (XI
+    XH)))))))))))), (Npos (XI (XO (XI (XI (XI (XI (XO (XO (XO (XO (XI
+    XH))))))))))))) :: (((Npos (XO (XO (XO (XI (XI (XO (XI (XO (XO (XO (XI
+    XH)))))))))))), (Npos (XO (XI (XO (XI (XI (XO (XI (XO (XO (XO (XI
+    XH))))))))))))) :: (((Npos (XI (XO (XI (XI (XI (XO (XI (XO (XO (XO (XI
+    XH)))))))))))), (Npos (XI (XO (XI (XI (XI (XO (XI (XO (XO (XO (XI
+    XH))))))))))))) :: (((Npos (XO (XO (XO (XO (XO (XI (XI (XO (XO (XO (XI
+    XH)))))))))))), (Npos (XI (XO (XO (XO (XO (XI (XI (XO (XO (XO (XI
+    XH))))))))))))) :: (((Npos (XO (XO (XO (XO (XO (XO (XO (XI (XO (XO (XI
+    XH)))))))))))), (Npos (XO (XO (XO (XO (XO (XO (XO (XI (XO (XO (XI
+    XH))))))))))))) :: (((Npos (XI (XO (XI (XO (XO (XO (XO (XI (XO (XO (XI
+    XH)))))))))))), (Npos (XO (XO (XI (XI (XO (XO (XO (XI (XO (XO (XI
+    XH))))))))))))) :: (((Npos (XO (XI (XI (XI (XO (XO (XO (XI (XO (XO (XI
+    XH)))))))))))), (Npos (XO (XO (XO (XO (XI (XO (XO (XI (XO (XO (XI
+    XH))))))))))))) :: (((Npos (XO (XI (XO (XO (XI (XO (XO (XI (XO (XO (XI
+    XH)))))))))))), (Npos (XO (XO (XO (XI (XO (XI (XO (XI (XO (XO (XI
+    XH))))))))))))) :: (((Npos (XO (XI (XO (XI (XO (XI (XO (XI (XO (XO (XI
+    XH)))))))))))), (Npos (XI (XI (XO (XO (XI (XI (XO (XI (XO (XO (XI
+    XH))))))))))))) :: (((Npos (XI (XO (XI (XO (XI (XI (XO (XI (XO (XO (XI
+    XH)))))))))))), (Npos (XI (XO (XO (XI (XI (XI (XO (XI (XO (XO (XI
+    XH))))))))))))) :: (((Npos (XI (XO (XI (XI (XI (XI (XO (XI (XO (XO (XI
+    XH)))))))))))), (Npos (XI (XO (XI (XI (XI (XI (XO (XI (XO (XO (XI
+    XH))))))))))))) :: (((Npos (XI (XO (XI (XI (XI (XO (XI (XI (XO (XO (XI
+    XH)))))))))))), (Npos (XO (XI (XI (XI (XI (XO (XI (XI (XO (XO (XI
+    XH))))))))))))) :: (((Npos (XO (XO (XO (XO (XO (XI (XI (XI (XO (XO (XI
+    XH)))))))))))), (Npos (XI (XO (XO (XO (XO (XI (XI (XI (XO (XO (XI
+    XH))))))))))))) :: (((Npos (XI (XO (XO (XO (XI (XI (XI (XI (XO (XO (XI
+    XH)))))))))))), (Npos (XO (XI (XO (XO (XI (XI (XI (XI (XO (XO (XI
+    XH))))))))))))) :: (((Npos (XO (XO (XI (XO (XO (XO (XO (XO (XI (XO (XI
+    XH)))))))))))), (Npos (XO (XO (XI (XI (XO (XO (XO (XO (XI (XO (XI
+    XH))))))))))))) :: (((Npos (XO (XI (XI (XI (XO (XO (XO (XO (XI (XO (XI
+    XH)))))))))))), (Npos (XO (XO (XO (XO (XI (XO (XO (XO (XI (XO (XI
+    XH))))))))))))) :: (((Npos (XO (XI (XO (XO (XI (XO (XO (XO (XI (XO (XI
+    XH)))))))))))), (Npos (XO (XI (XO (XI (XI (XI (XO (XO (XI (XO (XI
+    XH))))))))))))) :: (((Npos (XI (XO (XI (XI (XI (XI (XO (XO (XI (XO (XI
+    XH)))))))))))), (Npos (XI (XO (XI (XI (XI (XI (XO (XO (XI (XO (XI
+    XH))))))))))))) :: (((Npos (XO (XI (XI (XI (XO (XO (XI (XO (XI (XO (XI
+    XH)))))))))))), (Npos (XO (XI (XI (XI (XO (XO (XI (XO (XI (XO (XI
+    XH))))))))))))) :: (((Npos (XO (XO (XI (XO (XI (XO (XI (XO (XI (XO (XI
+    XH)))))))))))), (Npos (XO (XI (XI (XO (XI (XO (XI (XO (XI (XO (XI
+    XH))))))))))))) :: (((Npos (XI (XI (XI (XI (XI (XO (XI (XO (XI (XO (XI
+    XH)))))))))))), (Npos (XI (XO (XO (XO (XO (XI (XI (XO (XI (XO (XI
+    XH))))))))))))) :: (((Npos (XO (XI (XO (XI (XI (XI (XI (XO (XI (XO (XI
+    XH)))))))))))), (Npos (XI (XI (XI (XI (XI (XI (XI (XO (XI (XO (XI
+    XH))))))))))))) :: (((Npos (XI (XO (XI (XO (XO (XO (XO (XI (XI (XO (XI
+    XH)))))))))))), (Npos (XO (XI (XI (XO (XI (XO (XO (XI (XI (XO (XI
+    XH))))))))))))) :: (((Npos (XO (XI (XO (XI (XI (XO (XO (XI (XI (XO (XI
+    XH)))))))))))), (Npos (XI (XO (XO (XO (XI (XI (XO (XI (XI (XO (XI
+    XH))))))))))))) :: (((Npos (XI (XI (XO (XO (XI (XI (XO (XI (XI (XO (XI
+    XH)))))))))))), (Npos (XI (XI (XO (XI (XI (XI (XO (XI (XI (XO (XI
+    XH))))))))))))) :: (((Npos (XI (XO (XI (XI (XI (XI (XO (XI (XI (XO (XI
+    XH)))))))))))), (Npos (XI (XO (XI (XI (XI (XI (XO (XI (XI (XO (XI
+    XH))))))))))))) :: (((Npos (XO (XO (XO (XO (XO (XO (XI (XI (XI (XO (XI
+    XH)))))))))))), (Npos (XO (XI (XI (XO (XO (XO (XI (XI (XI (XO (XI
+    XH))))))))))))) :: (((Npos (XI (XO (XO (XO (XO (XO (XO (XO (XO (XI (XI
+    XH)))))))))))), (Npos (XO (XO (XO (XO (XI (XI (XO (XO (XO (XI (XI
+    XH))))))))))))) :: (((Npos (XO (XI (XO (XO (XI (XI (XO (XO (XO (XI (XI
+    XH)))))))))))), (Npos (XI (XI (XO (XO (XI (XI (XO (XO (XO (XI (XI
+    XH))))))))))))) :: (((Npos (XO (XO (XO (XO (XO (XO (XI (XO (XO (XI (XI
+    XH)))))))))))), (Npos (XO (XI (XI (XO (XO (XO (XI (XO (XO (XI (XI
+    XH))))))))))))) :: (((Npos (XI (XO (XO (XO (XO (XO (XO (XI (XO (XI (XI
+    XH)))))))))))), (Npos (XO (XI (XO (XO (XO (XO (XO (XI (XO (XI (XI
+    XH))))))))))))) :: (((Npos (XO (XO (XI (XO (XO (XO (XO (XI (XO (XI (XI
+    XH)))))))))))), (Npos (XO (XO (XI (XO (XO (XO (XO (XI (XO (XI (XI
+    XH))))))))))))) :: (((Npos (XO (XI (XI (XO (XO (XO (XO (XI (XO (XI (XI
+    XH)))))))))))), (Npos (XO (XI (XO (XI (XO (XO (XO (XI (XO (XI (XI
+    XH))))))))))))) :: (((Npos (XO (XO (XI (XI (XO (XO (XO (XI (XO (XI (XI
+    XH)))))))))))), (Npos (XI (XI (XO (XO (XO (XI (XO (XI (XO (XI (XI
+    XH))))))))))))) :: (((Npos (XI (XO (XI (XO (XO (XI (XO (XI (XO (XI (XI
+    XH)))))))))))), (Npos (XI (XO (XI (XO (XO (XI (XO (XI (XO (XI (XI
+    XH))))))))))))) :: (((Npos (XI (XI (XI (XO (XO (XI (XO (XI (XO (XI (XI
+    XH)))))))))))), (Npos (XO (XO (XO (XO (XI (XI (XO (XI (XO (XI (XI
+    XH))))))))))))) :: (((Npos (XO (XI (XO (XO (XI (XI (XO (XI (XO (XI (XI
+    XH)))))))))))), (Npos (XI (XI (XO (XO (XI (XI (XO (XI (XO (XI (XI
+    XH))))))))))))) :: (((Npos (XI (XO (XI (XI (XI (XI (XO (XI (XO (XI (XI
+    XH)))))))))))), (Npos (XI (XO (XI (XI (XI (XI (XO (XI (XO (XI (XI
+    XH))))))))))))) :: (((Npos (XO (XO (XO (XO (XO (XO (XI (XI (XO (XI (XI
+    XH)))))))))))), (Npos (XO (XO (XI (XO (XO (XO (XI (XI (XO (XI (XI
+    XH))))))))))))) :: (((Npos (XO (XI (XI (XO (XO (XO (XI (XI (XO (XI (XI
+    XH)))))))))))), (Npos (XO (XI (XI (XO (XO (XO (XI (XI (XO (XI (XI
+    XH))))))))))))) :: (((Npos (XO (XO (XI (XI (XI (XO (XI (XI (XO (XI (XI
+    XH)))))))))))), (Npos (XI (XI (XI (XI (XI (XO (XI (XI (XO (XI (XI
+    XH))))))))))))) :: (((Npos (XO (XO (XO (XO (XO (XO (XO (XO (XI (XI (XI
+    XH)))))))))))), (Npos (XO (XO (XO (XO (XO (XO (XO (XO (XI (XI (XI
+    XH))))))))))))) :: (((Npos (XO (XO (XO (XO (XO (XO (XI (XO (XI (XI (XI
+    XH)))))))))))), (Npos (XI (XI (XI (XO (XO (XO (XI (XO (XI (XI (XI
+    XH))))))))))))) :: (((Npos (XI (XO (XO (XI (XO (XO (XI (XO (XI (XI (XI
+    XH)))))))))))), (Npos (XO (XO (XI (XI (XO (XI (XI (XO (XI (XI (XI
+    XH))))))))))))) :: (((Npos (XO (XO (XO (XI (XO (XO (XO (XI (XI (XI (XI
+    XH)))))))))))), (Npos (XO (XO (XI (XI (XO (XO (XO (XI (XI (XI (XI
+    XH))))))))))))) :: (((Npos (XO (XO (XO (XO (XO (XO (XO (XO (XO (XO (XO
+    (XO XH))))))))))))), (Npos (XO (XI (XO (XI (XO (XI (XO (XO (XO (XO (XO
+    (XO XH)))))))))))))) :: (((Npos (XI (XI (XI (XI (XI (XI (XO (XO (XO (XO
+    (XO (XO XH))))))))))))), (Npos (XI (XI (XI (XI (XI (XI (XO (XO (XO (XO
+    (XO (XO XH)))))))))))))) :: (((Npos (XO (XO (XO (XO (XI (XO (XI (XO (XO
+    (XO (XO (XO XH))))))))))))), (Npos (XI (XO (XI (XO (XI (XO (XI (XO (XO
+    (XO (XO (XO XH)))))))))))))) :: (((Npos (XO (XI (XO (XI (XI (XO (XI (XO
+    (XO (XO (XO (XO XH))))))))))))), (Npos (XI (XO (XI (XI (XI (XO (XI (XO
+    (XO (XO (XO (XO XH)))))))))))))) :: (((Npos (XI (XO (XO (XO (XO (XI (XI
+    (XO (XO (XO (XO (XO XH))))))))))))), (Npos (XI (XO (XO (XO (XO (XI (XI
+    (XO (XO (XO (XO (XO XH)))))))))))))) :: (((Npos (XI (XO (XI (XO (XO (XI
+    (XI (XO (XO (XO (XO (XO XH))))))))))))), (Npos (XO (XI (XI (XO (XO (XI
+    (XI (XO (XO (XO (XO (XO XH)))))))))))))) :: (((Npos (XO (XI (XI (XI (XO
+    (XI (XI (XO (XO (XO (XO (XO XH))))))))))))), (Npos (XO (XO (XO (XO (XI
+    (XI (XI (XO (XO (XO (XO (XO XH)))))))))))))) :: (((Npos (XI (XO (XI (XO
+    (XI (XI (XI (XO (XO (XO (XO (XO XH))))))))))))), (Npos (XI (XO (XO (XO
+    (XO (XO (XO (XI (XO (XO (XO (XO XH)))))))))))))) :: (((Npos (XO (XI (XI
+    (XI (XO (XO (XO (XI (XO (XO (XO (XO XH))))))))))))), (Npos (XO (XI (XI
+    (XI (XO (XO (XO (XI (XO (XO (XO (XO XH)))))))))))))) :: (((Npos (XO (XO
+    (XO (XO (XO (XI (XO (XI (XO (XO (XO (XO XH))))))))))))), (Npos (XI (XO
+    (XI (XO (XO (XO (XI (XI (XO (XO (XO (XO XH)))))))))))))) :: (((Npos (XI
+    (XI (XI (XO (XO (XO (XI (XI (XO (XO (XO (XO XH))))))))))))), (Npos (XI
+    (XI (XI (XO (XO (XO (XI (XI (XO (XO (XO (XO XH)))))))))))))) :: (((Npos
+    (XI (XO (XI (XI (XO (XO (XI (XI (XO (XO (XO (XO XH))))))))))))), (Npos
+    (XI (XO (XI (XI (XO (XO (XI (XI (XO (XO (XO (XO
+    XH)))))))))))))) :: (((Npos (XO (XO (XO (XO (XI (XO (XI (XI (XO (XO (XO
+    (XO XH))))))))))))), (Npos (XO (XI (XO (XI (XI (XI (XI (XI (XO (XO (XO
+    (XO XH)))))))))))))) :: (((Npos (XO (XO (XI (XI (XI (XI (XI (XI (XO (XO
+    (XO (XO XH))))))))))))), (Npos (XO (XO (XO (XI (XO (XO (XI (XO (XO (XI
+    (XO (XO XH)))))))))))))) :: (((Npos (XO (XI (XO (XI (XO (XO (XI (XO (XO
+    (XI (XO (XO XH))))))))))))), (Npos (XI (XO (XI (XI (XO (XO (XI (XO (XO
+    (XI (XO (XO XH)))))))))))))) :: (((Npos (XO (XO (XO (XO (XI (XO (XI (XO
+    (XO (XI (XO (XO XH))))))))))))), (Npos (XO (XI (XI (XO (XI (XO (XI (XO
+    (XO (XI (XO (XO XH)))))))))))))) :: (((Npos (XO (XO (XO (XI (XI (XO (XI
+    (XO (XO (XI (XO (XO XH))))))))))))), (Npos (XO (XO (XO (XI (XI (XO (XI
+    (XO (XO (XI (XO (XO XH)))))))))))))) :: (((Npos (XO (XI (XO (XI (XI (XO
+    (XI (XO (XO (XI (XO (XO XH))))))))))))), (Npos (XI (XO (XI (XI (XI (XO
+    (XI (XO (XO (XI (XO (XO XH)))))))))))))) :: (((Npos (XO (XO (XO (XO (XO
+    (XI (XI (XO (XO (XI (XO (XO XH))))))))))))), (Npos (XO (XO (XO (XI (XO
+    (XO (XO (XI (XO (XI (XO (XO XH)))))))))))))) :: (((Npos (XO (XI (XO (XI
+    (XO (XO (XO (XI (XO (XI (XO (XO XH))))))))))))), (Npos (XI (XO (XI (XI
+    (XO (XO (XO (XI (XO (XI (XO (XO XH)))))))))))))) :: (((Npos (XO (XO (XO
+    (XO (XI (XO (XO (XI (XO (XI (XO (XO XH))))))))))))), (Npos (XO (XO (XO
+    (XO (XI (XI (XO (XI (XO (XI (XO (XO XH)))))))))))))) :: (((Npos (XO (XI
+    (XO (XO (XI (XI (XO (XI (XO (XI (XO (XO XH))))))))))))), (Npos (XI (XO
+    (XI (XO (XI (XI (XO (XI (XO (XI (XO (XO XH)))))))))))))) :: (((Npos (XO
+    (XO (XO (XI (XI (XI (XO (XI (XO (XI (XO (XO XH))))))))))))), (Npos (XO
+    (XI (XI (XI (XI (XI (XO (XI (XO (XI (XO (XO XH)))))))))))))) :: (((Npos
+    (XO (XO (XO (XO (XO (XO (XI (XI (XO (XI (XO (XO XH))))))))))))), (Npos
+    (XO (XO (XO (XO (XO (XO (XI (XI (XO (XI (XO (XO
+    XH)))))))))))))) :: (((Npos (XO (XI (XO (XO (XO (XO (XI (XI (XO (XI (XO
+    (XO XH))))))))))))), (Npos (XI (XO (XI (XO (XO (XO (XI (XI (XO (XI (XO
+    (XO XH)))))))))))))) :: (((Npos (XO (XO (XO (XI (XO (XO (XI (XI (XO (XI
+    (XO (XO XH))))))))))))), (Npos (XO (XI (XI (XO (XI (XO (XI (XI (XO (XI
+    (XO (XO XH)))))))))))))) :: (((Npos (XO (XO (XO (XI (XI (XO (XI (XI (XO
+    (XI (XO (XO XH))))))))))))), (Npos (XO (XO (XO (XO (XI (XO (XO (XO (XI
+    (XI (XO (XO XH)))))))))))))) :: (((Npos (XO (XI (XO (XO (XI (XO (XO (XO
+    (XI (XI (XO (XO XH))))))))))))), (Npos (XI (XO (XI (XO (XI (XO (XO (XO
+    (XI (XI (XO (XO XH)))))))))))))) :: (((Npos (XO (XO (XO (XI (XI (XO (XO
+    (XO (XI (XI (XO (XO XH))))))))))))), (Npos (XO (XI (XO (XI (XI (XO (XI
+    (XO (XI (XI (XO (XO XH)))))))))))))) :: (((Npos (XO (XO (XO (XO (XO (XO
+    (XO (XI (XI (XI (XO (XO XH))))))))))))), (Npos (XI (XI (XI (XI (XO (XO
+    (XO (XI (XI (XI (XO (XO XH)))))))))))))) :: (((Npos (XO (XO (XO (XO (XO
+    (XI (XO (XI (XI (XI (XO (XO XH))))))))))))), (Npos (XI (XO (XI (XO (XI
+    (XI (XI (XI (XI (XI (XO (XO XH)))))))))))))) :: (((Npos (XO (XO (XO (XI
+    (XI (XI (XI (XI (XI (XI (XO (XO XH))))))))))))), (Npos (XI (XO (XI (XI
+    (XI (XI (XI (XI (XI (XI (XO (XO XH)))))))))))))) :: (((Npos (XI (XO (XO
+    (XO (XO (XO (XO (XO (XO (XO (XI (XO XH))))))))))))), (Npos (XO (XO (XI
+    (XI (XO (XI (XI (XO (XO (XI (XI (XO XH)))))))))))))) :: (((Npos (XI (XI
+    (XI (XI (XO (XI (XI (XO (XO (XI (XI (XO XH))))))))))))), (Npos (XI (XI
+    (XI (XI (XI (XI (XI (XO (XO (XI (XI (XO XH)))))))))))))) :: (((Npos (XI
+    (XO (XO (XO (XO (XO (XO (XI (XO (XI (XI (XO XH))))))))))))), (Npos (XO
+    (XI (XO (XI (XI (XO (XO (XI (XO (XI (XI (XO XH)))))))))))))) :: (((Npos
+    (XO (XO (XO (XO (XO (XI (XO (XI (XO (XI (XI (XO XH))))))))))))), (Npos
+    (XO (XI (XO (XI (XO (XI (XI (XI (XO (XI (XI (XO
+    XH)))))))))))))) :: (((Npos (XI (XO (XO (XO (XI (XI (XI (XI (XO (XI (XI
+    (XO XH))))))))))))), (Npos (XO (XO (XO (XI (XI (XI (XI (XI (XO (XI (XI
+    (XO XH)))))))))))))) :: (((Npos (XO (XO (XO (XO (XO (XO (XO (XO (XI (XI
+    (XI (XO XH))))))))))))), (Npos (XI (XO (XO (XO (XI (XO (XO (XO (XI (XI
+    (XI (XO XH)))))))))))))) :: (((Npos (XI (XI (XI (XI (XI (XO (XO (XO (XI
+    (XI (XI (XO XH))))))))))))), (Npos (XI (XO (XO (XO (XI (XI (XO (XO (XI
+    (XI (XI (XO XH)))))))))))))) :: (((Npos (XO (XO (XO (XO (XO (XO (XI (XO
+    (XI (XI (XI (XO XH))))))))))))), (Npos (XI (XO (XO (XO (XI (XO (XI (XO
+    (XI (XI (XI (XO XH)))))))))))))) :: (((Npos (XO (XO (XO (XO (XO (XI (XI
+    (XO (XI (XI (XI (XO XH))))))))))))), (Npos (XO (XO (XI (XI (XO (XI (XI
+    (XO (XI (XI (XI (XO XH)))))))))))))) :: (((Npos (XO (XI (XI (XI (XO (XI
+    (XI (XO (XI (XI (XI (XO XH))))))))))))), (Npos (XO (XO (XO (XO (XI (XI
+    (XI (XO (XI (XI (XI (XO XH)))))))))))))) :: (((Npos (XO (XO (XO (XO (XO
+    (XO (XO (XI (XI (XI (XI (XO XH))))))))))))), (Npos (XI (XI (XO (XO (XI
+    (XI (XO (XI (XI (XI (XI (XO XH)))))))))))))) :: (((Npos (XI (XI (XI (XO
+    (XI (XO (XI (XI (XI (XI (XI (XO XH))))))))))))), (Npos (XI (XI (XI (XO
+    (XI (XO (XI (XI (XI (XI (XI (XO XH)))))))))))))) :: (((Npos (XO (XO (XI
+    (XI (XI (XO (XI (XI (XI (XI (XI (XO XH))))))))))))), (Npos (XO (XO (XI
+    (XI (XI (XO (XI (XI (XI (XI (XI (XO XH)))))))))))))) :: (((Npos (XO (XO
+    (XO (XO (XO (XI (XO (XO (XO (XO (XO (XI XH))))))))))))), (Npos (XO (XO
+    (XO (XI (XI (XI (XI (XO (XO (XO (XO (XI XH)))))))))))))) :: (((Npos (XO
+    (XO (XO (XO (XO (XO (XO (XI (XO (XO (XO (XI XH))))))))))))), (Npos (XO
+    (XO (XI (XO (XO (XO (XO (XI (XO (XO (XO (XI XH)))))))))))))) :: (((Npos
+    (XI (XI (XI (XO (XO (XO (XO (XI (XO (XO (XO (XI XH))))))))))))), (Npos
+    (XO (XO (XO (XI (XO (XI (XO (XI (XO (XO (XO (XI
+    XH)))))))))))))) :: (((Npos (XO (XI (XO (XI (XO (XI (XO (XI (XO (XO (XO
+    (XI XH))))))))))))), (Npos (XO (XI (XO (XI (XO (XI (XO (XI (XO (XO (XO
+    (XI XH)))))))))))))) :: (((Npos (XO (XO (XO (XO (XI (XI (XO (XI (XO (XO
+    (XO (XI XH))))))))))))), (Npos (XI (XO (XI (XO (XI (XI (XI (XI (XO (XO
+    (XO (XI XH)))))))))))))) :: (((Npos (XO (XO (XO (XO (XO (XO (XO (XO (XI
+    (XO (XO (XI XH))))))))))))), (Npos (XO (XI (XI (XI (XI (XO (XO (XO (XI
+    (XO (XO (XI XH)))))))))))))) :: (((Npos (XO (XO (XO (XO (XI (XO (XI (XO
+    (XI (XO (XO (XI XH))))))))))))), (Npos (XI (XO (XI (XI (XO (XI (XI (XO
+    (XI (XO (XO (XI XH)))))))))))))) :: (((Npos (XO (XO (XO (XO (XI (XI (XI
+    (XO (XI (XO (XO (XI XH))))))))))))), (Npos (XO (XO (XI (XO (XI (XI (XI
+    (XO (XI (XO (XO (XI XH)))))))))))))) :: (((Npos (XO (XO (XO (XO (XO (XO
+    (XO (XI (XI (XO (XO (XI XH))))))))))))), (Npos (XI (XI (XO (XI (XO (XI
+    (XO (XI (XI (XO (XO (XI XH)))))))))))))) :: (((Npos (XO (XO (XO (XO (XI
+    (XI (XO (XI (XI (XO (XO (XI XH))))))))))))), (Npos (XI (XO (XO (XI (XO
+    (XO (XI (XI (XI (XO (XO (XI XH)))))))))))))) :: (((Npos (XO (XO (XO (XO
+    (XO (XO (XO (XO (XO (XI (XO (XI XH))))))))))))), (Npos (XO (XI (XI (XO
+    (XI (XO (XO (XO (XO (XI (XO (XI XH)))))))))))))) :: (((Npos (XO (XO (XO
+    (XO (XO (XI (XO (XO (XO (XI (XO (XI XH))))))))))))), (Npos (XO (XO (XI
+    (XO (XI (XO (XI (XO (XO (XI (XO (XI XH)))))))))))))) :: (((Npos (XI (XI
+    (XI (XO (XO (XI (XO (XI (XO (XI (XO (XI XH))))))))))))), (Npos (XI (XI
+    (XI (XO (XO (XI (XO (XI (XO (XI (XO (XI XH)))))))))))))) :: (((Npos (XI
+    (XO (XI (XO (XO (XO (XO (XO (XI (XI (XO (XI XH))))))))))))), (Npos (XI
+    (XI (XO (XO (XI (XI (XO (XO (XI (XI (XO (XI XH)))))))))))))) :: (((Npos
+    (XI (XO (XI (XO (XO (XO (XI (XO (XI (XI (XO (XI XH))))))))))))), (Npos
+    (XO (XO (XI (XI (XO (XO (XI (XO (XI (XI (XO (XI
+    XH)))))))))))))) :: (((Npos (XI (XI (XO (XO (XO (XO (XO (XI (XI (XI (XO
+    (XI XH))))))))))))), (Npos (XO (XO (XO (XO (XO (XI (XO (XI (XI (XI (XO
+    (XI XH)))))))))))))) :: (((Npos (XO (XI (XI (XI (XO (XI (XO (XI (XI (XI
+    (XO (XI XH))))))))))))), (Npos (XI (XI (XI (XI (XO (XI (XO (XI (XI (XI
+    (XO (XI XH)))))))))))))) :: (((Npos (XO (XI (XO (XI (XI (XI (XO (XI (XI
+    (XI (XO (XI XH))))))))))))), (Npos (XI (XO (XI (XO (XO (XI (XI (XI (XI
+    (XI (XO (XI XH)))))))))))))) :: (((Npos (XO (XO (XO (XO (XO (XO (XO (XO
+    (XO (XO (XI (XI XH))))))))))))), (Npos (XI (XI (XO (XO (XO (XI (XO (XO
+    (XO (XO (XI (XI XH)))))))))))))) :: (((Npos (XI (XO (XI (XI (XO (XO (XI
+    (XO (XO (XO (XI (XI XH))))))))))))), (Npos (XI (XI (XI (XI (XO (XO (XI
+    (XO (XO (XO (XI (XI XH)))))))))))))) :: (((Npos (XO (XI (XO (XI (XI (XO
+    (XI (XO (XO (XO (XI (XI XH))))))))))))), (Npos (XI (XO (XI (XI (XI (XI
+    (XI (XO (XO (XO (XI (XI XH)))))))))))))) :: (((Npos (XO (XO (XO (XO (XO
+    (XO (XO (XI (XO (XO (XI (XI XH))))))))))))), (Npos (XO (XI (XO (XI (XO
+    (XO (XO (XI (XO (XO (XI (XI XH)))))))))))))) :: (((Npos (XO (XO (XO (XO
+    (XI (XO (XO (XI (XO (XO (XI (XI XH))))))))))))), (Npos (XO (XI (XO (XI
+    (XI (XI (XO (XI (XO (XO (XI (XI XH)))))))))))))) :: (((Npos (XI (XO (XI
+    (XI (XI (XI (XO (XI (XO (XO (XI (XI XH))))))))))))), (Npos (XI (XI (XI
+    (XI (XI (XI (XO (XI (XO (XO (XI (XI XH)))))))))))))) :: (((Npos (XI (XO
+    (XO (XI (XO (XI (XI (XI (XO (XO (XI (XI XH))))))))))))), (Npos (XO (XO
+    (XI (XI (XO (XI (XI (XI (XO (XO (XI (XI XH)))))))))))))) :: (((Npos (XO
+    (XI (XI (XI (XO (XI (XI (XI (XO (XO (XI (XI XH))))))))))))), (Npos (XI
+    (XI (XO (XO (XI (XI (XI (XI (XO (XO (XI (XI XH)))))))))))))) :: (((Npos
+    (XI (XO (XI (XO (XI (XI (XI (XI (XO (XO (XI (XI XH))))))))))))), (Npos
+    (XO (XI (XI (XO (XI (XI (XI (XI (XO (XO (XI (XI
+    XH)))))))))))))) :: (((Npos (XO (XI (XO (XI (XI (XI (XI (XI (XO (XO (XI
+    (XI XH))))))))))))), (Npos (XO (XI (XO (XI (XI (XI (XI (XI (XO (XO (XI
+    (XI XH)))))))))))))) :: (((Npos (XO (XO (XO (XO (XO (XO (XO (XO (XI (XO
+    (XI (XI XH))))))))))))), (Npos (XI (XI (XI (XI (XI (XI (XO (XI (XI (XO
+    (XI (XI XH)))))))))))))) :: (((Npos (XO (XO (XO (XO (XO (XO (XO (XO (XO
+    (XI (XI (XI XH))))))))))))), (Npos (XI (XO (XI (XO (XI (XO (XO (XO (XI
+    (XI (XI (XI XH)))))))))))))) :: (((Npos (XO (XO (XO (XI (XI (XO (XO (XO
+    (XI (XI (XI (XI XH))))))))))))), (Npos (XI (XO (XI (XI (XI (XO (XO (XO
+    (XI (XI (XI (XI XH)))))))))))))) :: (((Npos (XO (XO (XO (XO (XO (XI (XO
+    (XO (XI (XI (XI (XI XH))))))))))))), (Npos (XI (XO (XI (XO (XO (XO (XI
+    (XO (XI (XI (XI (XI XH)))))))))))))) :: (((Npos (XO (XO (XO (XI (XO (XO
+    (XI (XO (XI (XI (XI (XI XH))))))))))))), (Npos (XI (XO (XI (XI (XO (XO
+    (XI (XO (XI (XI (XI (XI XH)))))))))))))) :: (((Npos (XO (XO (XO (XO (XI
+    (XO (XI (XO (XI (XI (XI (XI XH))))))))))))), (Npos (XI (XI (XI (XO (XI
+    (XO (XI (XO (XI (XI (XI (XI XH)))))))))))))) :: (((Npos (XI (XO (XO (XI
+    (XI (XO (XI (XO (XI (XI (XI (XI XH))))))))))))), (Npos (XI (XO (XO (XI
+    (XI (XO (XI (XO (XI (XI (XI (XI XH)))))))))))))) :: (((Npos (XI (XI (XO
+    (XI (XI (XO (XI (XO (XI (XI (XI (XI XH))))))))))))), (Npos (XI (XI (XO
+    (XI (XI (XO (XI (XO (XI (XI (XI (XI XH)))))))))))))) :: (((Npos (XI (XO
+    (XI (XI (XI (XO (XI (XO (XI (XI (XI (XI XH))))))))))))), (Npos (XI (XO
+    (XI (XI (XI (XO (XI (XO (XI (XI (XI (XI XH)))))))))))))) :: (((Npos (XI
+    (XI (XI (XI (XI (XO (XI (XO (XI (XI (XI (XI XH))))))))))))), (Npos (XI
+    (XO (XI (XI (XI (XI (XI (XO (XI (XI (XI (XI XH)))))))))))))) :: (((Npos
+    (XO (XO (XO (XO (XO (XO (XO (XI (XI (XI (XI (XI XH))))))))))))), (Npos
+    (XO (XO (XI (XO (XI (XI (XO (XI (XI (XI (XI (XI
+    XH)))))))))))))) :: (((Npos (XO (XI (XI (XO (XI (XI (XO (XI (XI (XI (XI
+    (XI XH))))))))))))), (Npos (XO (XO (XI (XI (XI (XI (XO (XI (XI (XI (XI
+    (XI XH)))))))))))))) :: (((Npos (XO (XI (XI (XI (XI (XI (XO (XI (XI (XI
+    (XI (XI XH))))))))))))), (Npos (XO (XI (XI (XI (XI (XI (XO (XI (XI (XI
+    (XI (XI XH)))))))))))))) :: (((Npos (XO (XI (XO (XO (XO (XO (XI (XI (XI
+    (XI (XI (XI XH))))))))))))), (Npos (XO (XO (XI (XO (XO (XO (XI (XI (XI
+    (XI (XI (XI XH)))))))))))))) :: (((Npos (XO (XI (XI (XO (XO (XO (XI (XI
+    (XI (XI (XI (XI XH))))))))))))), (Npos (XO (XO (XI (XI (XO (XO (XI (XI
+    (XI (XI (XI (XI XH)))))))))))))) :: (((Npos (XO (XO (XO (XO (XI (XO (XI
+    (XI (XI (XI (XI (XI XH))))))))))))), (Npos (XI (XI (XO (XO (XI (XO (XI
+    (XI (XI (XI (XI (XI XH)))))))))))))) :: (((Npos (XO (XI (XI (XO (XI (XO
+    (XI (XI (XI (XI (XI (XI XH))))))))))))), (Npos (XI (XI (XO (XI (XI (XO
+    (XI (XI (XI (XI (XI (XI XH)))))))))))))) :: (((Npos (XO (XO (XO (XO (XO
+    (XI (XI (XI (XI (XI (XI (XI XH))))))))))))), (Npos (XO (XO (XI (XI (XO
+    (XI (XI (XI (XI (XI (XI (XI XH)))))))))))))) :: (((Npos (XO (XI (XO (XO
+    (XI (XI (XI (XI (XI (XI (XI (XI XH))))))))))))), (Npos (XO (XO (XI (XO
+    (XI (XI (XI (XI (XI (XI (XI (XI XH)))))))))))))) :: (((Npos (XO (XI (XI
+    (XO (XI (XI (XI (XI (XI (XI (XI (XI XH))))))))))))), (Npos (XO (XO (XI
+    (XI (XI (XI (XI (XI (XI (XI (XI (XI XH)))))))))))))) :: (((Npos (XI (XO
+    (XO (XO (XI (XI (XI (XO (XO (XO (XO (XO (XO XH)))))))))))))), (Npos (XI
+    (XO (XO (XO (XI (XI (XI (XO (XO (XO (XO (XO (XO
+    XH))))))))))))))) :: (((Npos (XI (XI (XI (XI (XI (XI (XI (XO (XO (XO (XO
+    (XO (XO XH)))))))))))))), (Npos (XI (XI (XI (XI (XI (XI (XI (XO (XO (XO
+    (XO (XO (XO XH))))))))))))))) :: (((Npos (XO (XO (XO (XO (XI (XO (XO (XI
+    (XO (XO (XO (XO (XO XH)))))))))))))), (Npos (XO (XO (XI (XI (XI (XO (XO
+    (XI (XO (XO (XO (XO (XO XH))))))))))))))) :: (((Npos (XO (XI (XO (XO (XO
+    (XO (XO (XO (XI (XO (XO (XO (XO XH)))))))))))))), (Npos (XO (XI (XO (XO
+    (XO (XO (XO (XO (XI (XO (XO (XO (XO XH))))))))))))))) :: (((Npos (XI (XI
+    (XI (XO (XO (XO (XO (XO (XI (XO (XO (XO (XO XH)))))))))))))), (Npos (XI
+    (XI (XI (XO (XO (XO (XO (XO (XI (XO (XO (XO (XO
+    XH))))))))))))))) :: (((Npos (XO (XI (XO (XI (XO (XO (XO (XO (XI (XO (XO
+    (XO (XO XH)))))))))))))), (Npos (XI (XI (XO (XO (XI (XO (XO (XO (XI (XO
+    (XO (XO (XO XH))))))))))))))) :: (((Npos (XI (XO (XI (XO (XI (XO (XO (XO
+    (XI (XO (XO (XO (XO XH)))))))))))))), (Npos (XI (XO (XI (XO (XI (XO (XO
+    (XO (XI (XO (XO (XO (XO XH))))))))))))))) :: (((Npos (XI (XO (XO (XI (XI
+    (XO (XO (XO (XI (XO (XO (XO (XO XH)))))))))))))), (Npos (XI (XO (XI (XI
+    (XI (XO (XO (XO (XI (XO (XO (XO (XO XH))))))))))))))) :: (((Npos (XO (XO
+    (XI (XO (XO (XI (XO (XO (XI (XO (XO (XO (XO XH)))))))))))))), (Npos (XO
+    (XO (XI (XO (XO (XI (XO (XO (XI (XO (XO (XO (XO
+    XH))))))))))))))) :: (((Npos (XO (XI (XI (XO (XO (XI (XO (XO (XI (XO (XO
+    (XO (XO XH)))))))))))))), (Npos (XO (XI (XI (XO (XO (XI (XO (XO (XI (XO
+    (XO (XO (XO XH))))))))))))))) :: (((Npos (XO (XO (XO (XI (XO (XI (XO (XO
+    (XI (XO (XO (XO (XO XH)))))))))))))), (Npos (XO (XO (XO (XI (XO (XI (XO
+    (XO (XI (XO (XO (XO (XO XH))))))))))))))) :: (((Npos (XO (XI (XO (XI (XO
+    (XI (XO (XO (XI (XO (XO (XO (XO XH)))))))))))))), (Npos (XI (XO (XI (XI
+    (XO (XI (XO (XO (XI (XO (XO (XO (XO XH))))))))))))))) :: (((Npos (XI (XI
+    (XI (XI (XO (XI (XO (XO (XI (XO (XO (XO (XO XH)))))))))))))), (Npos (XI
+    (XO (XO (XI (XI (XI (XO (XO (XI (XO (XO (XO (XO
+    XH))))))))))))))) :: (((Npos (XO (XO (XI (XI (XI (XI (XO (XO (XI (XO (XO
+    (XO (XO XH)))))))))))))), (Npos (XI (XI (XI (XI (XI (XI (XO (XO (XI (XO
+    (XO (XO (XO XH))))))))))))))) :: (((Npos (XI (XO (XI (XO (XO (XO (XI (XO
+    (XI (XO (XO (XO (XO XH)))))))))))))), (Npos (XI (XO (XO (XI (XO (XO (XI
+    (XO (XI (XO (XO (XO (XO XH))))))))))))))) :: (((Npos (XO (XI (XI (XI (XO
+    (XO (XI (XO (XI (XO (XO (XO (XO XH)))))))))))))), (Npos (XO (XI (XI (XI
+    (XO (XO (XI (XO (XI (XO (XO (XO (XO XH))))))))))))))) :: (((Npos (XI (XI
+    (XO (XO (XO (XO (XO (XI (XI (XO (XO (XO (XO XH)))))))))))))), (Npos (XO
+    (XO (XI (XO (XO (XO (XO (XI (XI (XO (XO (XO (XO
+    XH))))))))))))))) :: (((Npos (XO (XO (XO (XO (XO (XO (XO (XO (XO (XO (XI
+    (XI (XO XH)))))))))))))), (Npos (XO (XO (XI (XO (XO (XI (XI (XI (XO (XO
+    (XI (XI (XO XH))))))))))))))) :: (((Npos (XI (XI (XO (XI (XO (XI (XI (XI
+    (XO (XO (XI (XI (XO XH)))))))))))))), (Npos (XO (XI (XI (XI (XO (XI (XI
+    (XI (XO (XO (XI (XI (XO XH))))))))))))))) :: (((Npos (XO (XI (XO (XO (XI
+    (XI (XI (XI (XO (XO (XI (XI (XO XH)))))))))))))), (Npos (XI (XI (XO (XO
+    (XI (XI (XI (XI (XO (XO (XI (XI (XO XH))))))))))))))) :: (((Npos (XO (XO
+    (XO (XO (XO (XO (XO (XO (XI (XO (XI (XI (XO XH)))))))))))))), (Npos (XI
+    (XO (XI (XO (XO (XI (XO (XO (XI (XO (XI (XI (XO
+    XH))))))))))))))) :: (((Npos (XI (XI (XI (XO (XO (XI (XO (XO (XI (XO (XI
+    (XI (XO XH)))))))))))))), (Npos (XI (XI (XI (XO (XO (XI (XO (XO (XI (XO
+    (XI (XI (XO XH))))))))))))))) :: (((Npos (XI (XO (XI (XI (XO (XI (XO (XO
+    (XI (XO (XI (XI (XO XH)))))))))))))), (Npos (XI (XO (XI (XI (XO (XI (XO
+    (XO (XI (XO (XI (XI (XO XH))))))))))))))) :: (((Npos (XO (XO (XO (XO (XI
+    (XI (XO (XO (XI (XO (XI (XI (XO XH)))))))))))))), (Npos (XI (XI (XI (XO
+    (XO (XI (XI (XO (XI (XO (XI (XI (XO XH))))))))))))))) :: (((Npos (XI (XI
+    (XI (XI (XO (XI (XI (XO (XI (XO (XI (XI (XO XH)))))))))))))), (Npos (XI
+    (XI (XI (XI (XO (XI (XI (XO (XI (XO (XI (XI (XO
+    XH))))))))))))))) :: (((Npos (XO (XO (XO (XO (XO (XO (XO (XI (XI (XO (XI
+    (XI (XO XH)))))))))))))), (Npos (XO (XI (XI (XO (XI (XO (XO (XI (XI (XO
+    (XI (XI (XO XH))))))))))))))) :: (((Npos (XO (XO (XO (XO (XO (XI (XO (XI
+    (XI (XO (XI (XI (XO XH)))))))))))))), (Npos (XO (XI (XI (XO (XO (XI (XO
+    (XI (XI (XO (XI (XI (XO XH))))))))))))))) :: (((Npos (XO (XO (XO (XI (XO
+    (XI (XO (XI (XI (XO (XI (XI (XO XH)))))))))))))), (Npos (XO (XI (XI (XI
+    (XO (XI (XO (XI (XI (XO (XI (XI (XO XH))))))))))))))) :: (((Npos (XO (XO
+    (XO (XO (XI (XI (XO (XI (XI (XO (XI (XI (XO XH)))))))))))))), (Npos (XO
+    (XI (XI (XO (XI (XI (XO (XI (XI (XO (XI (XI (XO
+    XH))))))))))))))) :: (((Npos (XO (XO (XO (XI (XI (XI (XO (XI (XI (XO (XI
+    (XI (XO XH)))))))))))))), (Npos (XO (XI (XI (XI (XI (XI (XO (XI (XI (XO
+    (XI (XI (XO XH))))))))))))))) :: (((Npos (XO (XO (XO (XO (XO (XO (XI (XI
+    (XI (XO (XI (XI (XO XH)))))))))))))), (Npos (XO (XI (XI (XO (XO (XO (XI
+    (XI (XI (XO (XI (XI (XO XH))))))))))))))) :: (((Npos (XO (XO (XO (XI (XO
+    (XO (XI (XI (XI (XO (XI (XI (XO XH)))))))))))))), (Npos (XO (XI (XI (XI
+    (XO (XO (XI (XI (XI (XO (XI (XI (XO XH))))))))))))))) :: (((Npos (XO (XO
+    (XO (XO (XI (XO (XI (XI (XI (XO (XI (XI (XO XH)))))))))))))), (Npos (XO
+    (XI (XI (XO (XI (XO (XI (XI (XI (XO (XI (XI (XO
+    XH))))))))))))))) :: (((Npos (XO (XO (XO (XI (XI (XO (XI (XI (XI (XO (XI
+    (XI (XO XH)))))))))))))), (Npos (XO (XI (XI (XI (XI (XO (XI (XI (XI (XO
+    (XI (XI (XO XH))))))))))))))) :: (((Npos (XI (XI (XI (XI (XO (XI (XO (XO
+    (XO (XI (XI (XI (XO XH)))))))))))))), (Npos (XI (XI (XI (XI (XO (XI (XO
+    (XO (XO (XI (XI (XI (XO XH))))))))))))))) :: (((Npos (XI (XO (XI (XO (XO
+    (XO (XO (XO (XO (XO (XO (XO (XI XH)))))))))))))), (Npos (XO (XI (XI (XO
+    (XO (XO (XO (XO (XO (XO (XO (XO (XI XH))))))))))))))) :: (((Npos (XI (XO
+    (XO (XO (XI (XI (XO (XO (XO (XO (XO (XO (XI XH)))))))))))))), (Npos (XI
+    (XO (XI (XO (XI (XI (XO (XO (XO (XO (XO (XO (XI
+    XH))))))))))))))) :: (((Npos (XI (XI (XO (XI (XI (XI (XO (XO (XO (XO (XO
+    (XO (XI XH)))))))))))))), (Npos (XO (XO (XI (XI (XI (XI (XO (XO (XO (XO
+    (XO (XO (XI XH))))))))))))))) :: (((Npos (XI (XO (XO (XO (XO (XO (XI (XO
+    (XO (XO (XO (XO (XI XH)))))))))))))), (Npos (XO (XI (XI (XO (XI (XO (XO
+    (XI (XO (XO (XO (XO (XI XH))))))))))))))) :: (((Npos (XI (XO (XI (XI (XI
+    (XO (XO (XI (XO (XO (XO (XO (XI XH)))))))))))))), (Npos (XI (XI (XI (XI
+    (XI (XO (XO (XI (XO (XO (XO (XO (XI XH))))))))))))))) :: (((Npos (XI (XO
+    (XO (XO (XO (XI (XO (XI (XO (XO (XO (XO (XI XH)))))))))))))), (Npos (XO
+    (XI (XO (XI (XI (XI (XI (XI (XO (XO (XO (XO (XI
+    XH))))))))))))))) :: (((Npos (XO (XO (XI (XI (XI (XI (XI (XI (XO (XO (XO
+    (XO (XI XH)))))))))))))), (Npos (XI (XI (XI (XI (XI (XI (XI (XI (XO (XO
+    (XO (XO (XI XH))))))))))))))) :: (((Npos (XI (XO (XI (XO (XO (XO (XO (XO
+    (XI (XO (XO (XO (XI XH)))))))))))))), (Npos (XI (XI (XI (XI (XO (XI (XO
+    (XO (XI (XO (XO (XO (XI XH))))))))))))))) :: (((Npos (XI (XO (XO (XO (XI
+    (XI (XO (XO (XI (XO (XO (XO (XI XH)))))))))))))), (Npos (XO (XI (XI (XI
+    (XO (XO (XO (XI (XI (XO (XO (XO (XI XH))))))))))))))) :: (((Npos (XO (XO
+    (XO (XO (XO (XI (XO (XI (XI (XO (XO (XO (XI XH)))))))))))))), (Npos (XI
+    (XI (XI (XI (XI (XI (XO (XI (XI (XO (XO (XO (XI
+    XH))))))))))))))) :: (((Npos (XO (XO (XO (XO (XI (XI (XI (XI (XI (XO (XO
+    (XO (XI XH)))))))))))))), (Npos (XI (XI (XI (XI (XI (XI (XI (XI (XI (XO
+    (XO (XO (XI XH))))))))))))))) :: (((Npos (XO (XO (XO (XO (XO (XO (XO (XO
+    (XO (XO (XI (XO (XI XH)))))))))))))), (Npos (XI (XI (XI (XI (XI (XI (XO
+    (XI (XI (XO (XI (XI (XO (XO XH)))))))))))))))) :: (((Npos (XO (XO (XO (XO
+    (XO (XO (XO (XO (XO (XI (XI (XI (XO (XO XH))))))))))))))), (Npos (XO (XO
+    (XI (XI (XO (XO (XO (XI (XO (XO (XI (XO (XO (XI (XO
+    XH))))))))))))))))) :: (((Npos (XO (XO (XO (XO (XI (XO (XI (XI (XO (XO
+    (XI (XO (XO (XI (XO XH)))))))))))))))), (Npos (XI (XO (XI (XI (XI (XI (XI
+    (XI (XO (XO (XI (XO (XO (XI (XO XH))))))))))))))))) :: (((Npos (XO (XO
+    (XO (XO (XO (XO (XO (XO (XI (XO (XI (XO (XO (XI (XO XH)))))))))))))))),
+    (Npos (XO (XO (XI (XI (XO (XO (XO (XO (XO (XI (XI (XO (XO (XI (XO
+    XH))))))))))))))))) :: (((Npos (XO (XO (XO (XO (XI (XO (XO (XO (XO (XI
+    (XI (XO (XO (XI (XO XH)))))))))))))))), (Npos (XI (XI (XI (XI (XI (XO (XO
+    (XO (XO (XI (XI (XO (XO (XI (XO XH))))))))))))))))) :: (((Npos (XO (XI
+    (XO (XI (XO (XI (XO (XO (XO (XI (XI (XO (XO (XI (XO XH)))))))))))))))),
+    (Npos (XI (XI (XO (XI (XO (XI (XO (XO (XO (XI (XI (XO (XO (XI (XO
+    XH))))))))))))))))) :: (((Npos (XO (XO (XO (XO (XO (XO (XI (XO (XO (XI
+    (XI (XO (XO (XI (XO XH)))))))))))))))), (Npos (XO (XI (XI (XI (XO (XI (XI
+    (XO (XO (XI (XI (XO (XO (XI (XO XH))))))))))))))))) :: (((Npos (XI (XI
+    (XI (XI (XI (XI (XI (XO (XO (XI (XI (XO (XO (XI (XO XH)))))))))))))))),
+    (Npos (XI (XO (XI (XI (XI (XO (XO (XI (XO (XI (XI (XO (XO (XI (XO
+    XH))))))))))))))))) :: (((Npos (XO (XO (XO (XO (XO (XI (XO (XI (XO (XI
+    (XI (XO (XO (XI (XO XH)))))))))))))))), (Npos (XI (XO (XI (XO (XO (XI (XI
+    (XI (XO (XI (XI (XO (XO (XI (XO XH))))))))))))))))) :: (((Npos (XI (XI
+    (XI (XO (XI (XO (XO (XO (XI (XI (XI (XO (XO (XI (XO XH)))))))))))))))),
+    (Npos (XI (XI (XI (XI (XI (XO (XO (XO (XI (XI (XI (XO (XO (XI (XO
+    XH))))))))))))))))) :: (((Npos (XO (XI (XO (XO (XO (XI (XO (XO (XI (XI
+    (XI (XO (XO (XI (XO XH)))))))))))))))), (Npos (XO (XO (XO (XI (XO (XO (XO
+    (XI (XI (XI (XI (XO (XO (XI (XO XH))))))))))))))))) :: (((Npos (XI (XI
+    (XO (XI (XO (XO (XO (XI (XI (XI (XI (XO (XO (XI (XO XH)))))))))))))))),
+    (Npos (XI (XO (XI (XI (XO (XO (XI (XI (XI (XI (XI (XO (XO (XI (XO
+    XH))))))))))))))))) :: (((Npos (XO (XO (XO (XO (XI (XO (XI (XI (XI (XI
+    (XI (XO (XO (XI (XO XH)))))))))))))))), (Npos (XI (XO (XO (XO (XI (XO (XI
+    (XI (XI (XI (XI (XO (XO (XI (XO XH))))))))))))))))) :: (((Npos (XI (XI
+    (XO (XO (XI (XO (XI (XI (XI (XI (XI (XO (XO (XI (XO XH)))))))))))))))),
+    (Npos (XI (XI (XO (XO (XI (XO (XI (XI (XI (XI (XI (XO (XO (XI (XO
+    XH))))))))))))))))) :: (((Npos (XI (XO (XI (XO (XI (XO (XI (XI (XI (XI
+    (XI (XO (XO (XI (XO XH)))))))))))))))), (Npos (XO (XO (XI (XI (XI (XO (XI
+    (XI (XI (XI (XI (XO (XO (XI (XO XH))))))))))))))))) :: (((Npos (XO (XI
+    (XO (XO (XI (XI (XI (XI (XI (XI (XI (XO (XO (XI (XO XH)))))))))))))))),
+    (Npos (XI (XO (XO (XO (XO (XO (XO (XO (XO (XO (XO (XI (XO (XI (XO
+    XH))))))))))))))))) :: (((Npos (XI (XI (XO (XO (XO (XO (XO (XO (XO (XO
+    (XO (XI (XO (XI (XO XH)))))))))))))))), (Npos (XI (XO (XI (XO (XO (XO (XO
+    (XO (XO (XO (XO (XI (XO (XI (XO XH))))))))))))))))) :: (((Npos (XI (XI
+    (XI (XO (XO (XO (XO (XO (XO (XO (XO (XI (XO (XI (XO XH)))))))))))))))),
+    (Npos (XO (XI (XO (XI (XO (XO (XO (XO (XO (XO (XO (XI (XO (XI (XO
+    XH))))))))))))))))) :: (((Npos (XO (XO (XI (XI (XO (XO (XO (XO (XO (XO
+    (XO (XI (XO (XI (XO XH)))))))))))))))), (Npos (XO (XI (XO (XO (XO (XI (XO
+    (XO (XO (XO (XO (XI (XO (XI (XO XH))))))))))))))))) :: (((Npos (XO (XO
+    (XO (XO (XO (XO (XI (XO (XO (XO (XO (XI (XO (XI (XO XH)))))))))))))))),
+    (Npos (XI (XI (XO (XO (XI (XI (XI (XO (XO (XO (XO (XI (XO (XI (XO
+    XH))))))))))))))))) :: (((Npos (XO (XI (XO (XO (XO (XO (XO (XI (XO (XO
+    (XO (XI (XO (XI (XO XH)))))))))))))))), (Npos (XI (XI (XO (XO (XI (XI (XO
+    (XI (XO (XO (XO (XI (XO (XI (XO XH))))))))))))))))) :: (((Npos (XO (XI
+    (XO (XO (XI (XI (XI (XI (XO (XO (XO (XI (XO (XI (XO XH)))))))))))))))),
+    (Npos (XI (XI (XI (XO (XI (XI (XI (XI (XO (XO (XO (XI (XO (XI (XO
+    XH))))))))))))))))) :: (((Npos (XI (XI (XO (XI (XI (XI (XI (XI (XO (XO
+    (XO (XI (XO (XI (XO XH)))))))))))))))), (Npos (XI (XI (XO (XI (XI (XI (XI
+    (XI (XO (XO (XO (XI (XO (XI (XO XH))))))))))))))))) :: (((Npos (XI (XO
+    (XI (XI (XI (XI (XI (XI (XO (XO (XO (XI (XO (XI (XO XH)))))))))))))))),
+    (Npos (XO (XI (XI (XI (XI (XI (XI (XI (XO (XO (XO (XI (XO (XI (XO
+    XH))))))))))))))))) :: (((Npos (XO (XI (XO (XI (XO (XO (XO (XO (XI (XO
+    (XO (XI (XO (XI (XO XH)))))))))))))))), (Npos (XI (XO (XI (XO (XO (XI (XO
+    (XO (XI (XO (XO (XI (XO (XI (XO XH))))))))))))))))) :: (((Npos (XO (XO
+    (XO (XO (XI (XI (XO (XO (XI (XO (XO (XI (XO (XI (XO XH)))))))))))))))),
+    (Npos (XO (XI (XI (XO (XO (XO (XI (XO (XI (XO (XO (XI (XO (XI (XO
+    XH))))))))))))))))) :: (((Npos (XO (XO (XO (XO (XO (XI (XI (XO (XI (XO
+    (XO (XI (XO (XI (XO XH)))))))))))))))), (Npos (XO (XO (XI (XI (XI (XI (XI
+    (XO (XI (XO (XO (XI (XO (XI (XO XH))))))))))))))))) :: (((Npos (XO (XO
+    (XI (XO (XO (XO (XO (XI (XI (XO (XO (XI (XO (XI (XO XH)))))))))))))))),
+    (Npos (XO (XI (XO (XO (XI (XI (XO (XI (XI (XO (XO (XI (XO (XI (XO
+    XH))))))))))))))))) :: (((Npos (XI (XI (XI (XI (XO (XO (XI (XI (XI (XO
+    (XO (XI (XO (XI (XO XH)))))))))))))))), (Npos (XI (XI (XI (XI (XO (XO (XI
+    (XI (XI (XO (XO (XI (XO (XI (XO XH))))))))))))))))) :: (((Npos (XO (XO
+    (XO (XO (XO (XI (XI (XI (XI (XO (XO (XI (XO (XI (XO XH)))))))))))))))),
+    (Npos (XO (XO (XI (XO (XO (XI (XI (XI (XI (XO (XO (XI (XO (XI (XO
+    XH))))))))))))))))) :: (((Npos (XO (XI (XI (XO (XO (XI (XI (XI (XI (XO
+    (XO (XI (XO (XI (XO XH)))))))))))))))), (Npos (XI (XI (XI (XI (XO (XI (XI
+    (XI (XI (XO (XO (XI (XO (XI (XO XH))))))))))))))))) :: (((Npos (XO (XI
+    (XO (XI (XI (XI (XI (XI (XI (XO (XO (XI (XO (XI (XO XH)))))))))))))))),
+    (Npos (XO (XI (XI (XI (XI (XI (XI (XI (XI (XO (XO (XI (XO (XI (XO
+    XH))))))))))))))))) :: (((Npos (XO (XO (XO (XO (XO (XO (XO (XO (XO (XI
+    (XO (XI (XO (XI (XO XH)))))))))))))))), (Npos (XO (XO (XO (XI (XO (XI (XO
+    (XO (XO (XI (XO (XI (XO (XI (XO XH))))))))))))))))) :: (((Npos (XO (XO
+    (XO (XO (XO (XO (XI (XO (XO (XI (XO (XI (XO (XI (XO XH)))))))))))))))),
+    (Npos (XO (XI (XO (XO (XO (XO (XI (XO (XO (XI (XO (XI (XO (XI (XO
+    XH))))))))))))))))) :: (((Npos (XO (XO (XI (XO (XO (XO (XI (XO (XO (XI
+    (XO (XI (XO (XI (XO XH)))))))))))))))), (Npos (XI (XI (XO (XI (XO (XO (XI
+    (XO (XO (XI (XO (XI (XO (XI (XO XH))))))))))))))))) :: (((Npos (XO (XO
+    (XO (XO (XO (XI (XI (XO (XO (XI (XO (XI (XO (XI (XO XH)))))))))))))))),
+    (Npos (XO (XI (XI (XO (XI (XI (XI (XO (XO (XI (XO (XI (XO (XI (XO
+    XH))))))))))))))))) :: (((Npos (XO (XI (XO (XI (XI (XI (XI (XO (XO (XI
+    (XO (XI (XO (XI (XO XH)))))))))))))))), (Npos (XO (XI (XO (XI (XI (XI (XI
+    (XO (XO (XI (XO (XI (XO (XI (XO XH))))))))))))))))) :: (((Npos (XO (XI
+    (XI (XI (XI (XI (XI (XO (XO (XI (XO (XI (XO (XI (XO XH)))))))))))))))),
+    (Npos (XI (XI (XI (XI (XO (XI (XO (XI (XO (XI (XO (XI (XO (XI (XO
+    XH))))))))))))))))) :: (((Npos (XI (XO (XO (XO (XI (XI (XO (XI (XO (XI
+    (XO (XI (XO (XI (XO XH)))))))))))))))), (Npos (XI (XO (XO (XO (XI (XI (XO
+    (XI (XO (XI (XO (XI (XO (XI (XO XH))))))))))))))))) :: (((Npos (XI (XO
+    (XI (XO (XI (XI (XO (XI (XO (XI (XO (XI (XO (XI (XO XH)))))))))))))))),
+    (Npos (XO (XI (XI (XO (XI (XI (XO (XI (XO (XI (XO (XI (XO (XI (XO
+    XH))))))))))))))))) :: (((Npos (XI (XO (XO (XI (XI (XI (XO (XI (XO (XI
+    (XO (XI (XO (XI (XO XH)))))))))))))))), (Npos (XI (XO (XI (XI (XI (XI (XO
+    (XI (XO (XI (XO (XI (XO (XI (XO XH))))))))))))))))) :: (((Npos (XO (XO
+    (XO (XO (XO (XO (XI (XI (XO (XI (XO (XI (XO (XI (XO XH)))))))))))))))),
+    (Npos (XO (XO (XO (XO (XO (XO (XI (XI (XO (XI (XO (XI (XO (XI (XO
+    XH))))))))))))))))) :: (((Npos (XO (XI (XO (XO (XO (XO (XI (XI (XO (XI
+    (XO (XI (XO (XI (XO XH)))))))))))))))), (Npos (XO (XI (XO (XO (XO (XO (XI
+    (XI (XO (XI (XO (XI (XO (XI (XO XH))))))))))))))))) :: (((Npos (XI (XI
+    (XO (XI (XI (XO (XI (XI (XO (XI (XO (XI (XO (XI (XO XH)))))))))))))))),
+    (Npos (XI (XO (XI (XI (XI (XO (XI (XI (XO (XI (XO (XI (XO (XI (XO
+    XH))))))))))))))))) :: (((Npos (XO (XO (XO (XO (XO (XI (XI (XI (XO (XI
+    (XO (XI (XO (XI (XO XH)))))))))))))))), (Npos (XO (XI (XO (XI (XO (XI (XI
+    (XI (XO (XI (XO (XI (XO (XI (XO XH))))))))))))))))) :: (((Npos (XO (XI
+    (XO (XO (XI (XI (XI (XI (XO (XI (XO (XI (XO (XI (XO XH)))))))))))))))),
+    (Npos (XO (XO (XI (XO (XI (XI (XI (XI (XO (XI (XO (XI (XO (XI (XO
+    XH))))))))))))))))) :: (((Npos (XI (XO (XO (XO (XO (XO (XO (XO (XI (XI
+    (XO (XI (XO (XI (XO XH)))))))))))))))), (Npos (XO (XI (XI (XO (XO (XO (XO
+    (XO (XI (XI (XO (XI (XO (XI (XO XH))))))))))))))))) :: (((Npos (XI (XO
+    (XO (XI (XO (XO (XO (XO (XI (XI (XO (XI (XO (XI (XO XH)))))))))))))))),
+    (Npos (XO (XI (XI (XI (XO (XO (XO (XO (XI (XI (XO (XI (XO (XI (XO
+    XH))))))))))))))))) :: (((Npos (XI (XO (XO (XO (XI (XO (XO (XO (XI (XI
+    (XO (XI (XO (XI (XO XH)))))))))))))))), (Npos (XO (XI (XI (XO (XI (XO (XO
+    (XO (XI (XI (XO (XI (XO (XI (XO XH))))))))))))))))) :: (((Npos (XO (XO
+    (XO (XO (XO (XI (XO (XO (XI (XI (XO (XI (XO (XI (XO XH)))))))))))))))),
+    (Npos (XO (XI (XI (XO (XO (XI (XO (XO (XI (XI (XO (XI (XO (XI (XO
+    XH))))))))))))))))) :: (((Npos (XO (XO (XO (XI (XO (XI (XO (XO (XI (XI
+    (XO (XI (XO (XI (XO XH)))))))))))))))), (Npos (XO (XI (XI (XI (XO (XI (XO
+    (XO (XI (XI (XO (XI (XO (XI (XO XH))))))))))))))))) :: (((Npos (XO (XO
+    (XO (XO (XI (XI (XO (XO (XI (XI (XO (XI (XO (XI (XO XH)))))))))))))))),
+    (Npos (XO (XI (XO (XI (XI (XO (XI (XO (XI (XI (XO (XI (XO (XI (XO
+    XH))))))))))))))))) :: (((Npos (XO (XO (XI (XI (XI (XO (XI (XO (XI (XI
+    (XO (XI (XO (XI (XO XH)))))))))))))))), (Npos (XI (XO (XO (XI (XO (XI (XI
+    (XO (XI (XI (XO (XI (XO (XI (XO XH))))))))))))))))) :: (((Npos (XO (XO
+    (XO (XO (XI (XI (XI (XO (XI (XI (XO (XI (XO (XI (XO XH)))))))))))))))),
+    (Npos (XO (XI (XO (XO (XO (XI (XI (XI (XI (XI (XO (XI (XO (XI (XO
+    XH))))))))))))))))) :: (((Npos (XO (XO (XO (XO (XO (XO (XO (XO (XO (XO
+    (XI (XI (XO (XI (XO XH)))))))))))))))), (Npos (XI (XI (XO (XO (XO (XI (XO
+    (XI (XI (XI (XI (XO (XI (XO (XI XH))))))))))))))))) :: (((Npos (XO (XO
+    (XO (XO (XI (XI (XO (XI (XI (XI (XI (XO (XI (XO (XI XH)))))))))))))))),
+    (Npos (XO (XI (XI (XO (XO (XO (XI (XI (XI (XI (XI (XO (XI (XO (XI
+    XH))))))))))))))))) :: (((Npos (XI (XI (XO (XI (XO (XO (XI (XI (XI (XI
+    (XI (XO (XI (XO (XI XH)))))))))))))))), (Npos (XI (XI (XO (XI (XI (XI (XI
+    (XI (XI (XI (XI (XO (XI (XO (XI XH))))))))))))))))) :: (((Npos (XO (XO
+    (XO (XO (XO (XO (XO (XO (XI (XO (XO (XI (XI (XI (XI XH)))))))))))))))),
+    (Npos (XI (XO (XI (XI (XO (XI (XI (XO (XO (XI (XO (XI (XI (XI (XI
+    XH))))))))))))))))) :: (((Npos (XO (XO (XO (XO (XI (XI (XI (XO (XO (XI
+    (XO (XI (XI (XI (XI XH)))))))))))))))), (Npos (XI (XO (XO (XI (XI (XO (XI
+    (XI (XO (XI (XO (XI (XI (XI (XI XH))))))))))))))))) :: (((Npos (XO (XO
+    (XO (XO (XO (XO (XO (XO (XI (XI (XO (XI (XI (XI (XI XH)))))))))))))))),
+    (Npos (XO (XI (XI (XO (XO (XO (XO (XO (XI (XI (XO (XI (XI (XI (XI
+    XH))))))))))))))))) :: (((Npos (XI (XI (XO (XO (XI (XO (XO (XO (XI (XI
+    (XO (XI (XI (XI (XI XH)))))))))))))))), (Npos (XI (XI (XI (XO (XI (XO (XO
+    (XO (XI (XI (XO (XI (XI (XI (XI XH))))))))))))))))) :: (((Npos (XI (XO
+    (XI (XI (XI (XO (XO (XO (XI (XI (XO (XI (XI (XI (XI XH)))))))))))))))),
+    (Npos (XI (XO (XI (XI (XI (XO (XO (XO (XI (XI (XO (XI (XI (XI (XI
+    XH))))))))))))))))) :: (((Npos (XI (XI (XI (XI (XI (XO (XO (XO (XI (XI
+    (XO (XI (XI (XI (XI XH)))))))))))))))), (Npos (XO (XO (XO (XI (XO (XI (XO
+    (XO (XI (XI (XO (XI (XI (XI (XI XH))))))))))))))))) :: (((Npos (XO (XI
+    (XO (XI (XO (XI (XO (XO (XI (XI (XO (XI (XI (XI (XI XH)))))))))))))))),
+    (Npos (XO (XI (XI (XO (XI (XI (XO (XO (XI (XI (XO (XI (XI (XI (XI
+    XH))))))))))))))))) :: (((Npos (XO (XO (XO (XI (XI (XI (XO (XO (XI (XI
+    (XO (XI (XI (XI (XI XH)))))))))))))))), (Npos (XO (XO (XI (XI (XI (XI (XO
+    (XO (XI (XI (XO (XI (XI (XI (XI XH))))))))))))))))) :: (((Npos (XO (XI
+    (XI (XI (XI (XI (XO (XO (XI (XI (XO (XI (XI (XI (XI XH)))))))))))))))),
+    (Npos (XO (XI (XI (XI (XI (XI (XO (XO (XI (XI (XO (XI (XI (XI (XI
+    XH))))))))))))))))) :: (((Npos (XO (XO (XO (XO (XO (XO (XI (XO (XI (XI
+    (XO (XI (XI (XI (XI XH)))))))))))))))), (Npos (XI (XO (XO (XO (XO (XO (XI
+    (XO (XI (XI (XO (XI (XI (XI (XI XH))))))))))))))))) :: (((Npos (XI (XI
+    (XO (XO (XO (XO (XI (XO (XI (XI (XO (XI (XI (XI (XI XH)))))))))))))))),
+    (Npos (XO (XO (XI (XO (XO (XO (XI (XO (XI (XI (XO (XI (XI (XI (XI
+    XH))))))))))))))))) :: (((Npos (XO (XI (XI (XO (XO (XO (XI (XO (XI (XI
+    (XO (XI (XI (XI (XI XH)))))))))))))))), (Npos (XI (XO (XO (XO (XI (XI (XO
+    (XI (XI (XI (XO (XI (XI (XI (XI XH))))))))))))))))) :: (((Npos (XI (XI
+    (XO (XO (XI (XO (XI (XI (XI (XI (XO (XI (XI (XI (XI XH)))))))))))))))),
+    (Npos (XI (XO (XI (XI (XI (XI (XO (XO (XI (XO (XI (XI (XI (XI (XI
+    XH))))))))))))))))) :: (((Npos (XO (XO (XO (XO (XI (XO (XI (XO (XI (XO
+    (XI (XI (XI (XI (XI XH)))))))))))))))), (Npos (XI (XI (XI (XI (XO (XO (XO
+    (XI (XI (XO (XI (XI (XI (XI (XI XH))))))))))))))))) :: (((Npos (XO (XI
+    (XO (XO (XI (XO (XO (XI (XI (XO (XI (XI (XI (XI (XI XH)))))))))))))))),
+    (Npos (XI (XI (XI (XO (XO (XO (XI (XI (XI (XO (XI (XI (XI (XI (XI
+    XH))))))))))))))))) :: (((Npos (XO (XO (XO (XO (XI (XI (XI (XI (XI (XO
+    (XI (XI (XI (XI (XI XH)))))))))))))))), (Npos (XI (XI (XO (XI (XI (XI (XI
+    (XI (XI (XO (XI (XI (XI (XI (XI XH))))))))))))))))) :: (((Npos (XO (XO
+    (XO (XO (XI (XI (XI (XO (XO (XI (XI (XI (XI (XI (XI XH)))))))))))))))),
+    (Npos (XO (XO (XI (XO (XI (XI (XI (XO (XO (XI (XI (XI (XI (XI (XI
+    XH))))))))))))))))) :: (((Npos (XO (XI (XI (XO (XI (XI (XI (XO (XO (XI
+    (XI (XI (XI (XI (XI XH)))))))))))))))), (Npos (XO (XO (XI (XI (XI (XI (XI
+    (XI (XO (XI (XI (XI (XI (XI (XI XH))))))))))))))))) :: (((Npos (XI (XO
+    (XO (XO (XO (XI (XO (XO (XI (XI (XI (XI (XI (XI (XI XH)))))))))))))))),
+    (Npos (XO (XI (XO (XI (XI (XI (XO (XO (XI (XI (XI (XI (XI (XI (XI
+    XH))))))))))))))))) :: (((Npos (XI (XO (XO (XO (XO (XO (XI (XO (XI (XI
+    (XI (XI (XI (XI (XI XH)))))))))))))))), (Npos (XO (XI (XO (XI (XI (XO (XI
+    (XO (XI (XI (XI (XI (XI (XI (XI XH))))))))))))))))) :: (((Npos (XO (XI
+    (XI (XO (XO (XI (XI (XO (XI (XI (XI (XI (XI (XI (XI XH)))))))))))))))),
+    (Npos (XO (XI (XI (XI (XI (XI (XO (XI (XI (XI (XI (XI (XI (XI (XI
+    XH))))))))))))))))) :: (((Npos (XO (XI (XO (XO (XO (XO (XI (XI (XI (XI
+    (XI (XI (XI (XI (XI XH)))))))))))))))), (Npos (XI (XI (XI (XO (XO (XO (XI
+    (XI (XI (XI (XI (XI (XI (XI (XI XH))))))))))))))))) :: (((Npos (XO (XI
+    (XO (XI (XO (XO (XI (XI (XI (XI (XI (XI (XI (XI (XI XH)))))))))))))))),
+    (Npos (XI (XI (XI (XI (XO (XO (XI (XI (XI (XI (XI (XI (XI (XI (XI
+    XH))))))))))))))))) :: (((Npos (XO (XI (XO (XO (XI (XO (XI (XI (XI (XI
+    (XI (XI (XI (XI (XI XH)))))))))))))))), (Npos (XI (XI (XI (XO (XI (XO (XI
+    (XI (XI (XI (XI (XI (XI (XI (XI XH))))))))))))))))) :: (((Npos (XO (XI
+    (XO (XI (XI (XO (XI (XI (XI (XI (XI (XI (XI (XI (XI XH)))))))))))))))),
+    (Npos (XO (XO (XI (XI (XI (XO (XI (XI (XI (XI (XI (XI (XI (XI (XI
+    XH))))))))))))))))) :: (((Npos (XO (XO (XO (XO (XO (XO (XO (XO (XO (XO
+    (XO (XO (XO (XO (XO (XO XH))))))))))))))))), (Npos (XI (XI (XO (XI (XO
+    (XO (XO (XO (XO (XO (XO (XO (XO (XO (XO (XO
+    XH)))))))))))))))))) :: (((Npos (XI (XO (XI (XI (XO (XO (XO (XO (XO (XO
+    (XO (XO (XO (XO (XO (XO XH))))))))))))))))), (Npos (XO (XI (XI (XO (XO
+    (XI (XO (XO (XO (XO (XO (XO (XO (XO (XO (XO
+    XH)))))))))))))))))) :: (((Npos (XO (XO (XO (XI (XO (XI (XO (XO (XO (XO
+    (XO (XO (XO (XO (XO (XO XH))))))))))))))))), (Npos (XO (XI (XO (XI (XI
+    (XI (XO (XO (XO (XO (XO (XO (XO (XO (XO (XO
+    XH)))))))))))))))))) :: (((Npos (XO (XO (XI (XI (XI (XI (XO (XO (XO (XO
+    (XO (XO (XO (XO (XO (XO XH))))))))))))))))), (Npos (XI (XO (XI (XI (XI
+    (XI (XO (XO (XO (XO (XO (XO (XO (XO (XO (XO
+    XH)))))))))))))))))) :: (((Npos (XI (XI (XI (XI (XI (XI (XO (XO (XO (XO
+    (XO (XO (XO (XO (XO (XO XH))))))))))))))))), (Npos (XI (XO (XI (XI (XO
+    (XO (XI (XO (XO (XO (XO (XO (XO (XO (XO (XO
+    XH)))))))))))))))))) :: (((Npos (XO (XO (XO (XO (XI (XO (XI (XO (XO (XO
+    (XO (XO (XO (XO (XO (XO XH))))))))))))))))), (Npos (XI (XO (XI (XI (XI
+    (XO (XI (XO (XO (XO (XO (XO (XO (XO (XO (XO
+    XH)))))))))))))))))) :: (((Npos (XO (XO (XO (XO (XO (XO (XO (XI (XO (XO
+    (XO (XO (XO (XO (XO (XO XH))))))))))))))))), (Npos (XO (XI (XO (XI (XI
+    (XI (XI (XI (XO (XO (XO (XO (XO (XO (XO (XO
+    XH)))))))))))))))))) :: (((Npos (XO (XO (XO (XO (XO (XO (XO (XI (XO (XI
+    (XO (XO (XO (XO (XO (XO XH))))))))))))))))), (Npos (XO (XO (XI (XI (XI
+    (XO (XO (XI (XO (XI (XO (XO (XO (XO (XO (XO
+    XH)))))))))))))))))) :: (((Npos (XO (XO (XO (XO (XO (XI (XO (XI (XO (XI
+    (XO (XO (XO (XO (XO (XO XH))))))))))))))))), (Npos (XO (XO (XO (XO (XI
+    (XO (XI (XI (XO (XI (XO (XO (XO (XO (XO (XO
+    XH)))))))))))))))))) :: (((Npos (XO (XO (XO (XO (XO (XO (XO (XO (XI (XI
+    (XO (XO (XO (XO (XO (XO XH))))))))))))))))), (Npos (XI (XI (XI (XI (XI
+    (XO (XO (XO (XI (XI (XO (XO (XO (XO (XO (XO
+    XH)))))))))))))))))) :: (((Npos (XI (XO (XI (XI (XO (XI (XO (XO (XI (XI
+    (XO (XO (XO (XO (XO (XO XH))))))))))))))))), (Npos (XO (XO (XO (XO (XO
+    (XO (XI (XO (XI (XI (XO (XO (XO (XO (XO (XO
+    XH)))))))))))))))))) :: (((Npos (XO (XI (XO (XO (XO (XO (XI (XO (XI (XI
+    (XO (XO (XO (XO (XO (XO XH))))))))))))))))), (Npos (XI (XO (XO (XI (XO
+    (XO (XI (XO (XI (XI (XO (XO (XO (XO (XO (XO
+    XH)))))))))))))))))) :: (((Npos (XO (XO (XO (XO (XI (XO (XI (XO (XI (XI
+    (XO (XO (XO (XO (XO (XO XH))))))))))))))))), (Npos (XI (XO (XI (XO (XI
+    (XI (XI (XO (XI (XI (XO (XO (XO (XO (XO (XO
+    XH)))))))))))))))))) :: (((Npos (XO (XO (XO (XO (XO (XO (XO (XI (XI (XI
+    (XO (XO (XO (XO (XO (XO XH))))))))))))))))), (Npos (XI (XO (XI (XI (XI
+    (XO (XO (XI (XI (XI (XO (XO (XO (XO (XO (XO
+    XH)))))))))))))))))) :: (((Npos (XO (XO (XO (XO (XO (XI (XO (XI (XI (XI
+    (XO (XO (XO (XO (XO (XO XH))))))))))))))))), (Npos (XI (XI (XO (XO (XO
+    (XO (XI (XI (XI (XI (XO (XO (XO (XO (XO (XO
+    XH)))))))))))))))))) :: (((Npos (XO (XO (XO (XI (XO (XO (XI (XI (XI (XI
+    (XO (XO (XO (XO (XO (XO XH))))))))))))))))), (Npos (XI (XI (XI (XI (XO
+    (XO (XI (XI (XI (XI (XO (XO (XO (XO (XO (XO
+    XH)))))))))))))))))) :: (((Npos (XO (XO (XO (XO (XO (XO (XO (XO (XO (XO
+    (XI (XO (XO (XO (XO (XO XH))))))))))))))))), (Npos (XI (XO (XI (XI (XI
+    (XO (XO (XI (XO (XO (XI (XO (XO (XO (XO (XO
+    XH)))))))))))))))))) :: (((Npos (XO (XO (XO (XO (XI (XI (XO (XI (XO (XO
+    (XI (XO (XO (XO (XO (XO XH))))))))))))))))), (Npos (XI (XI (XO (XO (XI
+    (XO (XI (XI (XO (XO (XI (XO (XO (XO (XO (XO
+    XH)))))))))))))))))) :: (((Npos (XO (XO (XO (XI (XI (XO (XI (XI (XO (XO
+    (XI (XO (XO (XO (XO (XO XH))))))))))))))))), (Npos (XI (XI (XO (XI (XI
+    (XI (XI (XI (XO (XO (XI (XO (XO (XO (XO (XO
+    XH)))))))))))))))))) :: (((Npos (XO (XO (XO (XO (XO (XO (XO (XO (XI (XO
+    (XI (XO (XO (XO (XO (XO XH))))))))))))))))), (Npos (XI (XI (XI (XO (XO
+    (XI (XO (XO (XI (XO (XI (XO (XO (XO (XO (XO
+    XH)))))))))))))))))) :: (((Npos (XO (XO (XO (XO (XI (XI (XO (XO (XI (XO
+    (XI (XO (XO (XO (XO (XO XH))))))))))))))))), (Npos (XI (XI (XO (XO (XO
+    (XI (XI (XO (XI (XO (XI (XO (XO (XO (XO (XO
+    XH)))))))))))))))))) :: (((Npos (XO (XO (XO (XO (XI (XI (XI (XO (XI (XO
+    (XI (XO (XO (XO (XO (XO XH))))))))))))))))), (Npos (XO (XI (XO (XI (XI
+    (XI (XI (XO (XI (XO (XI (XO (XO (XO (XO (XO
+    XH)))))))))))))))))) :: (((Npos (XO (XO (XI (XI (XI (XI (XI (XO (XI (XO
+    (XI (XO (XO (XO (XO (XO XH))))))))))))))))), (Npos (XO (XI (XO (XI (XO
+    (XO (XO (XI (XI (XO (XI (XO (XO (XO (XO (XO
+    XH)))))))))))))))))) :: (((Npos (XO (XO (XI (XI (XO (XO (XO (XI (XI (XO
+    (XI (XO (XO (XO (XO (XO XH))))))))))))))))), (Npos (XO (XI (XO (XO (XI
+    (XO (XO (XI (XI (XO (XI (XO (XO (XO (XO (XO
+    XH)))))))))))))))))) :: (((Npos (XO (XO (XI (XO (XI (XO (XO (XI (XI (XO
+    (XI (XO (XO (XO (XO (XO XH))))))))))))))))), (Npos (XI (XO (XI (XO (XI
+    (XO (XO (XI (XI (XO (XI (XO (XO (XO (XO (XO
+    XH)))))))))))))))))) :: (((Npos (XI (XI (XI (XO (XI (XO (XO (XI (XI (XO
+    (XI (XO (XO (XO (XO (XO XH))))))))))))))))), (Npos (XI (XO (XO (XO (XO
+    (XI (XO (XI (XI (XO (XI (XO (XO (XO (XO (XO
+    XH)))))))))))))))))) :: (((Npos (XI (XI (XO (XO (XO (XI (XO (XI (XI (XO
+    (XI (XO (XO (XO (XO (XO XH))))))))))))))))), (Npos (XI (XO (XO (XO (XI
+    (XI (XO (XI (XI (XO (XI (XO (XO (XO (XO (XO
+    XH)))))))))))))))))) :: (((Npos (XI (XI (XO (XO (XI (XI (XO (XI (XI (XO
+    (XI (XO (XO (XO (XO (XO XH))))))))))))))))), (Npos (XI (XO (XO (XI (XI
+    (XI (XO (XI (XI (XO (XI (XO (XO (XO (XO (XO
+    XH)))))))))))))))))) :: (((Npos (XI (XI (XO (XI (XI (XI (XO (XI (XI (XO
+    (XI (XO (XO (XO (XO (XO XH))))))))))))))))), (Npos (XO (XO (XI (XI (XI
+    (XI (XO (XI (XI (XO (XI (XO (XO (XO (XO (XO
+    XH)))))))))))))))))) :: (((Npos (XO (XO (XO (XO (XO (XO (XI (XI (XI (XO
+    (XI (XO (XO (XO (XO (XO XH))))))))))))))))), (Npos (XI (XI (XO (XO (XI
+    (XI (XI (XI (XI (XO (XI (XO (XO (XO (XO (XO
+    XH)))))))))))))))))) :: (((Npos (XO (XO (XO (XO (XO (XO (XO (XO (XO (XI
+    (XI (XO (XO (XO (XO (XO XH))))))))))))))))), (Npos (XO (XI (XI (XO (XI
+    (XI (XO (XO (XI (XI (XI (XO (XO (XO (XO (XO
+    XH)))))))))))))))))) :: (((Npos (XO (XO (XO (XO (XO (XO (XI (XO (XI (XI
+    (XI (XO (XO (XO (XO (XO XH))))))))))))))))), (Npos (XI (XO (XI (XO (XI
+    (XO (XI (XO (XI (XI (XI (XO (XO (XO (XO (XO
+    XH)))))))))))))))))) :: (((Npos (XO (XO (XO (XO (XO (XI (XI (XO (XI (XI
+    (XI (XO (XO (XO (XO (XO XH))))))))))))))))), (Npos (XI (XI (XI (XO (XO
+    (XI (XI (XO (XI (XI (XI (XO (XO (XO (XO (XO
+    XH)))))))))))))))))) :: (((Npos (XO (XO (XO (XO (XO (XO (XO (XI (XI (XI
+    (XI (XO (XO (XO (XO (XO XH))))))))))))))))), (Npos (XI (XO (XI (XO (XO
+    (XO (XO (XI (XI (XI (XI (XO (XO (XO (XO (XO
+    XH)))))))))))))))))) :: (((Npos (XI (XI (XI (XO (XO (XO (XO (XI (XI (XI
+    (XI (XO (XO (XO (XO (XO XH))))))))))))))))), (Npos (XO (XO (XO (XO (XI
+    (XI (XO (XI (XI (XI (XI (XO (XO (XO (XO (XO
+    XH)))))))))))))))))) :: (((Npos (XO (XI (XO (XO (XI (XI (XO (XI (XI (XI
+    (XI (XO (XO (XO (XO (XO XH))))))))))))))))), (Npos (XO (XI (XO (XI (XI
+    (XI (XO (XI (XI (XI (XI (XO (XO (XO (XO (XO
+    XH)))))))))))))))))) :: (((Npos (XO (XO (XO (XO (XO (XO (XO (XO (XO (XO
+    (XO (XI (XO (XO (XO (XO XH))))))))))))))))), (Npos (XI (XO (XI (XO (XO
+    (XO (XO (XO (XO (XO (XO (XI (XO (XO (XO (XO
+    XH)))))))))))))))))) :: (((Npos (XO (XO (XO (XI (XO (XO (XO (XO (XO (XO
+    (XO (XI (XO (XO (XO (XO XH))))))))))))))))), (Npos (XO (XO (XO (XI (XO
+    (XO (XO (XO (XO (XO (XO (XI (XO (XO (XO (XO
+    XH)))))))))))))))))) :: (((Npos (XO (XI (XO (XI (XO (XO (XO (XO (XO (XO
+    (XO (XI (XO (XO (XO (XO XH))))))))))))))))), (Npos (XI (XO (XI (XO (XI
+    (XI (XO (XO (XO (XO (XO (XI (XO (XO (XO (XO
+    XH)))))))))))))))))) :: (((Npos (XI (XI (XI (XO (XI (XI (XO (XO (XO (XO
+    (XO (XI (XO (XO (XO (XO XH))))))))))))))))), (Npos (XO (XO (XO (XI (XI
+    (XI (XO (XO (XO (XO (XO (XI (XO (XO (XO (XO
+    XH)))))))))))))))))) :: (((Npos (XO (XO (XI (XI (XI (XI (XO (XO (XO (XO
+    (XO (XI (XO (XO (XO (XO XH))))))))))))))))), (Npos (XO (XO (XI (XI (XI
+    (XI (XO (XO (XO (XO (XO (XI (XO (XO (XO (XO
+    XH)))))))))))))))))) :: (((Npos (XI (XI (XI (XI (XI (XI (XO (XO (XO (XO
+    (XO (XI (XO (XO (XO (XO XH))))))))))))))))), (Npos (XI (XO (XI (XO (XI
+    (XO (XI (XO (XO (XO (XO (XI (XO (XO (XO (XO
+    XH)))))))))))))))))) :: (((Npos (XO (XO (XO (XO (XO (XI (XI (XO (XO (XO
+    (XO (XI (XO (XO (XO (XO XH))))))))))))))))), (Npos (XO (XI (XI (XO (XI
+    (XI (XI (XO (XO (XO (XO (XI (XO (XO (XO (XO
+    XH)))))))))))))))))) :: (((Npos (XO (XO (XO (XO (XO (XO (XO (XI (XO (XO
+    (XO (XI (XO (XO (XO (XO XH))))))))))))))))), (Npos (XO (XI (XI (XI (XI
+    (XO (XO (XI (XO (XO (XO (XI (XO (XO (XO (XO
+    XH)))))))))))))))))) :: (((Npos (XO (XO (XO (XO (XO (XI (XI (XI (XO (XO
+    (XO (XI (XO (XO (XO (XO XH))))))))))))))))), (Npos (XO (XI (XO (XO (XI
+    (XI (XI (XI (XO (XO (XO (XI (XO (XO (XO (XO
+    XH)))))))))))))))))) :: (((Npos (XO (XO (XI (XO (XI (XI (XI (XI (XO (XO
+    (XO (XI (XO (XO (XO (XO XH))))))))))))))))), (Npos (XI (XO (XI (XO (XI
+    (XI (XI (XI (XO (XO (XO (XI (XO (XO (XO (XO
+    XH)))))))))))))))))) :: (((Npos (XO (XO (XO (XO (XO (XO (XO (XO (XI (XO
+    (XO (XI (XO (XO (XO (XO XH))))))))))))))))), (Npos (XI (XO (XI (XO (XI
+    (XO (XO (XO (XI (XO (XO (XI (XO (XO (XO (XO
+    XH)))))))))))))))))) :: (((Npos (XO (XO (XO (XO (XO (XI (XO (XO (XI (XO
+    (XO (XI (XO (XO (XO (XO XH))))))))))))))))), (Npos (XI (XO (XO (XI (XI
+    (XI (XO (XO (XI (XO (XO (XI (XO (XO (XO (XO
+    XH)))))))))))))))))) :: (((Npos (XO (XO (XO (XO (XO (XO (XO (XI (XI (XO
+    (XO (XI (XO (XO (XO (XO XH))))))))))))))))), (Npos (XI (XI (XI (XO (XI
+    (XI (XO (XI (XI (XO (XO (XI (XO (XO (XO (XO
+    XH)))))))))))))))))) :: (((Npos (XO (XI (XI (XI (XI (XI (XO (XI (XI (XO
+    (XO (XI (XO (XO (XO (XO XH))))))))))))))))), (Npos (XI (XI (XI (XI (XI
+    (XI (XO (XI (XI (XO (XO (XI (XO (XO (XO (XO
+    XH)))))))))))))))))) :: (((Npos (XO (XO (XO (XO (XO (XO (XO (XO (XO (XI
+    (XO (XI (XO (XO (XO (XO XH))))))))))))))))), (Npos (XO (XO (XO (XO (XO
+    (XO (XO (XO (XO (XI (XO (XI (XO (XO (XO (XO
+    XH)))))))))))))))))) :: (((Npos (XO (XO (XO (XO (XI (XO (XO (XO (XO (XI
+    (XO (XI (XO (XO (XO (XO XH))))))))))))))))), (Npos (XI (XI (XO (XO (XI
+    (XO (XO (XO (XO (XI (XO (XI (XO (XO (XO (XO
+    XH)))))))))))))))))) :: (((Npos (XI (XO (XI (XO (XI (XO (XO (XO (XO (XI
+    (XO (XI (XO (XO (XO (XO XH))))))))))))))))), (Npos (XI (XI (XI (XO (XI
+    (XO (XO (XO (XO (XI (XO (XI (XO (XO (XO (XO
+    XH)))))))))))))))))) :: (((Npos (XI (XO (XO (XI (XI (XO (XO (XO (XO (XI
+    (XO (XI (XO (XO (XO (XO XH))))))))))))))))), (Npos (XI (XO (XI (XO (XI
+    (XI (XO (XO (XO (XI (XO (XI (XO (XO (XO (XO
+    XH)))))))))))))))))) :: (((Npos (XO (XO (XO (XO (XO (XI (XI (XO (XO (XI
+    (XO (XI (XO (XO (XO (XO XH))))))))))))))))), (Npos (XO (XO (XI (XI (XI
+    (XI (XI (XO (XO (XI (XO (XI (XO (XO (XO (XO
+    XH)))))))))))))))))) :: (((Npos (XO (XO (XO (XO (XO (XO (XO (XI (XO (XI
+    (XO (XI (XO (XO (XO (XO XH))))))))))))))))), (Npos (XO (XO (XI (XI (XI
+    (XO (XO (XI (XO (XI (XO (XI (XO (XO (XO (XO
+    XH)))))))))))))))))) :: (((Npos (XO (XO (XO (XO (XO (XO (XI (XI (XO (XI
+    (XO (XI (XO (XO (XO (XO XH))))))))))))))))), (Npos (XI (XI (XI (XO (XO
+    (XO (XI (XI (XO (XI (XO (XI (XO (XO (XO (XO
+    XH)))))))))))))))))) :: (((Npos (XI (XO (XO (XI (XO (XO (XI (XI (XO (XI
+    (XO (XI (XO (XO (XO (XO XH))))))))))))))))), (Npos (XO (XO (XI (XO (XO
+    (XI (XI (XI (XO (XI (XO (XI (XO (XO (XO (XO
+    XH)))))))))))))))))) :: (((Npos (XO (XO (XO (XO (XO (XO (XO (XO (XI (XI
+    (XO (XI (XO (XO (XO (XO XH))))))))))))))))), (Npos (XI (XO (XI (XO (XI
+    (XI (XO (XO (XI (XI (XO (XI (XO (XO (XO (XO
+    XH)))))))))))))))))) :: (((Npos (XO (XO (XO (XO (XO (XO (XI (XO (XI (XI
+    (XO (XI (XO (XO (XO (XO XH))))))))))))))))), (Npos (XI (XO (XI (XO (XI
+    (XO (XI (XO (XI (XI (XO (XI (XO (XO (XO (XO
+    XH)))))))))))))))))) :: (((Npos (XO (XO (XO (XO (XO (XI (XI (XO (XI (XI
+    (XO (XI (XO (XO (XO (XO XH))))))))))))))))), (Npos (XO (XI (XO (XO (XI
+    (XI (XI (XO (XI (XI (XO (XI (XO (XO (XO (XO
+    XH)))))))))))))))))) :: (((Npos (XO (XO (XO (XO (XO (XO (XO (XI (XI (XI
+    (XO (XI (XO (XO (XO (XO XH))))))))))))))))), (Npos (XI (XO (XO (XO (XI
+    (XO (XO (XI (XI (XI (XO (XI (XO (XO (XO (XO
+    XH)))))))))))))))))) :: (((Npos (XO (XO (XO (XO (XO (XO (XO (XO (XO (XO
+    (XI (XI (XO (XO (XO (XO XH))))))))))))))))), (Npos (XO (XO (XO (XI (XO
+    (XO (XI (XO (XO (XO (XI (XI (XO (XO (XO (XO
+    XH)))))))))))))))))) :: (((Npos (XO (XO (XO (XO (XO (XO (XO (XI (XO (XO
+    (XI (XI (XO (XO (XO (XO XH))))))))))))))))), (Npos (XO (XI (XO (XO (XI
+    (XI (XO (XI (XO (XO (XI (XI (XO (XO (XO (XO
+    XH)))))))))))))))))) :: (((Npos (XO (XO (XO (XO (XO (XO (XI (XI (XO (XO
+    (XI (XI (XO (XO (XO (XO XH))))))))))))))))), (Npos (XO (XI (XO (XO (XI
+    (XI (XI (XI (XO (XO (XI (XI (XO (XO (XO (XO
+    XH)))))))))))))))))) :: (((Npos (XO (XO (XO (XO (XO (XO (XO (XO (XI (XO
+    (XI (XI (XO (XO (XO (XO XH))))))))))))))))), (Npos (XI (XI (XO (XO (XO
+    (XI (XO (XO (XI (XO (XI (XI (XO (XO (XO (XO
+    XH)))))))))))))))))) :: (((Npos (XO (XI (XO (XI (XO (XO (XI (XO (XI (XO
+    (XI (XI (XO (XO (XO (XO XH))))))))))))))))), (Npos (XI (XO (XI (XO (XO
+    (XI (XI (XO (XI (XO (XI (XI (XO (XO (XO (XO
+    XH)))))))))))))))))) :: (((Npos (XI (XI (XI (XI (XO (XI (XI (XO (XI (XO
+    (XI (XI (XO (XO (XO (XO XH))))))))))))))))), (Npos (XI (XO (XI (XO (XO
+    (XO (XO (XI (XI (XO (XI (XI (XO (XO (XO (XO
+    XH)))))))))))))))))) :: (((Npos (XO (XO (XO (XO (XO (XO (XO (XI (XO (XI
+    (XI (XI (XO (XO (XO (XO XH))))))))))))))))), (Npos (XI (XO (XO (XI (XO
+    (XI (XO (XI (XO (XI (XI (XI (XO (XO (XO (XO
+    XH)))))))))))))))))) :: (((Npos (XO (XO (XO (XO (XI (XI (XO (XI (XO (XI
+    (XI (XI (XO (XO (XO (XO XH))))))))))))))))), (Npos (XI (XO (XO (XO (XI
+    (XI (XO (XI (XO (XI (XI (XI (XO (XO (XO (XO
+    XH)))))))))))))))))) :: (((Npos (XO (XI (XO (XO (XO (XO (XI (XI (XO (XI
+    (XI (XI (XO (XO (XO (XO XH))))))))))))))))), (Npos (XO (XO (XI (XO (XO
+    (XO (XI (XI (XO (XI (XI (XI (XO (XO (XO (XO
+    XH)))))))))))))))))) :: (((Npos (XO (XO (XO (XO (XO (XO (XO (XO (XI (XI
+    (XI (XI (XO (XO (XO (XO XH))))))))))))))))), (Npos (XO (XO (XI (XI (XI
+    (XO (XO (XO (XI (XI (XI (XI (XO (XO (XO (XO
+    XH)))))))))))))))))) :: (((Npos (XI (XI (XI (XO (XO (XI (XO (XO (XI (XI
+    (XI (XI (XO (XO (XO (XO XH))))))))))))))))), (Npos (XI (XI (XI (XO (XO
+    (XI (XO (XO (XI (XI (XI (XI (XO (XO (XO (XO
+    XH)))))))))))))))))) :: (((Npos (XO (XO (XO (XO (XI (XI (XO (XO (XI (XI
+    (XI (XI (XO (XO (XO (XO XH))))))))))))))))), (Npos (XI (XO (XI (XO (XO
+    (XO (XI (XO (XI (XI (XI (XI (XO (XO (XO (XO
+    XH)))))))))))))))))) :: (((Npos (XO (XO (XO (XO (XI (XI (XI (XO (XI (XI
+    (XI (XI (XO (XO (XO (XO XH))))))))))))))))), (Npos (XI (XO (XO (XO (XO
+    (XO (XO (XI (XI (XI (XI (XI (XO (XO (XO (XO
+    XH)))))))))))))))))) :: (((Npos (XO (XO (XO (XO (XI (XI (XO (XI (XI (XI
+    (XI (XI (XO (XO (XO (XO XH))))))))))))))))), (Npos (XO (XO (XI (XO (XO
+    (XO (XI (XI (XI (XI (XI (XI (XO (XO (XO (XO
+    XH)))))))))))))))))) :: (((Npos (XO (XO (XO (XO (XO (XI (XI (XI (XI (XI
+    (XI (XI (XO (XO (XO (XO XH))))))))))))))))), (Npos (XO (XI (XI (XO (XI
+    (XI (XI (XI (XI (XI (XI (XI (XO (XO (XO (XO
+    XH)))))))))))))))))) :: (((Npos (XI (XI (XO (XO (XO (XO (XO (XO (XO (XO
+    (XO (XO (XI (XO (XO (XO XH))))))))))))))))), (Npos (XI (XI (XI (XO (XI
+    (XI (XO (XO (XO (XO (XO (XO (XI (XO (XO (XO
+    XH)))))))))))))))))) :: (((Npos (XI (XO (XO (XO (XI (XI (XI (XO (XO (XO
+    (XO (XO (XI (XO (XO (XO XH))))))))))))))))), (Npos (XO (XI (XO (XO (XI
+    (XI (XI (XO (XO (XO (XO (XO (XI (XO (XO (XO
+    XH)))))))))))))))))) :: (((Npos (XI (XO (XI (XO (XI (XI (XI (XO (XO (XO
+    (XO (XO (XI (XO (XO (XO XH))))))))))))))))), (Npos (XI (XO (XI (XO (XI
+    (XI (XI (XO (XO (XO (XO (XO (XI (XO (XO (XO
+    XH)))))))))))))))))) :: (((Npos (XI (XI (XO (XO (XO (XO (XO (XI (XO (XO
+    (XO (XO (XI (XO (XO (XO XH))))))))))))))))), (Npos (XI (XI (XI (XI (XO
+    (XI (XO (XI (XO (XO (XO (XO (XI (XO (XO (XO
+    XH)))))))))))))))))) :: (((Npos (XO (XO (XO (XO (XI (XO (XI (XI (XO (XO
+    (XO (XO (XI (XO (XO (XO XH))))))))))))))))), (Npos (XO (XO (XO (XI (XO
+    (XI (XI (XI (XO (XO (XO (XO (XI (XO (XO (XO
+    XH)))))))))))))))))) :: (((Npos (XI (XI (XO (XO (XO (XO (XO (XO (XI (XO
+    (XO (XO (XI (XO (XO (XO XH))))))))))))))))), (Npos (XO (XI (XI (XO (XO
+    (XI (XO (XO (XI (XO (XO (XO (XI (XO (XO (XO
+    XH)))))))))))))))))) :: (((Npos (XO (XO (XI (XO (XO (XO (XI (XO (XI (XO
+    (XO (XO (XI (XO (XO (XO XH))))))))))))))))), (Npos (XO (XO (XI (XO (XO
+    (XO (XI (XO (XI (XO (XO (XO (XI (XO (XO (XO
+    XH)))))))))))))))))) :: (((Npos (XI (XI (XI (XO (XO (XO (XI (XO (XI (XO
+    (XO (XO (XI (XO (XO (XO XH))))))))))))))))), (Npos (XI (XI (XI (XO (XO
+    (XO (XI (XO (XI (XO (XO (XO (XI (XO (XO (XO
+    XH)))))))))))))))))) :: (((Npos (XO (XO (XO (XO (XI (XO (XI (XO (XI (XO
+    (XO (XO (XI (XO (XO (XO XH))))))))))))))))), (Npos (XO (XI (XO (XO (XI
+    (XI (XI (XO (XI (XO (XO (XO (XI (XO (XO (XO
+    XH)))))))))))))))))) :: (((Npos (XO (XI (XI (XO (XI (XI (XI (XO (XI (XO
+    (XO (XO (XI (XO (XO (XO XH))))))))))))))))), (Npos (XO (XI (XI (XO (XI
+    (XI (XI (XO (XI (XO (XO (XO (XI (XO (XO (XO
+    XH)))))))))))))))))) :: (((Npos (XI (XI (XO (XO (XO (XO (XO (XI (XI (XO
+    (XO (XO (XI (XO (XO (XO XH))))))))))))))))), (Npos (XO (XI (XO (XO (XI
+    (XI (XO (XI (XI (XO (XO (XO (XI (XO (XO (XO
+    XH)))))))))))))))))) :: (((Npos (XI (XO (XO (XO (XO (XO (XI (XI (XI (XO
+    (XO (XO (XI (XO (XO (XO XH))))))))))))))))), (Npos (XO (XO (XI (XO (XO
+    (XO (XI (XI (XI (XO (XO (XO (XI (XO (XO (XO
+    XH)))))))))))))))))) :: (((Npos (XO (XI (XO (XI (XI (XO (XI (XI (XI (XO
+    (XO (XO (XI (XO (XO (XO XH))))))))))))))))), (Npos (XO (XI (XO (XI (XI
+    (XO (XI (XI (XI (XO (XO (XO (XI (XO (XO (XO
+    XH)))))))))))))))))) :: (((Npos (XO (XO (XI (XI (XI (XO (XI (XI (XI (XO
+    (XO (XO (XI (XO (XO (XO XH))))))))))))))))), (Npos (XO (XO (XI (XI (XI
+    (XO (XI (XI (XI (XO (XO (XO (XI (XO (XO (XO
+    XH)))))))))))))))))) :: (((Npos (XO (XO (XO (XO (XO (XO (XO (XO (XO (XI
+    (XO (XO (XI (XO (XO (XO XH))))))))))))))))), (Npos (XI (XO (XO (XO (XI
+    (XO (XO (XO (XO (XI (XO (XO (XI (XO (XO (XO
+    XH)))))))))))))))))) :: (((Npos (XI (XI (XO (XO (XI (XO (XO (XO (XO (XI
+    (XO (XO (XI (XO (XO (XO XH))))))))))))))))), (Npos (XI (XI (XO (XI (XO
+    (XI (XO (XO (XO (XI (XO (XO (XI (XO (XO (XO
+    XH)))))))))))))))))) :: (((Npos (XI (XI (XI (XI (XI (XI (XO (XO (XO (XI
+    (XO (XO (XI (XO (XO (XO XH))))))))))))))))), (Npos (XO (XO (XO (XO (XO
+    (XO (XI (XO (XO (XI (XO (XO (XI (XO (XO (XO
+    XH)))))))))))))))))) :: (((Npos (XO (XO (XO (XO (XO (XO (XO (XI (XO (XI
+    (XO (XO (XI (XO (XO (XO XH))))))))))))))))), (Npos (XO (XI (XI (XO (XO
+    (XO (XO (XI (XO (XI (XO (XO (XI (XO (XO (XO
+    XH)))))))))))))))))) :: (((Npos (XO (XO (XO (XI (XO (XO (XO (XI (XO (XI
+    (XO (XO (XI (XO (XO (XO XH))))))))))))))))), (Npos (XO (XO (XO (XI (XO
+    (XO (XO (XI (XO (XI (XO (XO (XI (XO (XO (XO
+    XH)))))))))))))))))) :: (((Npos (XO (XI (XO (XI (XO (XO (XO (XI (XO (XI
+    (XO (XO (XI (XO (XO (XO XH))))))))))))))))), (Npos (XI (XO (XI (XI (XO
+    (XO (XO (XI (XO (XI (XO (XO (XI (XO (XO (XO
+    XH)))))))))))))))))) :: (((Npos (XI (XI (XI (XI (XO (XO (XO (XI (XO (XI
+    (XO (XO (XI (XO (XO (XO XH))))))))))))))))), (Npos (XI (XO (XI (XI (XI
+    (XO (XO (XI (XO (XI (XO (XO (XI (XO (XO (XO
+    XH)))))))))))))))))) :: (((Npos (XI (XI (XI (XI (XI (XO (XO (XI (XO (XI
+    (XO (XO (XI (XO (XO (XO XH))))))))))))))))), (Npos (XO (XO (XO (XI (XO
+    (XI (XO (XI (XO (XI (XO (XO (XI (XO (XO (XO
+    XH)))))))))))))))))) :: (((Npos (XO (XO (XO (XO (XI (XI (XO (XI (XO (XI
+    (XO (XO (XI (XO (XO (XO XH))))))))))))))))), (Npos (XO (XI (XI (XI (XI
+    (XO (XI (XI (XO (XI (XO (XO (XI (XO (XO (XO
+    XH)))))))))))))))))) :: (((Npos (XI (XO (XI (XO (XO (XO (XO (XO (XI (XI
+    (XO (XO (XI (XO (XO (XO XH))))))))))))))))), (Npos (XO (XO (XI (XI (XO
+    (XO (XO (XO (XI (XI (XO (XO (XI (XO (XO (XO
+    XH)))))))))))))))))) :: (((Npos (XI (XI (XI (XI (XO (XO (XO (XO (XI (XI
+    (XO (XO (XI (XO (XO (XO XH))))))))))))))))), (Npos (XO (XO (XO (XO (XI
+    (XO (XO (XO (XI (XI (XO (XO (XI (XO (XO (XO
+    XH)))))))))))))))))) :: (((Npos (XI (XI (XO (XO (XI (XO (XO (XO (XI (XI
+    (XO (XO (XI (XO (XO (XO XH))))))))))))))))), (Npos (XO (XO (XO (XI (XO
+    (XI (XO (XO (XI (XI (XO (XO (XI (XO (XO (XO
+    XH)))))))))))))))))) :: (((Npos (XO (XI (XO (XI (XO (XI (XO (XO (XI (XI
+    (XO (XO (XI (XO (XO (XO XH))))))))))))))))), (Npos (XO (XO (XO (XO (XI
+    (XI (XO (XO (XI (XI (XO (XO (XI (XO (XO (XO
+    XH)))))))))))))))))) :: (((Npos (XO (XI (XO (XO (XI (XI (XO (XO (XI (XI
+    (XO (XO (XI (XO (XO (XO XH))))))))))))))))), (Npos (XI (XI (XO (XO (XI
+    (XI (XO (XO (XI (XI (XO (XO (XI (XO (XO (XO
+    XH)))))))))))))))))) :: (((Npos (XI (XO (XI (XO (XI (XI (XO (XO (XI (XI
+    (XO (XO (XI (XO (XO (XO XH))))))))))))))))), (Npos (XI (XO (XO (XI (XI
+    (XI (XO (XO (XI (XI (XO (XO (XI (XO (XO (XO
+    XH)))))))))))))))))) :: (((Npos (XI (XO (XI (XI (XI (XI (XO (XO (XI (XI
+    (XO (XO (XI (XO (XO (XO XH))))))))))))))))), (Npos (XI (XO (XI (XI (XI
+    (XI (XO (XO (XI (XI (XO (XO (XI (XO (XO (XO
+    XH)))))))))))))))))) :: (((Npos (XO (XO (XO (XO (XI (XO (XI (XO (XI (XI
+    (XO (XO (XI (XO (XO (XO XH))))))))))))))))), (Npos (XO (XO (XO (XO (XI
+    (XO (XI (XO (XI (XI (XO (XO (XI (XO (XO (XO
+    XH)))))))))))))))))) :: (((Npos (XI (XO (XI (XI (XI (XO (XI (XO (XI (XI
+    (XO (XO (XI (XO (XO (XO XH))))))))))))))))), (Npos (XI (XO (XO (XO (XO
+    (XI (XI (XO (XI (XI (XO (XO (XI (XO (XO (XO
+    XH)))))))))))))))))) :: (((Npos (XO (XO (XO (XO (XO (XO (XO (XI (XI (XI
+    (XO (XO (XI (XO (XO (XO XH))))))))))))))))), (Npos (XI (XO (XO (XI (XO
+    (XO (XO (XI (XI (XI (XO (XO (XI (XO (XO (XO
+    XH)))))))))))))))))) :: (((Npos (XI (XI (XO (XI (XO (XO (XO (XI (XI (XI
+    (XO (XO (XI (XO (XO (XO XH))))))))))))))))), (Npos (XI (XI (XO (XI (XO
+    (XO (XO (XI (XI (XI (XO (XO (XI (XO (XO (XO
+    XH)))))))))))))))))) :: (((Npos (XO (XI (XI (XI (XO (XO (XO (XI (XI (XI
+    (XO (XO (XI (XO (XO (XO XH))))))))))))))))), (Npos (XO (XI (XI (XI (XO
+    (XO (XO (XI (XI (XI (XO (XO (XI (XO (XO (XO
+    XH)))))))))))))))))) :: (((Npos (XO (XO (XO (XO (XI (XO (XO (XI (XI (XI
+    (XO (XO (XI (XO (XO (XO XH))))))))))))))))), (Npos (XI (XO (XI (XO (XI
+    (XI (XO (XI (XI (XI (XO (XO (XI (XO (XO (XO
+    XH)))))))))))))))))) :: (((Npos (XI (XI (XI (XO (XI (XI (XO (XI (XI (XI
+    (XO (XO (XI (XO (XO (XO XH))))))))))))))))), (Npos (XI (XI (XI (XO (XI
+    (XI (XO (XI (XI (XI (XO (XO (XI (XO (XO (XO
+    XH)))))))))))))))))) :: (((Npos (XI (XO (XO (XO (XI (XO (XI (XI (XI (XI
+    (XO (XO (XI (XO (XO (XO XH))))))))))))))))), (Npos (XI (XO (XO (XO (XI
+    (XO (XI (XI (XI (XI (XO (XO (XI (XO (XO (XO
+    XH)))))))))))))))))) :: (((Npos (XI (XI (XO (XO (XI (XO (XI (XI (XI (XI
+    (XO (XO (XI (XO (XO (XO XH))))))))))))))))), (Npos (XI (XI (XO (XO (XI
+    (XO (XI (XI (XI (XI (XO (XO (XI (XO (XO (XO
+    XH)))))))))))))))))) :: (((Npos (XO (XO (XO (XO (XO (XO (XO (XO (XO (XO
+    (XI (XO (XI (XO (XO (XO XH))))))))))))))))), (Npos (XO (XO (XI (XO (XI
+    (XI (XO (XO (XO (XO (XI (XO (XI (XO (XO (XO
+    XH)))))))))))))))))) :: (((Npos (XI (XI (XI (XO (XO (XO (XI (XO (XO (XO
+    (XI (XO (XI (XO (XO (XO XH))))))))))))))))), (Npos (XO (XI (XO (XI (XO
+    (XO (XI (XO (XO (XO (XI (XO (XI (XO (XO (XO
+    XH)))))))))))))))))) :: (((Npos (XI (XI (XI (XI (XI (XO (XI (XO (XO (XO
+    (XI (XO (XI (XO (XO (XO XH))))))))))))))))), (Npos (XI (XO (XO (XO (XO
+    (XI (XI (XO (XO (XO (XI (XO (XI (XO (XO (XO
+    XH)))))))))))))))))) :: (((Npos (XO (XO (XO (XO (XO (XO (XO (XI (XO (XO
+    (XI (XO (XI (XO (XO (XO XH))))))))))))))))), (Npos (XI (XI (XI (XI (XO
+    (XI (XO (XI (XO (XO (XI (XO (XI (XO (XO (XO
+    XH)))))))))))))))))) :: (((Npos (XO (XO (XI (XO (XO (XO (XI (XI (XO (XO
+    (XI (XO (XI (XO (XO (XO XH))))))))))))))))), (Npos (XI (XO (XI (XO (XO
+    (XO (XI (XI (XO (XO (XI (XO (XI (XO (XO (XO
+    XH)))))))))))))))))) :: (((Npos (XI (XI (XI (XO (XO (XO (XI (XI (XO (XO
+    (XI (XO (XI (XO (XO (XO XH))))))))))))))))), (Npos (XI (XI (XI (XO (XO
+    (XO (XI (XI (XO (XO (XI (XO (XI (XO (XO (XO
+    XH)))))))))))))))))) :: (((Npos (XO (XO (XO (XO (XO (XO (XO (XI (XI (XO
+    (XI (XO (XI (XO (XO (XO XH))))))))))))))))), (Npos (XO (XI (XI (XI (XO
+    (XI (XO (XI (XI (XO (XI (XO (XI (XO (XO (XO
+    XH)))))))))))))))))) :: (((Npos (XO (XO (XO (XI (XI (XO (XI (XI (XI (XO
+    (XI (XO (XI (XO (XO (XO XH))))))))))))))))), (Npos (XI (XI (XO (XI (XI
+    (XO (XI (XI (XI (XO (XI (XO (XI (XO (XO (XO
+    XH)))))))))))))))))) :: (((Npos (XO (XO (XO (XO (XO (XO (XO (XO (XO (XI
+    (XI (XO (XI (XO (XO (XO XH))))))))))))))))), (Npos (XI (XI (XI (XI (XO
+    (XI (XO (XO (XO (XI (XI (XO (XI (XO (XO (XO
+    XH)))))))))))))))))) :: (((Npos (XO (XO (XI (XO (XO (XO (XI (XO (XO (XI
+    (XI (XO (XI (XO (XO (XO XH))))))))))))))))), (Npos (XO (XO (XI (XO (XO
+    (XO (XI (XO (XO (XI (XI (XO (XI (XO (XO (XO
+    XH)))))))))))))))))) :: (((Npos (XO (XO (XO (XO (XO (XO (XO (XI (XO (XI
+    (XI (XO (XI (XO (XO (XO XH))))))))))))))))), (Npos (XO (XI (XO (XI (XO
+    (XI (XO (XI (XO (XI (XI (XO (XI (XO (XO (XO
+    XH)))))))))))))))))) :: (((Npos (XO (XO (XO (XI (XI (XI (XO (XI (XO (XI
+    (XI (XO (XI (XO (XO (XO XH))))))))))))))))), (Npos (XO (XO (XO (XI (XI
+    (XI (XO (XI (XO (XI (XI (XO (XI (XO (XO (XO
+    XH)))))))))))))))))) :: (((Npos (XO (XO (XO (XO (XO (XO (XO (XO (XI (XI
+    (XI (XO (XI (XO (XO (XO XH))))))))))))))))), (Npos (XO (XI (XO (XI (XI
+    (XO (XO (XO (XI (XI (XI (XO (XI (XO (XO (XO
+    XH)))))))))))))))))) :: (((Npos (XO (XO (XO (XO (XO (XO (XI (XO (XI (XI
+    (XI (XO (XI (XO (XO (XO XH))))))))))))))))), (Npos (XO (XI (XI (XO (XO
+    (XO (XI (XO (XI (XI (XI (XO (XI (XO (XO (XO
+    XH)))))))))))))))))) :: (((Npos (XO (XO (XO (XO (XO (XO (XO (XO (XO (XO
+    (XO (XI (XI (XO (XO (XO XH))))))))))))))))), (Npos (XI (XI (XO (XI (XO
+    (XI (XO (XO (XO (XO (XO (XI (XI (XO (XO (XO
+    XH)))))))))))))))))) :: (((Npos (XO (XO (XO (XO (XO (XI (XO (XI (XO (XO
+    (XO (XI (XI (XO (XO (XO XH))))))))))))))))), (Npos (XI (XI (XI (XI (XI
+    (XO (XI (XI (XO (XO (XO (XI (XI (XO (XO (XO
+    XH)))))))))))))))))) :: (((Npos (XI (XI (XI (XI (XI (XI (XI (XI (XO (XO
+    (XO (XI (XI (XO (XO (XO XH))))))))))))))))), (Npos (XO (XI (XI (XO (XO
+    (XO (XO (XO (XI (XO (XO (XI (XI (XO (XO (XO
+    XH)))))))))))))))))) :: (((Npos (XI (XO (XO (XI (XO (XO (XO (XO (XI (XO
+    (XO (XI (XI (XO (XO (XO XH))))))))))))))))), (Npos (XI (XO (XO (XI (XO
+    (XO (XO (XO (XI (XO (XO (XI (XI (XO (XO (XO
+    XH)))))))))))))))))) :: (((Npos (XO (XO (XI (XI (XO (XO (XO (XO (XI (XO
+    (XO (XI (XI (XO (XO (XO XH))))))))))))))))), (Npos (XI (XI (XO (XO (XI
+    (XO (XO (XO (XI (XO (XO (XI (XI (XO (XO (XO
+    XH)))))))))))))))))) :: (((Npos (XI (XO (XI (XO (XI (XO (XO (XO (XI (XO
+    (XO (XI (XI (XO (XO (XO XH))))))))))))))))), (Npos (XO (XI (XI (XO (XI
+    (XO (XO (XO (XI (XO (XO (XI (XI (XO (XO (XO
+    XH)))))))))))))))))) :: (((Npos (XO (XO (XO (XI (XI (XO (XO (XO (XI (XO
+    (XO (XI (XI (XO (XO (XO XH))))))))))))))))), (Npos (XI (XI (XI (XI (XO
+    (XI (XO (XO (XI (XO (XO (XI (XI (XO (XO (XO
+    XH)))))))))))))))))) :: (((Npos (XI (XI (XI (XI (XI (XI (XO (XO (XI (XO
+    (XO (XI (XI (XO (XO (XO XH))))))))))))))))), (Npos (XI (XI (XI (XI (XI
+    (XI (XO (XO (XI (XO (XO (XI (XI (XO (XO (XO
+    XH)))))))))))))))))) :: (((Npos (XI (XO (XO (XO (XO (XO (XI (XO (XI (XO
+    (XO (XI (XI (XO (XO (XO XH))))))))))))))))), (Npos (XI (XO (XO (XO (XO
+    (XO (XI (XO (XI (XO (XO (XI (XI (XO (XO (XO
+    XH)))))))))))))))))) :: (((Npos (XO (XO (XO (XO (XO (XI (XO (XI (XI (XO
+    (XO (XI (XI (XO (XO (XO XH))))))))))))))))), (Npos (XI (XI (XI (XO (XO
+    (XI (XO (XI (XI (XO (XO (XI (XI (XO (XO (XO
+    XH)))))))))))))))))) :: (((Npos (XO (XI (XO (XI (XO (XI (XO (XI (XI (XO
+    (XO (XI (XI (XO (XO (XO XH))))))))))))))))), (Npos (XO (XO (XO (XO (XI
+    (XO (XI (XI (XI (XO (XO (XI (XI (XO (XO (XO
+    XH)))))))))))))))))) :: (((Npos (XI (XO (XO (XO (XO (XI (XI (XI (XI (XO
+    (XO (XI (XI (XO (XO (XO XH))))))))))))))))), (Npos (XI (XO (XO (XO (XO
+    (XI (XI (XI (XI (XO (XO (XI (XI (XO (XO (XO
+    XH)))))))))))))))))) :: (((Npos (XI (XI (XO (XO (XO (XI (XI (XI (XI (XO
+    (XO (XI (XI (XO (XO (XO XH))))))))))))))))), (Npos (XI (XI (XO (XO (XO
+    (XI (XI (XI (XI (XO (XO (XI (XI (XO (XO (XO
+    XH)))))))))))))))))) :: (((Npos (XO (XO (XO (XO (XO (XO (XO (XO (XO (XI
+    (XO (XI (XI (XO (XO (XO XH))))))))))))))))), (Npos (XO (XO (XO (XO (XO
+    (XO (XO (XO (XO (XI (XO (XI (XI (XO (XO (XO
+    XH)))))))))))))))))) :: (((Npos (XI (XI (XO (XI (XO (XO (XO (XO (XO (XI
+    (XO (XI (XI (XO (XO (XO XH))))))))))))))))), (Npos (XO (XI (XO (XO (XI
+    (XI (XO (XO (XO (XI (XO (XI (XI (XO (XO (XO
+    XH)))))))))))))))))) :: (((Npos (XO (XI (XO (XI (XI (XI (XO (XO (XO (XI
+    (XO (XI (XI (XO (XO (XO XH))))))))))))))))), (Npos (XO (XI (XO (XI (XI
+    (XI (XO (XO (XO (XI (XO (XI (XI (XO (XO (XO
+    XH)))))))))))))))))) :: (((Npos (XO (XO (XO (XO (XI (XO (XI (XO (XO (XI
+    (XO (XI (XI (XO (XO (XO XH))))))))))))))))), (Npos (XO (XO (XO (XO (XI
+    (XO (XI (XO (XO (XI (XO (XI (XI (XO (XO (XO
+    XH)))))))))))))))))) :: (((Npos (XO (XO (XI (XI (XI (XO (XI (XO (XO (XI
+    (XO (XI (XI (XO (XO (XO XH))))))))))))))))), (Npos (XI (XO (XO (XI (XO
+    (XO (XO (XI (XO (XI (XO (XI (XI (XO (XO (XO
+    XH)))))))))))))))))) :: (((Npos (XI (XO (XI (XI (XI (XO (XO (XI (XO (XI
+    (XO (XI (XI (XO (XO (XO XH))))))))))))))))), (Npos (XI (XO (XI (XI (XI
+    (XO (XO (XI (XO (XI (XO (XI (XI (XO (XO (XO
+    XH)))))))))))))))))) :: (((Npos (XO (XO (XO (XO (XI (XI (XO (XI (XO (XI
+    (XO (XI (XI (XO (XO (XO XH))))))))))))))))), (Npos (XO (XO (XO (XI (XI
+    (XI (XI (XI (XO (XI (XO (XI (XI (XO (XO (XO
+    XH)))))))))))))))))) :: (((Npos (XO (XO (XO (XO (XO (XO (XI (XI (XI (XI
+    (XO (XI (XI (XO (XO (XO XH))))))))))))))))), (Npos (XO (XO (XO (XO (XO
+    (XI (XI (XI (XI (XI (XO (XI (XI (XO (XO (XO
+    XH)))))))))))))))))) :: (((Npos (XO (XO (XO (XO (XO (XO (XO (XO (XO (XO
+    (XI (XI (XI (XO (XO (XO XH))))))))))))))))), (Npos (XO (XO (XO (XI (XO
+    (XO (XO (XO (XO (XO (XI (XI (XI (XO (XO (XO
+    XH)))))))))))))))))) :: (((Npos (XO (XI (XO (XI (XO (XO (XO (XO (XO (XO
+    (XI (XI (XI (XO (XO (XO XH))))))))))))))))), (Npos (XO (XI (XI (XI (XO
+    (XI (XO (XO (XO (XO (XI (XI (XI (XO (XO (XO
+    XH)))))))))))))))))) :: (((Npos (XO (XO (XO (XO (XO (XO (XI (XO (XO (XO
+    (XI (XI (XI (XO (XO (XO XH))))))))))))))))), (Npos (XO (XO (XO (XO (XO
+    (XO (XI (XO (XO (XO (XI (XI (XI (XO (XO (XO
+    XH)))))))))))))))))) :: (((Npos (XO (XI (XO (XO (XI (XI (XI (XO (XO (XO
+    (XI (XI (XI (XO (XO (XO XH))))))))))))))))), (Npos (XI (XI (XI (XI (XO
+    (XO (XO (XI (XO (XO (XI (XI (XI (XO (XO (XO
+    XH)))))))))))))))))) :: (((Npos (XO (XO (XO (XO (XO (XO (XO (XO (XI (XO
+    (XI (XI (XI (XO (XO (XO XH))))))))))))))))), (Npos (XO (XI (XI (XO (XO
+    (XO (XO (XO (XI (XO (XI (XI (XI (XO (XO (XO
+    XH)))))))))))))))))) :: (((Npos (XO (XO (XO (XI (XO (XO (XO (XO (XI (XO
+    (XI (XI (XI (XO (XO (XO XH))))))))))))))))), (Npos (XI (XO (XO (XI (XO
+    (XO (XO (XO (XI (XO (XI (XI (XI (XO (XO (XO
+    XH)))))))))))))))))) :: (((Npos (XI (XI (XO (XI (XO (XO (XO (XO (XI (XO
+    (XI (XI (XI (XO (XO (XO XH))))))))))))))))), (Npos (XO (XO (XO (XO (XI
+    (XI (XO (XO (XI (XO (XI (XI (XI (XO (XO (XO
+    XH)))))))))))))))))) :: (((Npos (XO (XI (XI (XO (XO (XO (XI (XO (XI (XO
+    (XI (XI (XI (XO (XO (XO XH))))))))))))))))), (Npos (XO (XI (XI (XO (XO
+    (XO (XI (XO (XI (XO (XI (XI (XI (XO (XO (XO
+    XH)))))))))))))))))) :: (((Npos (XO (XO (XO (XO (XO (XI (XI (XO (XI (XO
+    (XI (XI (XI (XO (XO (XO XH))))))))))))))))), (Npos (XI (XO (XI (XO (XO
+    (XI (XI (XO (XI (XO (XI (XI (XI (XO (XO (XO
+    XH)))))))))))))))))) :: (((Npos (XI (XI (XI (XO (XO (XI (XI (XO (XI (XO
+    (XI (XI (XI (XO (XO (XO XH))))))))))))))))), (Npos (XO (XO (XO (XI (XO
+    (XI (XI (XO (XI (XO (XI (XI (XI (XO (XO (XO
+    XH)))))))))))))))))) :: (((Npos (XO (XI (XO (XI (XO (XI (XI (XO (XI (XO
+    (XI (XI (XI (XO (XO (XO XH))))))))))))))))), (Npos (XI (XO (XO (XI (XO
+    (XO (XO (XI (XI (XO (XI (XI (XI (XO (XO (XO
+    XH)))))))))))))))))) :: (((Npos (XO (XO (XO (XI (XI (XO (XO (XI (XI (XO
+    (XI (XI (XI (XO (XO (XO XH))))))))))))))))), (Npos (XO (XO (XO (XI (XI
+    (XO (XO (XI (XI (XO (XI (XI (XI (XO (XO (XO
+    XH)))))))))))))))))) :: (((Npos (XO (XO (XO (XO (XO (XI (XI (XI (XO (XI
+    (XI (XI (XI (XO (XO (XO XH))))))))))))))))), (Npos (XO (XI (XO (XO (XI
+    (XI (XI (XI (XO (XI (XI (XI (XI (XO (XO (XO
+    XH)))))))))))))))))) :: (((Npos (XO (XI (XO (XO (XO (XO (XO (XO (XI (XI
+    (XI (XI (XI (XO (XO (XO XH))))))))))))))))), (Npos (XO (XI (XO (XO (XO
+    (XO (XO (XO (XI (XI (XI (XI (XI (XO (XO (XO
+    XH)))))))))))))))))) :: (((Npos (XO (XO (XI (XO (XO (XO (XO (XO (XI (XI
+    (XI (XI (XI (XO (XO (XO XH))))))))))))))))), (Npos (XO (XO (XO (XO (XI
+    (XO (XO (XO (XI (XI (XI (XI (XI (XO (XO (XO
+    XH)))))))))))))))))) :: (((Npos (XO (XI (XO (XO (XI (XO (XO (XO (XI (XI
+    (XI (XI (XI (XO (XO (XO XH))))))))))))))))), (Npos (XI (XI (XO (XO (XI
+    (XI (XO (XO (XI (XI (XI (XI (XI (XO (XO (XO
+    XH)))))))))))))))))) :: (((Npos (XO (XO (XO (XO (XI (XI (XO (XI (XI (XI
+    (XI (XI (XI (XO (XO (XO XH))))))))))))))))), (Npos (XO (XO (XO (XO (XI
+    (XI (XO (XI (XI (XI (XI (XI (XI (XO (XO (XO
+    XH)))))))))))))))))) :: (((Npos (XO (XO (XO (XO (XO (XO (XO (XO (XO (XO
+    (XO (XO (XO (XI (XO (XO XH))))))))))))))))), (Npos (XI (XO (XO (XI (XI
+    (XO (XO (XI (XI (XI (XO (XO (XO (XI (XO (XO
+    XH)))))))))))))))))) :: (((Npos (XO (XO (XO (XO (XO (XO (XO (XI (XO (XO
+    (XI (XO (XO (XI (XO (XO XH))))))))))))))))), (Npos (XI (XI (XO (XO (XO
+    (XO (XI (XO (XI (XO (XI (XO (XO (XI (XO (XO
+    XH)))))))))))))))))) :: (((Npos (XO (XO (XO (XO (XI (XO (XO (XI (XI (XI
+    (XI (XI (XO (XI (XO (XO XH))))))))))))))))), (Npos (XO (XO (XO (XO (XI
+    (XI (XI (XI (XI (XI (XI (XI (XO (XI (XO (XO
+    XH)))))))))))))))))) :: (((Npos (XO (XO (XO (XO (XO (XO (XO (XO (XO (XO
+    (XO (XO (XI (XI (XO (XO XH))))))))))))))))), (Npos (XI (XI (XI (XI (XO
+    (XI (XO (XO (XO (XO (XI (XO (XI (XI (XO (XO
+    XH)))))))))))))))))) :: (((Npos (XI (XO (XO (XO (XO (XO (XI (XO (XO (XO
+    (XI (XO (XI (XI (XO (XO XH))))))))))))))))), (Npos (XO (XI (XI (XO (XO
+    (XO (XI (XO (XO (XO (XI (XO (XI (XI (XO (XO
+    XH)))))))))))))))))) :: (((Npos (XO (XO (XO (XO (XO (XI (XI (XO (XO (XO
+    (XI (XO (XI (XI (XO (XO XH))))))))))))))))), (Npos (XO (XI (XO (XI (XI
+    (XI (XI (XI (XI (XI (XO (XO (XO (XO (XI (XO
+    XH)))))))))))))))))) :: (((Npos (XO (XO (XO (XO (XO (XO (XO (XO (XO (XO
+    (XI (XO (XO (XO (XI (XO XH))))))))))))))))), (Npos (XO (XI (XI (XO (XO
+    (XO (XI (XO (XO (XI (XI (XO (XO (XO (XI (XO
+    XH)))))))))))))))))) :: (((Npos (XO (XO (XO (XO (XO (XO (XO (XO (XI (XO
+    (XO (XO (XO (XI (XI (XO XH))))))))))))))))), (Npos (XI (XO (XI (XI (XI
+    (XO (XO (XO (XI (XO (XO (XO (XO (XI (XI (XO
+    XH)))))))))))))))))) :: (((Npos (XO (XO (XO (XO (XO (XO (XO (XO (XO (XO
+    (XO (XI (XO (XI (XI (XO XH))))))))))))))))), (Npos (XO (XO (XO (XI (XI
+    (XI (XO (XO (XO (XI (XO (XI (XO (XI (XI (XO
+    XH)))))))))))))))))) :: (((Npos (XO (XO (XO (XO (XO (XO (XI (XO (XO (XI
+    (XO (XI (XO (XI (XI (XO XH))))))))))))))))), (Npos (XO (XI (XI (XI (XI
+    (XO (XI (XO (XO (XI (XO (XI (XO (XI (XI (XO
+    XH)))))))))))))))))) :: (((Npos (XO (XO (XO (XO (XI (XI (XI (XO (XO (XI
+    (XO (XI (XO (XI (XI (XO XH))))))))))))))))), (Npos (XO (XI (XI (XI (XI
+    (XI (XO (XI (XO (XI (XO (XI (XO (XI (XI (XO
+    XH)))))))))))))))))) :: (((Npos (XO (XO (XO (XO (XI (XO (XI (XI (XO (XI
+    (XO (XI (XO (XI (XI (XO XH))))))))))))))))), (Npos (XI (XO (XI (XI (XO
+    (XI (XI (XI (XO (XI (XO (XI (XO (XI (XI (XO
+    XH)))))))))))))))))) :: (((Npos (XO (XO (XO (XO (XO (XO (XO (XO (XI (XI
+    (XO (XI (XO (XI (XI (XO XH))))))))))))))))), (Npos (XI (XI (XI (XI (XO
+    (XI (XO (XO (XI (XI (XO (XI (XO (XI (XI (XO
+    XH)))))))))))))))))) :: (((Npos (XO (XO (XO (XO (XO (XO (XI (XO (XI (XI
+    (XO (XI (XO (XI (XI (XO XH))))))))))))))))), (Npos (XI (XI (XO (XO (XO
+    (XO (XI (XO (XI (XI (XO (XI (XO (XI (XI (XO
+    XH)))))))))))))))))) :: (((Npos (XI (XI (XO (XO (XO (XI (XI (XO (XI (XI
+    (XO (XI (XO (XI (XI (XO XH))))))))))))))))), (Npos (XI (XI (XI (XO (XI
+    (XI (XI (XO (XI (XI (XO (XI (XO (XI (XI (XO
+    XH)))))))))))))))))) :: (((Npos (XI (XO (XI (XI (XI (XI (XI (XO (XI (XI
+    (XO (XI (XO (XI (XI (XO XH))))))))))))))))), (Npos (XI (XI (XI (XI (XO
+    (XO (XO (XI (XI (XI (XO (XI (XO (XI (XI (XO
+    XH)))))))))))))))))) :: (((Npos (XO (XO (XO (XO (XO (XO (XI (XO (XI (XO
+    (XI (XI (XO (XI (XI (XO XH))))))))))))))))), (Npos (XO (XO (XI (XI (XO
+    (XI (XI (XO (XI (XO (XI (XI (XO (XI (XI (XO
+    XH)))))))))))))))))) :: (((Npos (XO (XO (XO (XO (XO (XO (XI (XO (XO (XI
+    (XI (XI (XO (XI (XI (XO XH))))))))))))))))), (Npos (XI (XI (XI (XI (XI
+    (XI (XI (XO (XO (XI (XI (XI (XO (XI (XI (XO
+    XH)))))))))))))))))) :: (((Npos (XO (XO (XO (XO (XO (XO (XO (XO (XI (XI
+    (XI (XI (XO (XI (XI (XO XH))))))))))))))))), (Npos (XO (XI (XO (XI (XO
+    (XO (XI (XO (XI (XI (XI (XI (XO (XI (XI (XO
+    XH)))))))))))))))))) :: (((Npos (XO (XO (XO (XO (XI (XO (XI (XO (XI (XI
+    (XI (XI (XO (XI (XI (XO XH))))))))))))))))), (Npos (XO (XO (XO (XO (XI
+    (XO (XI (XO (XI (XI (XI (XI (XO (XI (XI (XO
+    XH)))))))))))))))))) :: (((Npos (XI (XI (XO (XO (XI (XO (XO (XI (XI (XI
+    (XI (XI (XO (XI (XI (XO XH))))))))))))))))), (Npos (XI (XI (XI (XI (XI
+    (XO (XO (XI (XI (XI (XI (XI (XO (XI (XI (XO
+    XH)))))))))))))))))) :: (((Npos (XO (XO (XO (XO (XO (XI (XI (XI (XI (XI
+    (XI (XI (XO (XI (XI (XO XH))))))))))))))))), (Npos (XI (XO (XO (XO (XO
+    (XI (XI (XI (XI (XI (XI (XI (XO (XI (XI (XO
+    XH)))))))))))))))))) :: (((Npos (XI (XI (XO (XO (XO (XI (XI (XI (XI (XI
+    (XI (XI (XO (XI (XI (XO XH))))))))))))))))), (Npos (XI (XI (XO (XO (XO
+    (XI (XI (XI (XI (XI (XI (XI (XO (XI (XI (XO
+    XH)))))))))))))))))) :: (((Npos (XO (XO (XO (XO (XO (XO (XO (XO (XO (XO
+    (XO (XO (XI (XI (XI (XO XH))))))))))))))))), (Npos (XI (XI (XI (XO (XI
+    (XI (XI (XI (XI (XI (XI (XO (XO (XO (XO (XI
+    XH)))))))))))))))))) :: (((Npos (XO (XO (XO (XO (XO (XO (XO (XO (XO (XO
+    (XO (XI (XO (XO (XO (XI XH))))))))))))))))), (Npos (XI (XO (XI (XO (XI
+    (XO (XI (XI (XO (XO (XI (XI (XO (XO (XO (XI
+    XH)))))))))))))))))) :: (((Npos (XI (XI (XI (XI (XI (XI (XI (XI (XO (XO
+    (XI (XI (XO (XO (XO (XI XH))))))))))))))))), (Npos (XO (XO (XO (XI (XO
+    (XO (XO (XO (XI (XO (XI (XI (XO (XO (XO (XI
+    XH)))))))))))))))))) :: (((Npos (XO (XO (XO (XO (XI (XI (XI (XI (XI (XI
+    (XI (XI (XO (XI (XO (XI XH))))))))))))))))), (Npos (XI (XI (XO (XO (XI
+    (XI (XI (XI (XI (XI (XI (XI (XO (XI (XO (XI
+    XH)))))))))))))))))) :: (((Npos (XI (XO (XI (XO (XI (XI (XI (XI (XI (XI
+    (XI (XI (XO (XI (XO (XI XH))))))))))))))))), (Npos (XI (XI (XO (XI (XI
+    (XI (XI (XI (XI (XI (XI (XI (XO (XI (XO (XI
+    XH)))))))))))))))))) :: (((Npos (XI (XO (XI (XI (XI (XI (XI (XI (XI (XI
+    (XI (XI (XO (XI (XO (XI XH))))))))))))))))), (Npos (XO (XI (XI (XI (XI
+    (XI (XI (XI (XI (XI (XI (XI (XO (XI (XO (XI
+    XH)))))))))))))))))) :: (((Npos (XO (XO (XO (XO (XO (XO (XO (XO (XO (XO
+    (XO (XO (XI (XI (XO (XI XH))))))))))))))))), (Npos (XO (XI (XO (XO (XO
+    (XI (XO (XO (XI (XO (XO (XO (XI (XI (XO (XI
+    XH)))))))))))))))))) :: (((Npos (XO (XI (XO (XO (XI (XI (XO (XO (XI (XO
+    (XO (XO (XI (XI (XO (XI XH))))))))))))))))), (Npos (XO (XI (XO (XO (XI
+    (XI (XO (XO (XI (XO (XO (XO (XI (XI (XO (XI
+    XH)))))))))))))))))) :: (((Npos (XO (XO (XO (XO (XI (XO (XI (XO (XI (XO
+    (XO (XO (XI (XI (XO (XI XH))))))))))))))))), (Npos (XO (XI (XO (XO (XI
+    (XO (XI (XO (XI (XO (XO (XO (XI (XI (XO (XI
+    XH)))))))))))))))))) :: (((Npos (XI (XO (XI (XO (XI (XO (XI (XO (XI (XO
+    (XO (XO (XI (XI (XO (XI XH))))))))))))))))), (Npos (XI (XO (XI (XO (XI
+    (XO (XI (XO (XI (XO (XO (XO (XI (XI (XO (XI
+    XH)))))))))))))))))) :: (((Npos (XO (XO (XI (XO (XO (XI (XI (XO (XI (XO
+    (XO (XO (XI (XI (XO (XI XH))))))))))))))))), (Npos (XI (XI (XI (XO (XO
+    (XI (XI (XO (XI (XO (XO (XO (XI (XI (XO (XI
+    XH)))))))))))))))))) :: (((Npos (XO (XO (XO (XO (XI (XI (XI (XO (XI (XO
+    (XO (XO (XI (XI (XO (XI XH))))))))))))))))), (Npos (XI (XI (XO (XI (XI
+    (XI (XI (XI (XO (XI (XO (XO (XI (XI (XO (XI
+    XH)))))))))))))))))) :: (((Npos (XO (XO (XO (XO (XO (XO (XO (XO (XO (XO
+    (XI (XI (XI (XI (XO (XI XH))))))))))))))))), (Npos (XO (XI (XO (XI (XO
+    (XI (XI (XO (XO (XO (XI (XI (XI (XI (XO (XI
+    XH)))))))))))))))))) :: (((Npos (XO (XO (XO (XO (XI (XI (XI (XO (XO (XO
+    (XI (XI (XI (XI (XO (XI XH))))))))))))))))), (Npos (XO (XO (XI (XI (XI
+    (XI (XI (XO (XO (XO (XI (XI (XI (XI (XO (XI
+    XH)))))))))))))))))) :: (((Npos (XO (XO (XO (XO (XO (XO (XO (XI (XO (XO
+    (XI (XI (XI (XI (XO (XI XH))))))))))))))))), (Npos (XO (XO (XO (XI (XO
+    (XO (XO (XI (XO (XO (XI (XI (XI (XI (XO (XI
+    XH)))))))))))))))))) :: (((Npos (XO (XO (XO (XO (XI (XO (XO (XI (XO (XO
+    (XI (XI (XI (XI (XO (XI XH))))))))))))))))), (Npos (XI (XO (XO (XI (XI
+    (XO (XO (XI (XO (XO (XI (XI (XI (XI (XO (XI
+    XH)))))))))))))))))) :: (((Npos (XO (XO (XO (XO (XO (XO (XO (XO (XO (XO
+    (XI (XO (XI (XO (XI (XI XH))))))))))))))))), (Npos (XO (XO (XI (XO (XI
+    (XO (XI (XO (XO (XO (XI (XO (XI (XO (XI (XI
+    XH)))))))))))))))))) :: (((Npos (XO (XI (XI (XO (XI (XO (XI (XO (XO (XO
+    (XI (XO (XI (XO (XI (XI XH))))))))))))))))), (Npos (XO (XO (XI (XI (XI
+    (XO (XO (XI (XO (XO (XI (XO (XI (XO (XI (XI
+    XH)))))))))))))))))) :: (((Npos (XO (XI (XI (XI (XI (XO (XO (XI (XO (XO
+    (XI (XO (XI (XO (XI (XI XH))))))))))))))))), (Npos (XI (XI (XI (XI (XI
+    (XO (XO (XI (XO (XO (XI (XO (XI (XO (XI (XI
+    XH)))))))))))))))))) :: (((Npos (XO (XI (XO (XO (XO (XI (XO (XI (XO (XO
+    (XI (XO (XI (XO (XI (XI XH))))))))))))))))), (Npos (XO (XI (XO (XO (XO
+    (XI (XO (XI (XO (XO (XI (XO (XI (XO (XI (XI
+    XH)))))))))))))))))) :: (((Npos (XI (XO (XI (XO (XO (XI (XO (XI (XO (XO
+    (XI (XO (XI (XO (XI (XI XH))))))))))))))))), (Npos (XO (XI (XI (XO (XO
+    (XI (XO (XI (XO (XO (XI (XO (XI (XO (XI (XI
+    XH)))))))))))))))))) :: (((Npos (XI (XO (XO (XI (XO (XI (XO (XI (XO (XO
+    (XI (XO (XI (XO (XI (XI XH))))))))))))))))), (Npos (XO (XO (XI (XI (XO
+    (XI (XO (XI (XO (XO (XI (XO (XI (XO (XI (XI
+    XH)))))))))))))))))) :: (((Npos (XO (XI (XI (XI (XO (XI (XO (XI (XO (XO
+    (XI (XO (XI (XO (XI (XI XH))))))))))))))))), (Npos (XI (XO (XO (XI (XI
+    (XI (XO (XI (XO (XO (XI (XO (XI (XO (XI (XI
+    XH)))))))))))))))))) :: (((Npos (XI (XI (XO (XI (XI (XI (XO (XI (XO (XO
+    (XI (XO (XI (XO (XI (XI XH))))))))))))))))), (Npos (XI (XI (XO (XI (XI
+    (XI (XO (XI (XO (XO (XI (XO (XI (XO (XI (XI
+    XH)))))))))))))))))) :: (((Npos (XI (XO (XI (XI (XI (XI (XO (XI (XO (XO
+    (XI (XO (XI (XO (XI (XI XH))))))))))))))))), (Npos (XI (XI (XO (XO (XO
+    (XO (XI (XI (XO (XO (XI (XO (XI (XO (XI (XI
+    XH)))))))))))))))))) :: (((Npos (XI (XO (XI (XO (XO (XO (XI (XI (XO (XO
+    (XI (XO (XI (XO (XI (XI XH))))))))))))))))), (Npos (XI (XO (XI (XO (XO
+    (XO (XO (XO (XI (XO (XI (XO (XI (XO (XI (XI
+    XH)))))))))))))))))) :: (((Npos (XI (XI (XI (XO (XO (XO (XO (XO (XI (XO
+    (XI (XO (XI (XO (XI (XI XH))))))))))))))))), (Npos (XO (XI (XO (XI (XO
+    (XO (XO (XO (XI (XO (XI (XO (XI (XO (XI (XI
+    XH)))))))))))))))))) :: (((Npos (XI (XO (XI (XI (XO (XO (XO (XO (XI (XO
+    (XI (XO (XI (XO (XI (XI XH))))))))))))))))), (Npos (XO (XO (XI (XO (XI
+    (XO (XO (XO (XI (XO (XI (XO (XI (XO (XI (XI
+    XH)))))))))))))))))) :: (((Npos (XO (XI (XI (XO (XI (XO (XO (XO (XI (XO
+    (XI (XO (XI (XO (XI (XI XH))))))))))))))))), (Npos (XO (XO (XI (XI (XI
+    (XO (XO (XO (XI (XO (XI (XO (XI (XO (XI (XI
+    XH)))))))))))))))))) :: (((Npos (XO (XI (XI (XI (XI (XO (XO (XO (XI (XO
+    (XI (XO (XI (XO (XI (XI XH))))))))))))))))), (Npos (XI (XO (XO (XI (XI
+    (XI (XO (XO (XI (XO (XI (XO (XI (XO (XI (XI
+    XH)))))))))))))))))) :: (((Npos (XI (XI (XO (XI (XI (XI (XO (XO (XI (XO
+    (XI (XO (XI (XO (XI (XI XH))))))))))))))))), (Npos (XO (XI (XI (XI (XI
+    (XI (XO (XO (XI (XO (XI (XO (XI (XO (XI (XI
+    XH)))))))))))))))))) :: (((Npos (XO (XO (XO (XO (XO (XO (XI (XO (XI (XO
+    (XI (XO (XI (XO (XI (XI XH))))))))))))))))), (Npos (XO (XO (XI (XO (XO
+    (XO (XI (XO (XI (XO (XI (XO (XI (XO (XI (XI
+    XH)))))))))))))))))) :: (((Npos (XO (XI (XI (XO (XO (XO (XI (XO (XI (XO
+    (XI (XO (XI (XO (XI (XI XH))))))))))))))))), (Npos (XO (XI (XI (XO (XO
+    (XO (XI (XO (XI (XO (XI (XO (XI (XO (XI (XI
+    XH)))))))))))))))))) :: (((Npos (XO (XI (XO (XI (XO (XO (XI (XO (XI (XO
+    (XI (XO (XI (XO (XI (XI XH))))))))))))))))), (Npos (XO (XO (XO (XO (XI
+    (XO (XI (XO (XI (XO (XI (XO (XI (XO (XI (XI
+    XH)))))))))))))))))) :: (((Npos (XO (XI (XO (XO (XI (XO (XI (XO (XI (XO
+    (XI (XO (XI (XO (XI (XI XH))))))))))))))))), (Npos (XI (XO (XI (XO (XO
+    (XI (XO (XI (XO (XI (XI (XO (XI (XO (XI (XI
+    XH)))))))))))))))))) :: (((Npos (XO (XO (XO (XI (XO (XI (XO (XI (XO (XI
+    (XI (XO (XI (XO (XI (XI XH))))))))))))))))), (Npos (XO (XO (XO (XO (XO
+    (XO (XI (XI (XO (XI (XI (XO (XI (XO (XI (XI
+    XH)))))))))))))))))) :: (((Npos (XO (XI (XO (XO (XO (XO (XI (XI (XO (XI
+    (XI (XO (XI (XO (XI (XI XH))))))))))))))))), (Npos (XO (XI (XO (XI (XI
+    (XO (XI (XI (XO (XI (XI (XO (XI (XO (XI (XI
+    XH)))))))))))))))))) :: (((Npos (XO (XO (XI (XI (XI (XO (XI (XI (XO (XI
+    (XI (XO (XI (XO (XI (XI XH))))))))))))))))), (Npos (XO (XI (XO (XI (XI
+    (XI (XI (XI (XO (XI (XI (XO (XI (XO (XI (XI
+    XH)))))))))))))))))) :: (((Npos (XO (XO (XI (XI (XI (XI (XI (XI (XO (XI
+    (XI (XO (XI (XO (XI (XI XH))))))))))))))))), (Npos (XO (XO (XI (XO (XI
+    (XO (XO (XO (XI (XI (XI (XO (XI (XO (XI (XI
+    XH)))))))))))))))))) :: (((Npos (XO (XI (XI (XO (XI (XO (XO (XO (XI (XI
+    (XI (XO (XI (XO (XI (XI XH))))))))))))))))), (Npos (XO (XO (XI (XO (XI
+    (XI (XO (XO (XI (XI (XI (XO (XI (XO (XI (XI
+    XH)))))))))))))))))) :: (((Npos (XO (XI (XI (XO (XI (XI (XO (XO (XI (XI
+    (XI (XO (XI (XO (XI (XI XH))))))))))))))))), (Npos (XO (XI (XI (XI (XO
+    (XO (XI (XO (XI (XI (XI (XO (XI (XO (XI (XI
+    XH)))))))))))))))))) :: (((Npos (XO (XO (XO (XO (XI (XO (XI (XO (XI (XI
+    (XI (XO (XI (XO (XI (XI XH))))))))))))))))), (Npos (XO (XI (XI (XI (XO
+    (XI (XI (XO (XI (XI (XI (XO (XI (XO (XI (XI
+    XH)))))))))))))))))) :: (((Npos (XO (XO (XO (XO (XI (XI (XI (XO (XI (XI
+    (XI (XO (XI (XO (XI (XI XH))))))))))))))))), (Npos (XO (XO (XO (XI (XO
+    (XO (XO (XI (XI (XI (XI (XO (XI (XO (XI (XI
+    XH)))))))))))))))))) :: (((Npos (XO (XI (XO (XI (XO (XO (XO (XI (XI (XI
+    (XI (XO (XI (XO (XI (XI XH))))))))))))))))), (Npos (XO (XO (XO (XI (XO
+    (XI (XO (XI (XI (XI (XI (XO (XI (XO (XI (XI
+    XH)))))))))))))))))) :: (((Npos (XO (XI (XO (XI (XO (XI (XO (XI (XI (XI
+    (XI (XO (XI (XO (XI (XI XH))))))))))))))))), (Npos (XO (XI (XO (XO (XO
+    (XO (XI (XI (XI (XI (XI (XO (XI (XO (XI (XI
+    XH)))))))))))))))))) :: (((Npos (XO (XO (XI (XO (XO (XO (XI (XI (XI (XI
+    (XI (XO (XI (XO (XI (XI XH))))))))))))))))), (Npos (XI (XI (XO (XI (XO
+    (XO (XI (XI (XI (XI (XI (XO (XI (XO (XI (XI
+    XH)))))))))))))))))) :: (((Npos (XO (XO (XO (XO (XO (XO (XO (XO (XI (XI
+    (XI (XI (XI (XO (XI (XI XH))))))))))))))))), (Npos (XO (XI (XI (XI (XI
+    (XO (XO (XO (XI (XI (XI (XI (XI (XO (XI (XI
+    XH)))))))))))))))))) :: (((Npos (XI (XO (XI (XO (XO (XI (XO (XO (XI (XI
+    (XI (XI (XI (XO (XI (XI XH))))))))))))))))), (Npos (XO (XI (XO (XI (XO
+    (XI (XO (XO (XI (XI (XI (XI (XI (XO (XI (XI
+    XH)))))))))))))))))) :: (((Npos (XO (XO (XO (XO (XI (XI (XO (XO (XO (XO
+    (XO (XO (XO (XI (XI (XI XH))))))))))))))))), (Npos (XI (XO (XI (XI (XO
+    (XI (XI (XO (XO (XO (XO (XO (XO (XI (XI (XI
+    XH)))))))))))))))))) :: (((Npos (XO (XO (XO (XO (XO (XO (XO (XO (XI (XO
+    (XO (XO (XO (XI (XI (XI XH))))))))))))))))), (Npos (XO (XO (XI (XI (XO
+    (XI (XO (XO (XI (XO (XO (XO (XO (XI (XI (XI
+    XH)))))))))))))))))) :: (((Npos (XI (XI (XI (XO (XI (XI (XO (XO (XI (XO
+    (XO (XO (XO (XI (XI (XI XH))))))))))))))))), (Npos (XI (XO (XI (XI (XI
+    (XI (XO (XO (XI (XO (XO (XO (XO (XI (XI (XI
+    XH)))))))))))))))))) :: (((Npos (XO (XI (XI (XI (XO (XO (XI (XO (XI (XO
+    (XO (XO (XO (XI (XI (XI XH))))))))))))))))), (Npos (XO (XI (XI (XI (XO
+    (XO (XI (XO (XI (XO (XO (XO (XO (XI (XI (XI
+    XH)))))))))))))))))) :: (((Npos (XO (XO (XO (XO (XI (XO (XO (XI (XO (XI
+    (XO (XO (XO (XI (XI (XI XH))))))))))))))))), (Npos (XI (XO (XI (XI (XO
+    (XI (XO (XI (XO (XI (XO (XO (XO (XI (XI (XI
+    XH)))))))))))))))))) :: (((Npos (XO (XO (XO (XO (XO (XO (XI (XI (XO (XI
+    (XO (XO (XO (XI (XI (XI XH))))))))))))))))), (Npos (XI (XI (XO (XI (XO
+    (XI (XI (XI (XO (XI (XO (XO (XO (XI (XI (XI
+    XH)))))))))))))))))) :: (((Npos (XO (XO (XO (XO (XI (XO (XI (XI (XO (XO
+    (XI (XO (XO (XI (XI (XI XH))))))))))))))))), (Npos (XI (XI (XO (XI (XO
+    (XI (XI (XI (XO (XO (XI (XO (XO (XI (XI (XI
+    XH)))))))))))))))))) :: (((Npos (XO (XO (XO (XO (XI (XO (XI (XI (XI (XO
+    (XI (XO (XO (XI (XI (XI XH))))))))))))))))), (Npos (XI (XO (XI (XI (XO
+    (XI (XI (XI (XI (XO (XI (XO (XO (XI (XI (XI
+    XH)))))))))))))))))) :: (((Npos (XO (XO (XO (XO (XI (XI (XI (XI (XI (XO
+    (XI (XO (XO (XI (XI (XI XH))))))))))))))))), (Npos (XO (XO (XO (XO (XI
+    (XI (XI (XI (XI (XO (XI (XO (XO (XI (XI (XI
+    XH)))))))))))))))))) :: (((Npos (XO (XO (XO (XO (XO (XI (XI (XI (XI (XI
+    (XI (XO (XO (XI (XI (XI XH))))))))))))))))), (Npos (XO (XI (XI (XO (XO
+    (XI (XI (XI (XI (XI (XI (XO (XO (XI (XI (XI
+    XH)))))))))))))))))) :: (((Npos (XO (XO (XO (XI (XO (XI (XI (XI (XI (XI
+    (XI (XO (XO (XI (XI (XI XH))))))))))))))))), (Npos (XI (XI (XO (XI (XO
+    (XI (XI (XI (XI (XI (XI (XO (XO (XI (XI (XI
+    XH)))))))))))))))))) :: (((Npos (XI (XO (XI (XI (XO (XI (XI (XI (XI (XI
+    (XI (XO (XO (XI (XI (XI XH))))))))))))))))), (Npos (XO (XI (XI (XI (XO
+    (XI (XI (XI (XI (XI (XI (XO (XO (XI (XI (XI
+    XH)))))))))))))))))) :: (((Npos (XO (XO (XO (XO (XI (XI (XI (XI (XI (XI
+    (XI (XO (XO (XI (XI (XI XH))))))))))))))))), (Npos (XO (XI (XI (XI (XI
+    (XI (XI (XI (XI (XI (XI (XO (XO (XI (XI (XI
+    XH)))))))))))))))))) :: (((Npos (XO (XO (XO (XO (XO (XO (XO (XO (XO (XO
+    (XO (XI (XO (XI (XI (XI XH))))))))))))))))), (Npos (XO (XO (XI (XO (XO
+    (XO (XI (XI (XO (XO (XO (XI (XO (XI (XI (XI
+    XH)))))))))))))))))) :: (((Npos (XO (XO (XO (XO (XO (XO (XO (XO (XI (XO
+    (XO (XI (XO (XI (XI (XI XH))))))))))))))))), (Npos (XI (XI (XO (XO (XO
+    (XO (XI (XO (XI (XO (XO (XI (XO (XI (XI (XI
+    XH)))))))))))))))))) :: (((Npos (XI (XI (XO (XI (XO (XO (XI (XO (XI (XO
+    (XO (XI (XO (XI (XI (XI XH))))))))))))))))), (Npos (XI (XI (XO (XI (XO
+    (XO (XI (XO (XI (XO (XO (XI (XO (XI (XI (XI
+    XH)))))))))))))))))) :: (((Npos (XO (XO (XO (XO (XO (XO (XO (XO (XO (XI
+    (XI (XI (XO (XI (XI (XI XH))))))))))))))))), (Npos (XI (XI (XO (XO (XO
+    (XO (XO (XO (XO (XI (XI (XI (XO (XI (XI (XI
+    XH)))))))))))))))))) :: (((Npos (XI (XO (XI (XO (XO (XO (XO (XO (XO (XI
+    (XI (XI (XO (XI (XI (XI XH))))))))))))))))), (Npos (XI (XI (XI (XI (XI
+    (XO (XO (XO (XO (XI (XI (XI (XO (XI (XI (XI
+    XH)))))))))))))))))) :: (((Npos (XI (XO (XO (XO (XO (XI (XO (XO (XO (XI
+    (XI (XI (XO (XI (XI (XI XH))))))))))))))))), (Npos (XO (XI (XO (XO (XO
+    (XI (XO (XO (XO (XI (XI (XI (XO (XI (XI (XI
+    XH)))))))))))))))))) :: (((Npos (XO (XO (XI (XO (XO (XI (XO (XO (XO (XI
+    (XI (XI (XO (XI (XI (XI XH))))))))))))))))), (Npos (XO (XO (XI (XO (XO
+    (XI (XO (XO (XO (XI (XI (XI (XO (XI (XI (XI
+    XH)))))))))))))))))) :: (((Npos (XI (XI (XI (XO (XO (XI (XO (XO (XO (XI
+    (XI (XI (XO (XI (XI (XI XH))))))))))))))))), (Npos (XI (XI (XI (XO (XO
+    (XI (XO (XO (XO (XI (XI (XI (XO (XI (XI (XI
+    XH)))))))))))))))))) :: (((Npos (XI (XO (XO (XI (XO (XI (XO (XO (XO (XI
+    (XI (XI (XO (XI (XI (XI XH))))))))))))))))), (Npos (XO (XI (XO (XO (XI
+    (XI (XO (XO (XO (XI (XI (XI (XO (XI (XI (XI
+    XH)))))))))))))))))) :: (((Npos (XO (XO (XI (XO (XI (XI (XO (XO (XO (XI
+    (XI (XI (XO (XI (XI (XI XH))))))))))))))))), (Npos (XI (XI (XI (XO (XI
+    (XI (XO (XO (XO (XI (XI (XI (XO (XI (XI (XI
+    XH)))))))))))))))))) :: (((Npos (XI (XO (XO (XI (XI (XI (XO (XO (XO (XI
+    (XI (XI (XO (XI (XI (XI XH))))))))))))))))), (Npos (XI (XO (XO (XI (XI
+    (XI (XO (XO (XO (XI (XI (XI (XO (XI (XI (XI
+    XH)))))))))))))))))) :: (((Npos (XI (XI (XO (XI (XI (XI (XO (XO (XO (XI
+    (XI (XI (XO (XI (XI (XI XH))))))))))))))))), (Npos (XI (XI (XO (XI (XI
+    (XI (XO (XO (XO (XI (XI (XI (XO (XI (XI (XI
+    XH)))))))))))))))))) :: (((Npos (XO (XI (XO (XO (XO (XO (XI (XO (XO (XI
+    (XI (XI (XO (XI (XI (XI XH))))))))))))))))), (Npos (XO (XI (XO (XO (XO
+    (XO (XI (XO (XO (XI (XI (XI (XO (XI (XI (XI
+    XH)))))))))))))))))) :: (((Npos (XI (XI (XI (XO (XO (XO (XI (XO (XO (XI
+    (XI (XI (XO (XI (XI (XI XH))))))))))))))))), (Npos (XI (XI (XI (XO (XO
+    (XO (XI (XO (XO (XI (XI (XI (XO (XI (XI (XI
+    XH)))))))))))))))))) :: (((Npos (XI (XO (XO (XI (XO (XO (XI (XO (XO (XI
+    (XI (XI (XO (XI (XI (XI XH))))))))))))))))), (Npos (XI (XO (XO (XI (XO
+    (XO (XI (XO (XO (XI (XI (XI (XO (XI (XI (XI
+    XH)))))))))))))))))) :: (((Npos (XI (XI (XO (XI (XO (XO (XI (XO (XO (XI
+    (XI (XI (XO (XI (XI (XI XH))))))))))))))))), (Npos (XI (XI (XO (XI (XO
+    (XO (XI (XO (XO (XI (XI (XI (XO (XI (XI (XI
+    XH)))))))))))))))))) :: (((Npos (XI (XO (XI (XI (XO (XO (XI (XO (XO (XI
+    (XI (XI (XO (XI (XI (XI XH))))))))))))))))), (Npos (XI (XI (XI (XI (XO
+    (XO (XI (XO (XO (XI (XI (XI (XO (XI (XI (XI
+    XH)))))))))))))))))) :: (((Npos (XI (XO (XO (XO (XI (XO (XI (XO (XO (XI
+    (XI (XI (XO (XI (XI (XI XH))))))))))))))))), (Npos (XO (XI (XO (XO (XI
+    (XO (XI (XO (XO (XI (XI (XI (XO (XI (XI (XI
+    XH)))))))))))))))))) :: (((Npos (XO (XO (XI (XO (XI (XO (XI (XO (XO (XI
+    (XI (XI (XO (XI (XI (XI XH))))))))))))))))), (Npos (XO (XO (XI (XO (XI
+    (XO (XI (XO (XO (XI (XI (XI (XO (XI (XI (XI
+    XH)))))))))))))))))) :: (((Npos (XI (XI (XI (XO (XI (XO (XI (XO (XO (XI
+    (XI (XI (XO (XI (XI (XI XH))))))))))))))))), (Npos (XI (XI (XI (XO (XI
+    (XO (XI (XO (XO (XI (XI (XI (XO (XI (XI (XI
+    XH)))))))))))))))))) :: (((Npos (XI (XO (XO (XI (XI (XO (XI (XO (XO (XI
+    (XI (XI (XO (XI (XI (XI XH))))))))))))))))), (Npos (XI (XO (XO (XI (XI
+    (XO (XI (XO (XO (XI (XI (XI (XO (XI (XI (XI
+    XH)))))))))))))))))) :: (((Npos (XI (XI (XO (XI (XI (XO (XI (XO (XO (XI
+    (XI (XI (XO (XI (XI (XI XH))))))))))))))))), (Npos (XI (XI (XO (XI (XI
+    (XO (XI (XO (XO (XI (XI (XI (XO (XI (XI (XI
+    XH)))))))))))))))))) :: (((Npos (XI (XO (XI (XI (XI (XO (XI (XO (XO (XI
+    (XI (XI (XO (XI (XI (XI XH))))))))))))))))), (Npos (XI (XO (XI (XI (XI
+    (XO (XI (XO (XO (XI (XI (XI (XO (XI (XI (XI
+    XH)))))))))))))))))) :: (((Npos (XI (XI (XI (XI (XI (XO (XI (XO (XO (XI
+    (XI (XI (XO (XI (XI (XI XH))))))))))))))))), (Npos (XI (XI (XI (XI (XI
+    (XO (XI (XO (XO (XI (XI (XI (XO (XI (XI (XI
+    XH)))))))))))))))))) :: (((Npos (XI (XO (XO (XO (XO (XI (XI (XO (XO (XI
+    (XI (XI (XO (XI (XI (XI XH))))))))))))))))), (Npos (XO (XI (XO (XO (XO
+    (XI (XI (XO (XO (XI (XI (XI (XO (XI (XI (XI
+    XH)))))))))))))))))) :: (((Npos (XO (XO (XI (XO (XO (XI (XI (XO (XO (XI
+    (XI (XI (XO (XI (XI (XI XH))))))))))))))))), (Npos (XO (XO (XI (XO (XO
+    (XI (XI (XO (XO (XI (XI (XI (XO (XI (XI (XI
+    XH)))))))))))))))))) :: (((Npos (XI (XI (XI (XO (XO (XI (XI (XO (XO (XI
+    (XI (XI (XO (XI (XI (XI XH))))))))))))))))), (Npos (XO (XI (XO (XI (XO
+    (XI (XI (XO (XO (XI (XI (XI (XO (XI (XI (XI
+    XH)))))))))))))))))) :: (((Npos (XO (XO (XI (XI (XO (XI (XI (XO (XO (XI
+    (XI (XI (XO (XI (XI (XI XH))))))))))))))))), (Npos (XO (XI (XO (XO (XI
+    (XI (XI (XO (XO (XI (XI (XI (XO (XI (XI (XI
+    XH)))))))))))))))))) :: (((Npos (XO (XO (XI (XO (XI (XI (XI (XO (XO (XI
+    (XI (XI (XO (XI (XI (XI XH))))))))))))))))), (Npos (XI (XI (XI (XO (XI
+    (XI (XI (XO (XO (XI (XI (XI (XO (XI (XI (XI
+    XH)))))))))))))))))) :: (((Npos (XI (XO (XO (XI (XI (XI (XI (XO (XO (XI
+    (XI (XI (XO (XI (XI (XI XH))))))))))))))))), (Npos (XO (XO (XI (XI (XI
+    (XI (XI (XO (XO (XI (XI (XI (XO (XI (XI (XI
+    XH)))))))))))))))))) :: (((Npos (XO (XI (XI (XI (XI (XI (XI (XO (XO (XI
+    (XI (XI (XO (XI (XI (XI XH))))))))))))))))), (Npos (XO (XI (XI (XI (XI
+    (XI (XI (XO (XO (XI (XI (XI (XO (XI (XI (XI
+    XH)))))))))))))))))) :: (((Npos (XO (XO (XO (XO (XO (XO (XO (XI (XO (XI
+    (XI (XI (XO (XI (XI (XI XH))))))))))))))))), (Npos (XI (XO (XO (XI (XO
+    (XO (XO (XI (XO (XI (XI (XI (XO (XI (XI (XI
+    XH)))))))))))))))))) :: (((Npos (XI (XI (XO (XI (XO (XO (XO (XI (XO (XI
+    (XI (XI (XO (XI (XI (XI XH))))))))))))))))), (Npos (XI (XI (XO (XI (XI
+    (XO (XO (XI (XO (XI (XI (XI (XO (XI (XI (XI
+    XH)))))))))))))))))) :: (((Npos (XI (XO (XO (XO (XO (XI (XO (XI (XO (XI
+    (XI (XI (XO (XI (XI (XI XH))))))))))))))))), (Npos (XI (XI (XO (XO (XO
+    (XI (XO (XI (XO (XI (XI (XI (XO (XI (XI (XI
+    XH)))))))))))))))))) :: (((Npos (XI (XO (XI (XO (XO (XI (XO (XI (XO (XI
+    (XI (XI (XO (XI (XI (XI XH))))))))))))))))), (Npos (XI (XO (XO (XI (XO
+    (XI (XO (XI (XO (XI (XI (XI (XO (XI (XI (XI
+    XH)))))))))))))))))) :: (((Npos (XI (XI (XO (XI (XO (XI (XO (XI (XO (XI
+    (XI (XI (XO (XI (XI (XI XH))))))))))))))))), (Npos (XI (XI (XO (XI (XI
+    (XI (XO (XI (XO (XI (XI (XI (XO (XI (XI (XI
+    XH)))))))))))))))))) :: (((Npos (XO (XO (XO (XO (XO (XO (XO (XO (XO (XO
+    (XO (XO (XO (XO (XO (XO (XO XH)))))))))))))))))), (Npos (XI (XI (XI (XI
+    (XI (XO (XI (XI (XO (XI (XI (XO (XO (XI (XO (XI (XO
+    XH))))))))))))))))))) :: (((Npos (XO (XO (XO (XO (XO (XO (XO (XO (XI (XI
+    (XI (XO (XO (XI (XO (XI (XO XH)))))))))))))))))), (Npos (XI (XO (XO (XI
+    (XI (XI (XO (XO (XI (XI (XI (XO (XI (XI (XO (XI (XO
+    XH))))))))))))))))))) :: (((Npos (XO (XO (XO (XO (XO (XO (XI (XO (XI (XI
+    (XI (XO (XI (XI (XO (XI (XO XH)))))))))))))))))), (Npos (XI (XO (XI (XI
+    (XI (XO (XO (XO (XO (XO (XO (XI (XI (XI (XO (XI (XO
+    XH))))))))))))))))))) :: (((Npos (XO (XO (XO (XO (XO (XI (XO (XO (XO (XO
+    (XO (XI (XI (XI (XO (XI (XO XH)))))))))))))))))), (Npos (XI (XO (XO (XO
+    (XO (XI (XO (XI (XO (XI (XI (XI (XO (XO (XI (XI (XO
+    XH))))))))))))))))))) :: (((Npos (XO (XO (XO (XO (XI (XI (XO (XI (XO (XI
+    (XI (XI (XO (XO (XI (XI (XO XH)))))))))))))))))), (Npos (XO (XO (XO (XO
+    (XO (XI (XI (XI (XI (XI (XO (XI (XO (XI (XI (XI (XO
+    XH))))))))))))))))))) :: (((Npos (XO (XO (XO (XO (XI (XI (XI (XI (XI (XI
+    (XO (XI (XO (XI (XI (XI (XO XH)))))))))))))))))), (Npos (XI (XO (XI (XI
+    (XI (XO (XI (XO (XO (XI (XI (XI (XO (XI (XI (XI (XO
+    XH))))))))))))))))))) :: (((Npos (XO (XO (XO (XO (XO (XO (XO (XO (XO (XO
+    (XO (XI (XI (XI (XI (XI (XO XH)))))))))))))))))), (Npos (XI (XO (XI (XI
+    (XI (XO (XO (XO (XO (XI (XO (XI (XI (XI (XI (XI (XO
+    XH))))))))))))))))))) :: (((Npos (XO (XO (XO (XO (XO (XO (XO (XO (XO (XO
+    (XO (XO (XO (XO (XO (XO (XI XH)))))))))))))))))), (Npos (XO (XI (XO (XI
+    (XO (XO (XI (XO (XI (XI (XO (XO (XI (XO (XO (XO (XI
+    XH))))))))))))))))))) :: (((Npos (XO (XO (XO (XO (XI (XO (XI (XO (XI (XI
+    (XO (XO (XI (XO (XO (XO (XI XH)))))))))))))))))), (Npos (XI (XI (XI (XI
+    (XO (XI (XO (XI (XI (XI (XO (XO (XO (XI (XO (XO (XI
+    XH))))))))))))))))))) :: []))))))))))))))))))))))))))))))))))))))))))))))))))))))))))))))))))))))))))))))))))))))))))))))))))))))))))))))))))))))))))))))))))))))))))))))))))))))))))))))))))))))))))))))))))))))))))))))))))))))))))))))))))))))))))))))))))))))))))))))))))))))))))))))))))))))))))))))))))))))))))))))))))))))))))))))))))))))))))))))))))))))))))))))))))))))))))))))))))))))))))))))))))))))))))))))))))))))))))))))))))))))))))))))))))))))))))))))))))))))))))))))))))))))))))))))))))))))))))))))))))))))))))))))))))))))))))))))))))))))))))))))))))))))))))))))))))))))))))))))))))))))))))))))))))))))))))))))))))))))))))))))))))))))))))))))))))))))))))))))))))))))))))))))))))))))))))))))))))))
 
 (** val hexd : n -> n **)
 
@@ -4882,6 +6614,585 @@ let rec tests_from d line title =
 
 let cram_tests_of d =
   tests_from d O None
+
+(** val is_white : n -> bool **)
+
+let is_white c =
+  in_ranges whitespace_ranges c
+
+(** val is_letter : n -> bool **)
+
+let is_letter c =
+  in_ranges letter_ranges c
+
+(** val bT : n **)
+
+let bT =
+  Npos (XO (XO (XO (XO (XO (XI XH))))))
+
+(** val drop_while : (n -> bool) -> text -> text **)
+
+let rec drop_while p l = match l with
+| [] -> []
+| c :: r -> if p c then drop_while p r else l
+
+(** val trim_start : text -> text **)
+
+let trim_start l =
+  drop_while is_white l
+
+(** val trim_end : text -> text **)
+
+let trim_end l =
+  rev (drop_while is_white (rev l))
+
+(** val trim : text -> text **)
+
+let trim l =
+  trim_end (trim_start l)
+
+(** val count_bt : text -> nat **)
+
+let rec count_bt = function
+| [] -> O
+| c :: r -> if N.eqb c bT then S (count_bt r) else O
+
+(** val split_at_brace : text -> text * text option **)
+
+let rec split_at_brace l = match l with
+| [] -> ([], None)
+| c :: r ->
+  if N.eqb c (Npos (XI (XI (XO (XI (XI (XI XH)))))))
+  then ([], (Some l))
+  else let (a, b) = split_at_brace r in ((c :: a), b)
+
+(** val extract_code_block_start : text -> ((nat * text) * text) option **)
+
+let extract_code_block_start line =
+  let n0 = count_bt line in
+  let rest = skipn n0 line in
+  (match rest with
+   | [] ->
+     if eqb n0 (S (S (S O))) then Some (((S (S (S O))), []), []) else None
+   | _ :: _ ->
+     if ltb n0 (S (S (S O)))
+     then None
+     else let (lang, o) = split_at_brace rest in
+          (match o with
+           | Some cfg -> Some ((n0, (trim_end lang)), cfg)
+           | None -> Some ((n0, lang), [])))
+
+(** val closes : nat -> text -> bool **)
+
+let closes n0 line =
+  leb n0 (count_bt line)
+
+(** val sCRUT : text **)
+
+let sCRUT =
+  (Npos (XI (XI (XO (XO (XI (XI XH))))))) :: ((Npos (XI (XI (XO (XO (XO (XI
+    XH))))))) :: ((Npos (XO (XI (XO (XO (XI (XI XH))))))) :: ((Npos (XI (XO
+    (XI (XO (XI (XI XH))))))) :: ((Npos (XO (XO (XI (XO (XI (XI
+    XH))))))) :: []))))
+
+(** val dASHES : text **)
+
+let dASHES =
+  (Npos (XI (XO (XI (XI (XO XH)))))) :: ((Npos (XI (XO (XI (XI (XO
+    XH)))))) :: ((Npos (XI (XO (XI (XI (XO XH)))))) :: []))
+
+(** val inner_config : text -> text option **)
+
+let inner_config = function
+| [] -> None
+| n0 :: r ->
+  (match n0 with
+   | N0 -> None
+   | Npos p ->
+     (match p with
+      | XI p0 ->
+        (match p0 with
+         | XI p1 ->
+           (match p1 with
+            | XO p2 ->
+              (match p2 with
+               | XI p3 ->
+                 (match p3 with
+                  | XI p4 ->
+                    (match p4 with
+                     | XI p5 ->
+                       (match p5 with
+                        | XH ->
+                          (match rev r with
+                           | [] -> None
+                           | n1 :: m ->
+                             (match n1 with
+                              | N0 -> None
+                              | Npos p6 ->
+                                (match p6 with
+                                 | XI p7 ->
+                                   (match p7 with
+                                    | XO p8 ->
+                                      (match p8 with
+                                       | XI p9 ->
+                                         (match p9 with
+                                          | XI p10 ->
+                                            (match p10 with
+                                             | XI p11 ->
+                                               (match p11 with
+                                                | XI p12 ->
+                                                  (match p12 with
+                                                   | XH ->
+                                                     (match rev m with
+                                                      | [] -> None
+                                                      | n2 :: l ->
+                                                        Some (n2 :: l))
+                                                   | _ -> None)
+                                                | _ -> None)
+                                             | _ -> None)
+                                          | _ -> None)
+                                       | _ -> None)
+                                    | _ -> None)
+                                 | _ -> None)))
+                        | _ -> None)
+                     | _ -> None)
+                  | _ -> None)
+               | _ -> None)
+            | _ -> None)
+         | _ -> None)
+      | _ -> None))
+
+type token =
+| TLine of nat * text
+| TFront of text list * text list
+| TVerb of nat * text * text list
+| TTest of text option * text list * (nat * text) list * text list
+
+type mstate =
+| Top of bool
+| InFront of text list * text list
+| InVerb of nat * nat * text * text list
+| InTest of nat * text option * text list * (nat * text) list * text list
+
+(** val mstep : mstate -> nat -> text -> mstate * token list **)
+
+let mstep s idx l =
+  match s with
+  | Top cs ->
+    if (&&) (negb cs) (list_eqb l dASHES)
+    then ((InFront ([], (l :: []))), [])
+    else (match extract_code_block_start l with
+          | Some p ->
+            let (p0, cfg) = p in
+            let (n0, lang) = p0 in
+            if list_eqb lang sCRUT
+            then ((InTest (n0, (inner_config cfg), [], [], (l :: []))), [])
+            else ((InVerb (n0, idx, lang, (l :: []))), [])
+          | None ->
+            ((Top
+              ((||) cs
+                (negb (match trim l with
+                       | [] -> true
+                       | _ :: _ -> false)))), ((TLine (idx, l)) :: [])))
+  | InFront (acc, raw) ->
+    if list_eqb l dASHES
+    then ((Top false), ((TFront (acc, (app raw (l :: [])))) :: []))
+    else ((InFront ((app acc (l :: [])), (app raw (l :: [])))), [])
+  | InVerb (n0, start, lang, raw) ->
+    if closes n0 l
+    then ((Top true), ((TVerb (start, lang, (app raw (l :: [])))) :: []))
+    else ((InVerb (n0, start, lang, (app raw (l :: [])))), [])
+  | InTest (n0, cfg, cm, code, raw) ->
+    (match code with
+     | [] ->
+       if is_comment l
+       then ((InTest (n0, cfg, (app cm (l :: [])), [], (app raw (l :: [])))),
+              [])
+       else if closes n0 l
+            then ((Top true), ((TTest (cfg, cm, [],
+                   (app raw (l :: [])))) :: []))
+            else ((InTest (n0, cfg, cm, ((idx, l) :: []),
+                   (app raw (l :: [])))), [])
+     | _ :: _ ->
+       if closes n0 l
+       then ((Top true), ((TTest (cfg, cm, code, (app raw (l :: [])))) :: []))
+       else ((InTest (n0, cfg, cm, (app code ((idx, l) :: [])),
+              (app raw (l :: [])))), []))
+
+(** val mflush : mstate -> token list **)
+
+let mflush = function
+| Top _ -> []
+| InFront (acc, raw) -> (TFront (acc, raw)) :: []
+| InVerb (_, start, lang, raw) -> (TVerb (start, lang, raw)) :: []
+| InTest (_, cfg, cm, code, raw) -> (TTest (cfg, cm, code, raw)) :: []
+
+(** val mrun : mstate -> nat -> text list -> token list **)
+
+let rec mrun s idx = function
+| [] -> mflush s
+| l :: r -> let (s', out) = mstep s idx l in app out (mrun s' (S idx) r)
+
+(** val md_tokens : text list -> token list **)
+
+let md_tokens ls =
+  mrun (Top false) O ls
+
+(** val drop_hashes : text -> text **)
+
+let rec drop_hashes l = match l with
+| [] -> l
+| n0 :: r ->
+  (match n0 with
+   | N0 -> l
+   | Npos p ->
+     (match p with
+      | XI p0 ->
+        (match p0 with
+         | XI p1 ->
+           (match p1 with
+            | XO p2 ->
+              (match p2 with
+               | XO p3 ->
+                 (match p3 with
+                  | XO p4 -> (match p4 with
+                              | XH -> drop_hashes r
+                              | _ -> l)
+                  | _ -> l)
+               | _ -> l)
+            | _ -> l)
+         | _ -> l)
+      | _ -> l))
+
+(** val extract_title : text -> text option **)
+
+let extract_title line =
+  let t = trim line in
+  (match t with
+   | [] -> None
+   | c :: _ ->
+     if is_letter c
+     then Some t
+     else if N.eqb c (Npos (XI (XI (XO (XO (XO XH))))))
+          then let r = drop_hashes t in
+               (match r with
+                | [] -> None
+                | w :: _ ->
+                  if is_white w
+                  then (match trim_start r with
+                        | [] -> None
+                        | n0 :: l -> Some (n0 :: l))
+                  else None)
+          else None)
+
+(** val join_nl : text list -> text **)
+
+let rec join_nl = function
+| [] -> []
+| x :: r ->
+  (match r with
+   | [] -> x
+   | _ :: _ -> app x (app ((Npos (XO (XI (XO XH)))) :: []) (join_nl r)))
+
+type mtest = { mt_test : ptest; mt_cfg : text option }
+
+(** val feed_code : (text -> bool) -> lp -> (nat * text) list -> lp lres **)
+
+let rec feed_code pe_ok s = function
+| [] -> LOk s
+| p :: r ->
+  let (idx, l) = p in
+  (match add_body pe_ok false s l idx with
+   | LOk s' -> feed_code pe_ok s' r
+   | LErr -> LErr)
+
+(** val last_idx : (nat * text) list -> nat **)
+
+let rec last_idx = function
+| [] -> O
+| p :: r -> let (i, _) = p in (match r with
+                               | [] -> i
+                               | _ :: _ -> last_idx r)
+
+(** val parse_tokens :
+    (text -> bool) -> (text list -> bool) -> (text -> bool) -> token list ->
+    lp -> text list -> text option list -> (lp * text option list) lres **)
+
+let rec parse_tokens pe_ok front_ok cfg_ok ts s para cfgs =
+  match ts with
+  | [] -> LOk (s, cfgs)
+  | t :: r ->
+    (match t with
+     | TLine (_, l) ->
+       (match extract_title l with
+        | Some t0 ->
+          let para' = app para (t0 :: []) in
+          parse_tokens pe_ok front_ok cfg_ok r (set_title s (join_nl para'))
+            para' cfgs
+        | None -> parse_tokens pe_ok front_ok cfg_ok r s [] cfgs)
+     | TFront (lines, _) ->
+       if front_ok lines
+       then parse_tokens pe_ok front_ok cfg_ok r s para cfgs
+       else LErr
+     | TVerb (_, lang, _) ->
+       (match lang with
+        | [] -> LErr
+        | _ :: _ -> parse_tokens pe_ok front_ok cfg_ok r s para cfgs)
+     | TTest (cfg, _, code, _) ->
+       if match cfg with
+          | Some c -> cfg_ok c
+          | None -> true
+       then (match feed_code pe_ok s code with
+             | LOk s1 ->
+               (match end_testcase s1 (last_idx code) with
+                | LOk s2 ->
+                  let pushed = ltb (length s1.lp_cases) (length s2.lp_cases)
+                  in
+                  parse_tokens pe_ok front_ok cfg_ok r s2 []
+                    (if pushed then cfg :: cfgs else cfgs)
+                | LErr -> LErr)
+             | LErr -> LErr)
+       else LErr)
+
+(** val parse_md :
+    (text -> bool) -> (text list -> bool) -> (text -> bool) -> text list ->
+    mtest list lres **)
+
+let parse_md pe_ok front_ok cfg_ok ls =
+  match parse_tokens pe_ok front_ok cfg_ok (md_tokens ls) lp_init [] [] with
+  | LOk a ->
+    let (s, cfgs) = a in
+    LOk
+    (map (fun p -> { mt_test = (fst p); mt_cfg = (snd p) })
+      (combine (rev s.lp_cases) (rev cfgs)))
+  | LErr -> LErr
+
+type elem =
+| EFront of text list
+| EProse of text
+| EHeading of nat * text
+| EBlank
+| EForeign of nat * text * text list
+| EScrut of nat * text option * text list
+   * ((text * text list) * bline list) option
+
+(** val fence : nat -> text **)
+
+let fence n0 =
+  repeat bT n0
+
+(** val hashes : nat -> text **)
+
+let hashes k =
+  repeat (Npos (XI (XI (XO (XO (XO XH)))))) k
+
+(** val render_body : bline -> text **)
+
+let render_body = function
+| BExp l -> l
+| BCode ds ->
+  app ((Npos (XI (XI (XO (XI (XI (XO XH))))))) :: [])
+    (app ds ((Npos (XI (XO (XI (XI (XI (XO XH))))))) :: []))
+
+(** val render_elem : elem -> text list **)
+
+let render_elem = function
+| EFront lines -> app (dASHES :: []) (app lines (dASHES :: []))
+| EProse l -> l :: []
+| EHeading (k, t) ->
+  (app (hashes k) (app ((Npos (XO (XO (XO (XO (XO XH)))))) :: []) t)) :: []
+| EBlank -> [] :: []
+| EForeign (n0, lang, body) ->
+  app ((app (fence n0) lang) :: []) (app body ((fence n0) :: []))
+| EScrut (n0, cfg, comments, cmd) ->
+  app
+    ((app (fence n0)
+       (app sCRUT
+         (match cfg with
+          | Some c ->
+            app ((Npos (XO (XO (XO (XO (XO XH)))))) :: ((Npos (XI (XI (XO (XI
+              (XI (XI XH))))))) :: []))
+              (app c ((Npos (XI (XO (XI (XI (XI (XI XH))))))) :: []))
+          | None -> []))) :: [])
+    (app comments
+      (app
+        (match cmd with
+         | Some p ->
+           let (p0, body) = p in
+           let (c, conts) = p0 in
+           app ((app p_DOLLAR c) :: [])
+             (app (map (fun x -> app p_GT x) conts) (map render_body body))
+         | None -> []) ((fence n0) :: [])))
+
+(** val render_md : elem list -> text list **)
+
+let render_md d =
+  flat_map render_elem d
+
+type tstate = { ts_para : text list; ts_title : text option }
+
+(** val title_line : tstate -> text -> tstate **)
+
+let title_line st line =
+  match extract_title line with
+  | Some t ->
+    let p = app st.ts_para (t :: []) in
+    { ts_para = p; ts_title = (Some (join_nl p)) }
+  | None -> { ts_para = []; ts_title = st.ts_title }
+
+(** val md_tests_from : elem list -> nat -> tstate -> mtest list **)
+
+let rec md_tests_from d line st =
+  match d with
+  | [] -> []
+  | e :: r ->
+    let next = add line (length (render_elem e)) in
+    (match e with
+     | EProse l -> md_tests_from r next (title_line st l)
+     | EHeading (k, t) ->
+       md_tests_from r next
+         (title_line st
+           (app (hashes k) (app ((Npos (XO (XO (XO (XO (XO XH)))))) :: []) t)))
+     | EBlank -> md_tests_from r next (title_line st [])
+     | EScrut (_, cfg, comments, cmd) ->
+       (match cmd with
+        | Some p ->
+          let (p0, body) = p in
+          let (c, conts) = p0 in
+          { mt_test = { pt_title =
+          (match st.ts_title with
+           | Some t -> t
+           | None -> []); pt_cmd = (c :: conts); pt_exps = (exps_of0 body);
+          pt_code = (code_of body); pt_line = (S
+          (add (add line (S O)) (length comments))) }; mt_cfg =
+          cfg } :: (md_tests_from r next { ts_para = []; ts_title = None })
+        | None ->
+          md_tests_from r next { ts_para = []; ts_title = st.ts_title })
+     | _ -> md_tests_from r next st)
+
+(** val md_tests_of : elem list -> mtest list **)
+
+let md_tests_of d =
+  md_tests_from d O { ts_para = []; ts_title = None }
+
+(** val not_fence_start : text -> bool **)
+
+let not_fence_start l =
+  match extract_code_block_start l with
+  | Some _ -> false
+  | None -> true
+
+(** val no_nl : text -> bool **)
+
+let no_nl l =
+  forallb (fun c ->
+    (&&) (negb (N.eqb c (Npos (XO (XI (XO XH))))))
+      (negb (N.eqb c (Npos (XI (XO (XI XH))))))) l
+
+(** val md_exp_ok : (text -> bool) -> nat -> text -> bool **)
+
+let md_exp_ok pe_ok n0 l =
+  (&&)
+    ((&&)
+      ((&&) (match extract_exit_code l with
+             | Some _ -> false
+             | None -> true) (pe_ok l)) (negb (closes n0 l))) (no_nl l)
+
+(** val md_body_ok : (text -> bool) -> nat -> bline list -> bool **)
+
+let md_body_ok pe_ok n0 body =
+  (&&)
+    ((&&)
+      (forallb (fun b ->
+        match b with
+        | BExp l -> md_exp_ok pe_ok n0 l
+        | BCode ds -> code_ok ds) body) (leb (count_codes body) (S O)))
+    (match body with
+     | [] -> true
+     | b :: _ ->
+       (match b with
+        | BExp l -> negb (starts_with p_GT l)
+        | BCode _ -> true))
+
+(** val lang_ok : text -> bool **)
+
+let lang_ok lang =
+  (&&)
+    ((&&) (match lang with
+           | [] -> false
+           | c :: _ -> negb (N.eqb c bT))
+      (negb
+        (list_eqb
+          (let (a, o) = split_at_brace lang in
+           (match o with
+            | Some _ -> trim_end a
+            | None -> a)) sCRUT))) (no_nl lang)
+
+(** val cfg_text_ok : (text -> bool) -> text -> bool **)
+
+let cfg_text_ok cfg_ok c =
+  (&&) ((&&) (match c with
+              | [] -> false
+              | _ :: _ -> true) (cfg_ok c)) (no_nl c)
+
+(** val elem_ok :
+    (text -> bool) -> (text list -> bool) -> (text -> bool) -> bool -> elem
+    -> bool **)
+
+let elem_ok pe_ok front_ok cfg_ok first = function
+| EFront lines ->
+  (&&) ((&&) first (front_ok lines))
+    (forallb (fun l -> (&&) (negb (list_eqb l dASHES)) (no_nl l)) lines)
+| EProse l ->
+  (&&) ((&&) (not_fence_start l) (no_nl l))
+    (negb ((&&) first (list_eqb l dASHES)))
+| EHeading (k, t) ->
+  (&&) ((&&) (ltb O k) (no_nl t)) (match t with
+                                   | [] -> false
+                                   | _ :: _ -> true)
+| EBlank -> true
+| EForeign (n0, lang, body) ->
+  (&&) ((&&) (leb (S (S (S O))) n0) (lang_ok lang))
+    (forallb (fun l -> (&&) (negb (closes n0 l)) (no_nl l)) body)
+| EScrut (n0, cfg, comments, cmd) ->
+  (&&)
+    ((&&)
+      ((&&) (leb (S (S (S O))) n0)
+        (match cfg with
+         | Some c -> cfg_text_ok cfg_ok c
+         | None -> true))
+      (forallb (fun l -> (&&) (is_comment l) (no_nl l)) comments))
+    (match cmd with
+     | Some p ->
+       let (p0, body) = p in
+       let (c, conts) = p0 in
+       (&&) ((&&) (no_nl c) (forallb no_nl conts)) (md_body_ok pe_ok n0 body)
+     | None -> true)
+
+(** val wf_md_from :
+    (text -> bool) -> (text list -> bool) -> (text -> bool) -> bool -> elem
+    list -> bool **)
+
+let rec wf_md_from pe_ok front_ok cfg_ok first = function
+| [] -> true
+| e :: r ->
+  (&&) (elem_ok pe_ok front_ok cfg_ok first e)
+    (wf_md_from pe_ok front_ok cfg_ok
+      ((&&) first
+        (match e with
+         | EFront _ -> true
+         | EProse l -> (match trim l with
+                        | [] -> true
+                        | _ :: _ -> false)
+         | EBlank -> true
+         | _ -> false)) r)
+
+(** val wf_md :
+    (text -> bool) -> (text list -> bool) -> (text -> bool) -> elem list ->
+    bool **)
+
+let wf_md pe_ok front_ok cfg_ok d =
+  wf_md_from pe_ok front_ok cfg_ok true d
 
 (** val make_exp : bool -> bool -> (nat -> bool) -> nat exp **)
 
